@@ -1,5 +1,30 @@
-(* Proof of the round-trip theorem of C03: Unmarshal (Marshal v) = norm v. *)
-From Verif Require Import Base.GoInt Proto.Ext Generated.ProtoGen Proto.Model Proto.PrimSpec Proto.PrimProofs Proto.Spec.
+(* Proof of the round-trip theorem of C03: Unmarshal (Marshal &v) ~ v.
+
+   RESULT. The statement [roundtrip_statement] of Spec.v is FALSE as written (Lemma roundtrip_statement_false below,
+   Qed). What is proved (Qed, no axioms) is [roundtrip_norm_with_hyp]:
+
+     in_universe t v -> representable v -> keys_distinct v ->
+     rep_tags_ok t = true -> top_ok v = true -> Size (TPtr t) (VPtr (Some v)) < lim ->
+     Marshal (TPtr t) (VPtr (Some v)) = Ok (Some bs) ->
+     exists fuel r, Unmarshal fuel t bs (zero_val t) = Ok (Some r) /\ norm r = norm v.
+
+   Differences with the statement of Spec.v:
+   (1) both sides are normalised (norm r = norm v): an omitted nil []byte / RawMessage field decodes to the zero value
+       VBytes false [] / VRaw false [], which is not syntactically [norm v] (flaw of the statement, not of the code);
+   (2) hypothesis [rep_tags_ok t]: the struct-tag option [rep] occurs only on slice and map fields. Without it the
+       round trip fails (Lemma roundtrip_norm_needs_rep_tags_ok): struct.go sets the repeated flag from the tag
+       whatever the kind of the field, the field is then written by the repeated pass, which writes no tag;
+   (3) hypothesis [top_ok v]: v is not a (top-level) pointer to an empty RawMessage. Without it the round trip fails
+       (Lemma roundtrip_norm_needs_top_ok): F17-like, the toplevel flag survives pointers, the message codec then
+       writes zero bytes, and Unmarshal of an empty input resets the target to nil;
+   (4) hypothesis Size (TPtr t) (&v) < lim: [in_universe] bounds the size of v marshalled BY VALUE (flags
+       inline|toplevel), but the theorem marshals &v (flags wantzero|toplevel), whose encoding can be longer (a zero
+       first field is written only under a pointer). Needed so that no Go int arithmetic wraps.
+
+   Structure: [enc] is the pure function giving the bytes the encoder produces; size_enc: size_of = len enc;
+   encode_enc: encode writes enc; D_all: decode (enc v) = r with norm r = norm v, for every well-formed codec
+   ([cwf], what codec_of produces on the universe: codec_of_cwf). *)
+From Verif Require Import Base.GoInt Proto.Ext Generated.ProtoGen Proto.Model Proto.PrimSpec Proto.PrimProofs Proto.Spec Proto.DecProofs.
 From Coq Require Import ZifyBool.
 Open Scope Z_scope.
 
@@ -14,16 +39,2674 @@ Proof.
   - intros fuel. unfold Unmarshal. cbn. discriminate.
 Qed.
 
-(* STATEMENT FALSE: three classes of counterexamples, each confirmed by vm_compute on the model
-   (in_universe, representable, keys_distinct all hold):
-   (1) nil-versus-empty (flaw of the statement's [norm], not of the code):
-       t = TStruct [GField true None TInt; GField true None TBytes], v = VStruct [VInt 5; VBytes false []]:
+(* ==================== Part 1: lists and flags ==================== *)
+(* ---------- lists ---------- *)
+Lemma skipn_app_len {A} (a b : list A) : skipn (length a) (a ++ b) = b.
+Proof. induction a; [reflexivity | exact IHa]. Qed.
+Lemma firstn_app_len {A} (a b : list A) : firstn (length a) (a ++ b) = a.
+Proof. induction a; [reflexivity | cbn; f_equal; exact IHa]. Qed.
+Lemma to_nat_len {A} (l : list A) : Z.to_nat (len l) = length l.
+Proof. unfold len. lia. Qed.
+Lemma slice_from_app (pre w : bytes) : slice_from (pre ++ w) (len pre) = w.
+Proof. unfold slice_from. rewrite to_nat_len. apply skipn_app_len. Qed.
+Lemma len_0_nil {A} (l : list A) : len l = 0 -> l = [].
+Proof. destruct l; [reflexivity | unfold len; cbn; lia]. Qed.
+Lemma len_app3 {A} (a b c : list A) : len (a ++ b ++ c) = len a + len b + len c.
+Proof. rewrite !len_app. lia. Qed.
+Lemma len_pos_cons {A} (x : A) l : 0 < len (x :: l).
+Proof. unfold len; cbn; lia. Qed.
+
+Definition nonempty {A} (l : list A) : bool := match l with [] => false | _ => true end.
+Lemma nonempty_len {A} (l : list A) : nonempty l = (len l >? 0).
+Proof. destruct l; [reflexivity | pose proof (len_pos_cons a l); cbn [nonempty]; lia]. Qed.
+
+Lemma varint_cons v : exists x r, varint v = x :: r.
+Proof. unfold varint. cbn [varint_fuel]. destruct (v <? 128); eauto. Qed.
+Lemma varint_len_pos v : 0 < len (varint v).
+Proof. destruct (varint_cons v) as (x & r & ->). apply len_pos_cons. Qed.
+
+(* ---------- flags ---------- *)
+Ltac fl_enum f :=
+  let H := fresh "Hc" in
+  assert (f = 0 \/ f = 1 \/ f = 2 \/ f = 3 \/ f = 4 \/ f = 5 \/ f = 6 \/ f = 7 \/ f = 8 \/ f = 9 \/ f = 10 \/
+          f = 11 \/ f = 12 \/ f = 13 \/ f = 14 \/ f = 15) as H by lia;
+  repeat (destruct H as [H|H]; [subst f|]); [..|subst f].
+Ltac sf_enum f :=
+  let H := fresh "Hc" in
+  assert (f = 0 \/ f = 1 \/ f = 2 \/ f = 3 \/ f = 4 \/ f = 5 \/ f = 6 \/ f = 7) as H by lia;
+  repeat (destruct H as [H|H]; [subst f|]); [..|subst f].
+
+Definition frange (f : Z) : Prop := 0 <= f < 16.
+(* encoder flags / decoder flags agree on what the decoder looks at *)
+Definition fl_rel (ef df : Z) : Prop :=
+  frange ef /\ frange df /\ has ef proto_zigzag = has df proto_zigzag /\ has ef proto_toplevel = has df proto_toplevel.
+Definition fl_rel0 (ef df : Z) : Prop :=
+  frange ef /\ frange df /\ has ef proto_zigzag = has df proto_zigzag /\ has ef proto_toplevel = false /\ has df proto_toplevel = false.
+
+Ltac fl_fin :=
+  repeat match goal with |- _ /\ _ => split end;
+  try assumption; try lia;
+  try (vm_compute; first [reflexivity | congruence | split; congruence | intros; congruence]).
+Ltac fl_abs df :=
+  let z := fresh "z" in let t := fresh "t" in
+  set (z := has df proto_zigzag) in *; set (t := has df proto_toplevel) in *; clearbody z t.
+
+Lemma fl_rel0_rel ef df : fl_rel0 ef df -> fl_rel ef df.
+Proof. unfold fl_rel0, fl_rel. intuition congruence. Qed.
+Lemma fl_rel_ptr ef df : fl_rel ef df -> fl_rel (with_ (without ef proto_inline) proto_wantzero) df.
+Proof.
+  unfold fl_rel, frange. intros (H1 & H2 & H3 & H4). fl_abs df.
+  fl_enum ef; vm_compute in H3, H4; subst; fl_fin.
+Qed.
+Lemma fl_rel_struct ef df (inl : bool) : fl_rel ef df ->
+  fl_rel0 (if inl then without ef proto_toplevel else without ef (Z.lor proto_inline proto_toplevel)) (without df proto_toplevel).
+Proof.
+  unfold fl_rel, fl_rel0, frange. intros (H1 & H2 & H3 & H4).
+  destruct inl; fl_enum ef; fl_enum df; vm_compute in H3, H4; try discriminate; fl_fin.
+Qed.
+Lemma fl_rel0_nowz ef df : fl_rel0 ef df -> fl_rel0 (without ef proto_wantzero) df.
+Proof.
+  unfold fl_rel0, frange. intros (H1 & H2 & H3 & H4 & H5). fl_abs df.
+  fl_enum ef; vm_compute in H3, H4; try discriminate; subst; fl_fin.
+Qed.
+Definition mkfl (sf base : Z) : Z := Z.lor base (Z.land sf proto_zigzag).
+Lemma make_flags_mkfl f base : make_flags f base = mkfl (sf_flags f) base.
+Proof. reflexivity. Qed.
+Lemma fl_rel0_field ef df sf : fl_rel0 ef df -> 0 <= sf < 8 -> fl_rel0 (mkfl sf ef) (mkfl sf df).
+Proof.
+  unfold fl_rel0, frange. intros (H1 & H2 & H3 & H4 & H5) Hs.
+  sf_enum sf; fl_enum ef; vm_compute in H4; try discriminate;
+   fl_enum df; vm_compute in H3, H5; try discriminate; fl_fin.
+Qed.
+
+(* ==================== Part 2: the byte string the encoder produces; well-formed codecs ==================== *)
+(* ---------- the byte string the encoder produces ---------- *)
+Definition vl (s : bytes) : bytes := varint (len s) ++ s.
+Definition tagb (num wt : Z) : bytes := varint (tag_of num wt).
+Definition pfx (emb : bool) (p : bytes) : bytes := if emb then varint (w64 (len p)) else [].
+(* one field occurrence on the wire: tag, optional length prefix, data *)
+Definition chunk (num wt : Z) (emb : bool) (p : bytes) : bytes := tagb num wt ++ pfx emb p ++ p.
+Definition kf_emb (kf : Z) : bool := negb (Z.land kf proto_embedded =? 0).
+Definition opt_chunk (num wt : Z) (emb : bool) (p : bytes) : bytes :=
+  match p with [] => [] | _ => chunk num wt emb p end.
+
+Section Passes.
+  Variable encf : codec -> option val -> Z -> bytes.
+  Fixpoint upass_of (fs : list sfield) (vs : list val) (flags : Z) {struct fs} : Z * bytes :=
+    match fs, vs with
+    | f :: fr, v :: vr =>
+        if sf_repeated f then upass_of fr vr flags else
+        let p := encf (sf_codec f) (Some v) (make_flags f flags) in
+        match p with
+        | [] => upass_of fr vr flags
+        | _ => let '(fl', bs) := upass_of fr vr (without flags proto_wantzero) in
+               (fl', chunk (sf_number f) (wire (sf_codec f)) (sf_embedded f) p ++ bs)
+        end
+    | _, _ => (flags, [])
+    end.
+  Fixpoint rpass_of (fs : list sfield) (vs : list val) (flags : Z) {struct fs} : bytes :=
+    match fs, vs with
+    | f :: fr, v :: vr =>
+        if negb (sf_repeated f) then rpass_of fr vr flags else
+        let p := encf (sf_codec f) (Some v) (make_flags f flags) in
+        p ++ rpass_of fr vr (match p with [] => flags | _ => without flags proto_wantzero end)
+    | _, _ => []
+    end.
+  Definition slice_enc (number wt : Z) (emb : bool) (c' : codec) (es : list val) : bytes :=
+    flat_map (fun e => chunk number wt emb (encf c' (Some e) proto_wantzero)) es.
+  Definition entry_enc (kf vf : Z) (kc vc : codec) (kv : val * val) : bytes :=
+    opt_chunk 1 (wire kc) (kf_emb kf) (encf kc (Some (fst kv)) proto_wantzero) ++
+    opt_chunk 2 (wire vc) (kf_emb vf) (encf vc (Some (snd kv)) proto_wantzero).
+  Definition map_enc (number kf vf : Z) (kc vc : codec) (es : list (val * val)) : bytes :=
+    match es with
+    | [] => tagb number proto_varlen ++ [0]
+    | _ => flat_map (fun kv => chunk number proto_varlen true (entry_enc kf vf kc vc kv)) es
+    end.
+End Passes.
+
+Fixpoint enc (c : codec) (ov : option val) (flags : Z) {struct c} : bytes :=
+  match c, ov with
+  | CBool, Some (VBool x) => if x || has flags proto_wantzero then [if x then 1 else 0] else []
+  | (CInt | CInt32 | CInt64), Some (VInt v) =>
+      if negb (v =? 0) || has flags proto_wantzero then varint (proto_flags_uint64 flags v) else []
+  | (CUint | CUint32 | CUint64), Some (VInt v) =>
+      if negb (v =? 0) || has flags proto_wantzero then varint v else []
+  | CFixed32, Some (VInt v) => if negb (v =? 0) || has flags proto_wantzero then le_bytes 4 v else []
+  | CFixed64, Some (VInt v) => if negb (v =? 0) || has flags proto_wantzero then le_bytes 8 v else []
+  | CFloat32, Some (VInt v) => if f32_nonzero v || has flags proto_wantzero || f32_signbit v then le_bytes 4 v else []
+  | CFloat64, Some (VInt v) => if f64_nonzero v || has flags proto_wantzero || f64_signbit v then le_bytes 8 v else []
+  | CString, Some (VStr s) => if negb (len s =? 0) || has flags proto_wantzero then vl s else []
+  | CBytes, Some (VBytes nn s) => if nn || has flags proto_wantzero then vl s else []
+  | CByteArray n, Some (VArr s) => if has flags proto_wantzero || negb (all_zero s) then vl s else []
+  | CPtr _ c', Some (VPtr o) => enc c' o (with_ (without flags proto_inline) proto_wantzero)
+  | CMessage, Some (VRaw _ s) => if has flags proto_toplevel then s else vl s
+  | CStruct inl_ fields, Some (VStruct vs) =>
+      let flags0 := if inl_ then without flags proto_toplevel else without flags (Z.lor proto_inline proto_toplevel) in
+      let upass := fix upass (fs : list sfield) (vs : list val) (flags : Z) {struct fs} : Z * bytes :=
+        match fs, vs with
+        | f :: fr, v :: vr =>
+            if sf_repeated f then upass fr vr flags else
+            let p := enc (sf_codec f) (Some v) (make_flags f flags) in
+            match p with
+            | [] => upass fr vr flags
+            | _ => let '(fl', bs) := upass fr vr (without flags proto_wantzero) in
+                   (fl', chunk (sf_number f) (wire (sf_codec f)) (sf_embedded f) p ++ bs)
+            end
+        | _, _ => (flags, [])
+        end in
+      let rpass := fix rpass (fs : list sfield) (vs : list val) (flags : Z) {struct fs} : bytes :=
+        match fs, vs with
+        | f :: fr, v :: vr =>
+            if negb (sf_repeated f) then rpass fr vr flags else
+            let p := enc (sf_codec f) (Some v) (make_flags f flags) in
+            p ++ rpass fr vr (match p with [] => flags | _ => without flags proto_wantzero end)
+        | _, _ => []
+        end in
+      let '(fl1, bs1) := upass fields vs flags0 in bs1 ++ rpass fields vs fl1
+  | CSlice number wt emb _ c', Some (VSlice es) =>
+      flat_map (fun e => chunk number wt emb (enc c' (Some e) proto_wantzero)) es
+  | CMap number kf vf _ _ kc vc, Some (VMap _ es) =>
+      match es with
+      | [] => tagb number proto_varlen ++ [0]
+      | _ => flat_map (fun kv => chunk number proto_varlen true
+               (opt_chunk 1 (wire kc) (kf_emb kf) (enc kc (Some (fst kv)) proto_wantzero) ++
+                opt_chunk 2 (wire vc) (kf_emb vf) (enc vc (Some (snd kv)) proto_wantzero))) es
+      end
+  | _, _ => []
+  end.
+
+Definition struct_flags0 (inl_ : bool) (flags : Z) : Z :=
+  if inl_ then without flags proto_toplevel else without flags (Z.lor proto_inline proto_toplevel).
+Lemma enc_struct_eq inl_ fields vs flags :
+  enc (CStruct inl_ fields) (Some (VStruct vs)) flags =
+  let '(fl1, bs1) := upass_of enc fields vs (struct_flags0 inl_ flags) in bs1 ++ rpass_of enc fields vs fl1.
+Proof. reflexivity. Qed.
+Lemma enc_slice_eq number wt emb et c' es flags :
+  enc (CSlice number wt emb et c') (Some (VSlice es)) flags = slice_enc enc number wt emb c' es.
+Proof. reflexivity. Qed.
+Lemma enc_map_eq number kf vf kt vt kc vc nn es flags :
+  enc (CMap number kf vf kt vt kc vc) (Some (VMap nn es)) flags = map_enc enc number kf vf kc vc es.
+Proof. reflexivity. Qed.
+Lemma enc_ptr_eq t c' o flags :
+  enc (CPtr t c') (Some (VPtr o)) flags = enc c' o (with_ (without flags proto_inline) proto_wantzero).
+Proof. reflexivity. Qed.
+
+(* ---------- well-formed (codec, type) pairs: what codec_of produces on the universe ---------- *)
+Definition scalar_ct (c : codec) (t : gty) : bool :=
+  match c, t with
+  | CBool, TBool | CInt, TInt | CInt32, TInt32 | CInt64, TInt64 | CUint, TUint | CUint32, TUint32 | CUint64, TUint64
+  | CFloat32, TFloat32 | CFloat64, TFloat64 | CFixed32, TUint32 | CFixed64, TUint64
+  | CString, TString | CBytes, TBytes | CMessage, TRawMessage => true
+  | CByteArray n, TByteArray m => Nat.eqb n m
+  | _, _ => false
+  end.
+Definition elem_ty (t : gty) : bool := match t with TSlice _ | TMap _ _ => false | _ => true end.
+Definition emb_of (t : gty) : Z := if is_struct (base_ty t) then proto_embedded else 0.
+(* the shape of a compiled field: number, tag size, flags against the type *)
+Definition fshape (f : sfield) : bool :=
+  match f with
+  | SField num ts fl t c =>
+      (1 <=? num) && (num <? 2 ^ 16) && (0 <=? fl) && (fl <? 8) &&
+      (ts =? w8 (proto_sizeOfTag num (wire c))) &&
+      match t with
+      | TSlice et => negb (Z.land fl proto_repeated =? 0) &&
+                     Bool.eqb (negb (Z.land fl proto_embedded =? 0)) (is_struct (base_ty et)) &&
+                     match c with CSlice n _ _ _ _ => n =? num | _ => false end
+      | TMap _ _ => negb (Z.land fl proto_repeated =? 0) && negb (Z.land fl proto_embedded =? 0) &&
+                    match c with CMap n _ _ _ _ _ _ => n =? num | _ => false end
+      | _ => (Z.land fl proto_repeated =? 0) &&
+             Bool.eqb (negb (Z.land fl proto_embedded =? 0)) (is_struct (base_ty t))
+      end
+  end.
+
+Inductive cwf : codec -> gty -> Prop :=
+| cwf_scalar c t : scalar_ct c t = true -> cwf c t
+| cwf_ptr t c : elem_ty t = true -> cwf c t -> cwf (CPtr t c) (TPtr t)
+| cwf_slice n wt emb et c : elem_ty et = true -> cwf c et -> wt = wire c -> emb = is_struct (base_ty et) ->
+    1 <= n < 2 ^ 16 -> cwf (CSlice n wt emb et c) (TSlice et)
+| cwf_map n kf vf kt vt : scalar_key kt = true -> elem_ty vt = true ->
+    cwf (codec_of kt) kt -> cwf (codec_of vt) vt -> kf = emb_of kt -> vf = emb_of vt ->
+    1 <= n < 2 ^ 16 -> cwf (CMap n kf vf kt vt (codec_of kt) (codec_of vt)) (TMap kt vt)
+| cwf_struct inl_ fs gfs : map sf_ty fs = map field_ty gfs -> distinct (map sf_number fs) = true ->
+    (forall f, In f fs -> cwf (sf_codec f) (sf_ty f)) ->
+    (forall f, In f fs -> fshape f = true) ->
+    cwf (CStruct inl_ fs) (TStruct gfs).
+
+(* values against a list of types *)
+Definition wf_list (ts : list gty) (vs : list val) : Prop := Forall2 (fun t v => wf_val t v = true) ts vs.
+Lemma wf_struct_list gfs vs : wf_val (TStruct gfs) (VStruct vs) = true -> wf_list (map field_ty gfs) vs.
+Proof.
+  cbn [wf_val]. revert vs. induction gfs as [|[e tg ft] r IH]; intros [|x vr] H; try discriminate; [constructor|].
+  apply andb_true_iff in H. destruct H as [H1 H2]. constructor; [exact H1 | apply IH, H2].
+Qed.
+
+(* ==================== Part 3: primitive sizes; size bookkeeping ==================== *)
+Lemma lim_val : lim = 2147483648. Proof. reflexivity. Qed.
+
+(* ---------- primitives ---------- *)
+Lemma fu64_u64 f v : i64 v -> u64 (proto_flags_uint64 f v).
+Proof.
+  intros H. unfold proto_flags_uint64. destruct (proto_flags_has f proto_zigzag).
+  - destruct (zigzag64_spec v H) as (-> & H2 & _). exact H2.
+  - unfold u64. apply w64_range.
+Qed.
+Lemma fi64_fu64 ef df v : has ef proto_zigzag = has df proto_zigzag -> i64 v ->
+  proto_flags_int64 df (proto_flags_uint64 ef v) = v.
+Proof.
+  unfold has. intros Hz H. unfold proto_flags_int64, proto_flags_uint64. rewrite <- Hz.
+  destruct (proto_flags_has ef proto_zigzag).
+  - destruct (zigzag64_spec v H) as (-> & _ & H3). exact H3.
+  - unfold i64 in H. unfold s64, w64. cbv zeta.
+    change (2 ^ 64) with 18446744073709551616 in *. change (2 ^ 63) with 9223372036854775808 in *.
+    rewrite Z.mod_mod by lia.
+    destruct (v mod 18446744073709551616 <? 9223372036854775808) eqn:E; Z.div_mod_to_equations; lia.
+Qed.
+Lemma sizeOfVarint_len v : u64 v -> proto_sizeOfVarint v = len (varint v).
+Proof. apply sizeOfVarint_spec. Qed.
+Lemma varint_len_le v : u64 v -> 1 <= len (varint v) <= 10.
+Proof. intros H. apply (varint_length v H). Qed.
+Lemma varint_wfb v : u64 v -> wfb (varint v) = true.
+Proof. intros H. apply (varint_length v H). Qed.
+Lemma sizeOfVarlen_len (s : bytes) : wfb s = true -> len s < lim -> proto_sizeOfVarlen (len s) = len (vl s).
+Proof.
+  intros Hw Hl. rewrite lim_val in Hl. destruct (decodeVarlen_encode s [] Hw) as [_ H]; [lia | rewrite len_nil; lia |].
+  unfold vl. rewrite len_app. exact H.
+Qed.
+Definition wire_ok (wt : Z) : Prop := wt = 0 \/ wt = 1 \/ wt = 2 \/ wt = 5.
+Lemma tag_u64 num wt : 1 <= num < 2 ^ 16 -> wire_ok wt -> u64 (tag_of num wt).
+Proof. unfold wire_ok, u64, tag_of. lia. Qed.
+Lemma sizeOfTag_len num wt : 1 <= num < 2 ^ 16 -> wire_ok wt -> proto_sizeOfTag num wt = len (tagb num wt).
+Proof. intros Hn Hw. apply (tag_spec num wt (repeat 0 0)); unfold wire_ok in Hw; lia. Qed.
+Lemma tagsize_len num wt : 1 <= num < 2 ^ 16 -> wire_ok wt -> w8 (proto_sizeOfTag num wt) = len (tagb num wt).
+Proof.
+  intros Hn Hw. rewrite sizeOfTag_len by assumption.
+  pose proof (varint_len_le _ (tag_u64 num wt Hn Hw)). unfold tagb, w8. apply Z.mod_small. lia.
+Qed.
+Lemma s64_lower x : - 2 ^ 63 <= s64 x.
+Proof. unfold s64, w64. cbv zeta. destruct (x mod 2 ^ 64 <? 2 ^ 63) eqn:E; Z.div_mod_to_equations; lia. Qed.
+Lemma sizeOfVarint_lower x : - 2 ^ 63 <= proto_sizeOfVarint x.
+Proof. unfold proto_sizeOfVarint, divi64. apply s64_lower. Qed.
+
+(* ---------- size bookkeeping: equal, or both beyond the limit ---------- *)
+Definition szok (s : Z) (e : bytes) : Prop := s = len e \/ (lim <= s /\ lim <= len e).
+Lemma szok_nonneg s e : szok s e -> 0 <= s.
+Proof. unfold szok. pose proof (PrimProofs.len_nonneg _ e). rewrite lim_val. lia. Qed.
+Lemma szok_eq s e : szok s e -> len e < lim -> s = len e.
+Proof. unfold szok. lia. Qed.
+Lemma szok_eq' s e : szok s e -> s < lim -> s = len e.
+Proof. unfold szok. lia. Qed.
+Lemma szok_refl e : szok (len e) e.
+Proof. left; reflexivity. Qed.
+Lemma szok_nil : szok 0 [].
+Proof. left; reflexivity. Qed.
+Lemma szok_pos s e : szok s e -> (s >? 0) = nonempty e.
+Proof.
+  intros H. rewrite nonempty_len. unfold szok in H. rewrite lim_val in H. lia.
+Qed.
+Lemma szok_app a x b y : szok a x -> szok b y -> szok (a + b) (x ++ y).
+Proof.
+  unfold szok. rewrite len_app. pose proof (PrimProofs.len_nonneg _ x). pose proof (PrimProofs.len_nonneg _ y).
+  rewrite lim_val. lia.
+Qed.
+Lemma szok_pfx (emb : bool) s p : szok s p ->
+  szok (s + (if emb then proto_sizeOfVarint s else 0)) (pfx emb p ++ p).
+Proof.
+  intros H. pose proof (PrimProofs.len_nonneg _ p) as Hp. pose proof (PrimProofs.len_nonneg _ (pfx emb p)) as Hq.
+  unfold szok in *. rewrite len_app. rewrite lim_val in *.
+  destruct (Z_lt_dec s (2 ^ 64)) as [Hlt|Hge].
+  - destruct H as [H|H].
+    + left. subst s. unfold pfx. destruct emb; [|rewrite len_nil; lia].
+      rewrite w64_small by lia. rewrite sizeOfVarint_len by (unfold u64; lia). lia.
+    + right. split; [|lia]. destruct emb; [|lia].
+      rewrite sizeOfVarint_len by (unfold u64; lia). pose proof (varint_len_pos s). lia.
+  - right. pose proof (sizeOfVarint_lower s). split; [destruct emb; lia | lia].
+Qed.
+Lemma szok_chunk acc accb tg num wt (emb : bool) s p :
+  szok acc accb -> tg = len (tagb num wt) -> szok s p ->
+  szok (acc + tg + s + (if emb then proto_sizeOfVarint s else 0)) (accb ++ chunk num wt emb p).
+Proof.
+  intros Ha -> Hs. unfold chunk.
+  replace (acc + len (tagb num wt) + s + (if emb then proto_sizeOfVarint s else 0))
+    with (acc + (len (tagb num wt) + (s + (if emb then proto_sizeOfVarint s else 0)))) by lia.
+  apply szok_app; [exact Ha|]. apply szok_app; [apply szok_refl | apply szok_pfx, Hs].
+Qed.
+
+(* ==================== Part 4: size_of = len enc ==================== *)
+(* ---------- facts about well-formed codecs ---------- *)
+Lemma wire_cwf c t : cwf c t -> wire_ok (wire c).
+Proof.
+  induction 1 as [c t Hs | t c He H IH | n wt emb et c He H IH Hwt Hemb Hn | n kf vf kt vt Hk Hv H1 IH1 H2 IH2 Hkf Hvf Hn
+                 | inl_ fs gfs Hty Hd H IH Hsh]; unfold wire_ok in *; cbn [wire].
+  - destruct c; try discriminate Hs; cbn [wire]; unfold proto_varint, proto_fixed32, proto_fixed64, proto_varlen; lia.
+  - exact IH.
+  - subst wt. exact IH.
+  - unfold proto_varlen; lia.
+  - unfold proto_varlen; lia.
+Qed.
+Lemma fshape_facts f : fshape f = true ->
+  1 <= sf_number f < 2 ^ 16 /\ 0 <= sf_flags f < 8 /\
+  sf_tagsize f = w8 (proto_sizeOfTag (sf_number f) (wire (sf_codec f))).
+Proof.
+  destruct f as [num ts fl t c]. cbn [fshape sf_number sf_flags sf_tagsize sf_codec].
+  intros H. repeat (apply andb_true_iff in H; destruct H as [H ?]). lia.
+Qed.
+Lemma field_tagsize f : fshape f = true -> cwf (sf_codec f) (sf_ty f) ->
+  sf_tagsize f = len (tagb (sf_number f) (wire (sf_codec f))).
+Proof.
+  intros Hs Hc. destruct (fshape_facts f Hs) as (Hn & _ & ->).
+  apply tagsize_len; [exact Hn | eapply wire_cwf; exact Hc].
+Qed.
+Lemma size_none c fl : size_of c None fl = 0.
+Proof. destruct c; reflexivity. Qed.
+Lemma enc_none c fl : enc c None fl = [].
+Proof. destruct c; reflexivity. Qed.
+
+Lemma wf_slice_all et es : wf_val (TSlice et) (VSlice es) = true -> Forall (fun e => wf_val et e = true) es.
+Proof.
+  cbn [wf_val]. intros H. apply andb_true_iff in H. destruct H as [_ H].
+  induction es as [|x r IH]; [constructor|].
+  apply andb_true_iff in H. destruct H as [H1 H2]. constructor; [exact H1 | apply IH, H2].
+Qed.
+Lemma wf_map_all kt vt nn es : wf_val (TMap kt vt) (VMap nn es) = true ->
+  Forall (fun kv => wf_val kt (fst kv) = true /\ wf_val vt (snd kv) = true) es.
+Proof.
+  cbn [wf_val]. intros H. apply andb_true_iff in H. destruct H as [_ H].
+  induction es as [|[k x] r IH]; [constructor|].
+  apply andb_true_iff in H. destruct H as [H1 H2]. apply andb_true_iff in H1. destruct H1 as [H0 H1].
+  constructor; [cbn; split; assumption | apply IH, H2].
+Qed.
+
+(* ---------- the size passes of a struct, standalone ---------- *)
+Section SPass.
+  Variable szf : codec -> option val -> Z -> Z.
+  Fixpoint spass_of (rep : bool) (fs : list sfield) (vs : list val) (flags : Z) (n : Z) {struct fs} : Z * Z :=
+    match fs, vs with
+    | f :: fr, v :: vr =>
+        if Bool.eqb (sf_repeated f) rep then
+          let size := szf (sf_codec f) (Some v) (make_flags f flags) in
+          if size >? 0 then
+            let n' := if rep then n + size
+                      else n + sf_tagsize f + size + (if sf_embedded f then proto_sizeOfVarint size else 0) in
+            spass_of rep fr vr (without flags proto_wantzero) n'
+          else spass_of rep fr vr flags n
+        else spass_of rep fr vr flags n
+    | _, _ => (flags, n)
+    end.
+End SPass.
+Lemma size_struct_eq inl_ fields vs flags :
+  size_of (CStruct inl_ fields) (Some (VStruct vs)) flags =
+  let '(flags1, n1) := spass_of size_of false fields vs (struct_flags0 inl_ flags) 0 in
+  let '(_, n2) := spass_of size_of true fields vs flags1 n1 in n2.
+Proof. reflexivity. Qed.
+
+Definition field_sz (f : sfield) : Prop :=
+  forall v fl, wf_val (sf_ty f) v = true -> szok (size_of (sf_codec f) (Some v) fl) (enc (sf_codec f) (Some v) fl).
+
+Lemma spass_u : forall fs vs flags n nb,
+  (forall f, In f fs -> field_sz f) ->
+  (forall f, In f fs -> sf_tagsize f = len (tagb (sf_number f) (wire (sf_codec f)))) ->
+  wf_list (map sf_ty fs) vs -> szok n nb ->
+  fst (spass_of size_of false fs vs flags n) = fst (upass_of enc fs vs flags) /\
+  szok (snd (spass_of size_of false fs vs flags n)) (nb ++ snd (upass_of enc fs vs flags)).
+Proof.
+  induction fs as [|f fr IH]; intros vs flags n nb HF HT Hwf Hn.
+  - cbn. rewrite app_nil_r. split; [reflexivity | exact Hn].
+  - inversion Hwf as [|t0 v ts0 vr Hv Hvr]; subst. cbn [spass_of upass_of].
+    assert (HF' : forall g, In g fr -> field_sz g) by (intros; apply HF; right; assumption).
+    assert (HT' : forall g, In g fr -> sf_tagsize g = len (tagb (sf_number g) (wire (sf_codec g)))) by (intros; apply HT; right; assumption).
+    destruct (sf_repeated f); cbn [Bool.eqb].
+    + apply IH; assumption.
+    + pose proof (HF f (or_introl eq_refl) v (make_flags f flags) Hv) as Hs.
+      rewrite (szok_pos _ _ Hs).
+      destruct (enc (sf_codec f) (Some v) (make_flags f flags)) as [|x p] eqn:E; cbn [nonempty].
+      * apply IH; assumption.
+      * destruct (IH vr (without flags proto_wantzero)
+                    (n + sf_tagsize f + size_of (sf_codec f) (Some v) (make_flags f flags) +
+                     (if sf_embedded f then proto_sizeOfVarint (size_of (sf_codec f) (Some v) (make_flags f flags)) else 0))
+                    (nb ++ chunk (sf_number f) (wire (sf_codec f)) (sf_embedded f) (x :: p)) HF' HT' Hvr) as [I1 I2].
+        { apply szok_chunk; [exact Hn | apply HT; left; reflexivity | exact Hs]. }
+        destruct (upass_of enc fr vr (without flags proto_wantzero)) as [fl' bs]. cbn [fst snd] in *.
+        split; [exact I1|]. rewrite <- app_assoc in I2. exact I2.
+Qed.
+
+Lemma spass_r : forall fs vs flags n nb,
+  (forall f, In f fs -> field_sz f) ->
+  wf_list (map sf_ty fs) vs -> szok n nb ->
+  szok (snd (spass_of size_of true fs vs flags n)) (nb ++ rpass_of enc fs vs flags).
+Proof.
+  induction fs as [|f fr IH]; intros vs flags n nb HF Hwf Hn.
+  - cbn. rewrite app_nil_r. exact Hn.
+  - inversion Hwf as [|t0 v ts0 vr Hv Hvr]; subst. cbn [spass_of rpass_of].
+    assert (HF' : forall g, In g fr -> field_sz g) by (intros; apply HF; right; assumption).
+    destruct (sf_repeated f); cbn [Bool.eqb negb].
+    + pose proof (HF f (or_introl eq_refl) v (make_flags f flags) Hv) as Hs.
+      rewrite (szok_pos _ _ Hs).
+      destruct (enc (sf_codec f) (Some v) (make_flags f flags)) as [|x p] eqn:E; cbn [nonempty].
+      * cbn [app]. apply IH; assumption.
+      * rewrite app_assoc. apply IH; [assumption | assumption |]. apply szok_app; assumption.
+    + apply IH; assumption.
+Qed.
+
+Lemma slice_size : forall c' tagSize number wt (emb : bool) (es : list val) acc accb,
+  tagSize = len (tagb number wt) ->
+  Forall (fun e => szok (size_of c' (Some e) proto_wantzero) (enc c' (Some e) proto_wantzero)) es ->
+  szok acc accb ->
+  szok (fold_left (fun n e => let size := size_of c' (Some e) proto_wantzero in
+                              n + tagSize + size + (if emb then proto_sizeOfVarint size else 0)) es acc)
+       (accb ++ slice_enc enc number wt emb c' es).
+Proof.
+  intros c' tagSize number wt emb es. induction es as [|e r IH]; intros acc accb Ht HF Ha.
+  - cbn. rewrite app_nil_r. exact Ha.
+  - inversion HF as [|x l H1 H2]; subst x l. cbn [fold_left slice_enc flat_map].
+    rewrite app_assoc. apply IH; [exact Ht | exact H2 |]. cbv zeta.
+    apply szok_chunk; assumption.
+Qed.
+
+Lemma opt_chunk_size ktag num wt (emb : bool) s p : ktag = len (tagb num wt) -> szok s p ->
+  forall acc accb, szok acc accb ->
+  szok (if s >? 0 then acc + ktag + s + (if emb then proto_sizeOfVarint s else 0) else acc) (accb ++ opt_chunk num wt emb p).
+Proof.
+  intros Hk Hs acc accb Ha. rewrite (szok_pos _ _ Hs). unfold opt_chunk.
+  destruct p as [|x p]; cbn [nonempty]; [rewrite app_nil_r; exact Ha|].
+  apply szok_chunk; assumption.
+Qed.
+
+Definition entry_sz (kc vc : codec) (kf vf : Z) (kv : val * val) : Z :=
+  let keySize := size_of kc (Some (fst kv)) proto_wantzero in
+  let valSize := size_of vc (Some (snd kv)) proto_wantzero in
+  let elemSize := 0 in
+  let elemSize := if keySize >? 0 then elemSize + proto_sizeOfTag 1 (wire kc) + keySize + (if negb (Z.land kf proto_embedded =? 0) then proto_sizeOfVarint keySize else 0) else elemSize in
+  let elemSize := if valSize >? 0 then elemSize + proto_sizeOfTag 2 (wire vc) + valSize + (if negb (Z.land vf proto_embedded =? 0) then proto_sizeOfVarint valSize else 0) else elemSize in
+  elemSize.
+Definition map_step (kc vc : codec) (number kf vf : Z) (n : Z) (kv : val * val) : Z :=
+  n + proto_sizeOfTag number proto_varlen + proto_sizeOfVarint (entry_sz kc vc kf vf kv) + entry_sz kc vc kf vf kv.
+Lemma size_map_eq number kf vf kt vt kc vc nn es flags :
+  size_of (CMap number kf vf kt vt kc vc) (Some (VMap nn es)) flags =
+  let n := fold_left (map_step kc vc number kf vf) es 0 in
+  if n =? 0 then proto_sizeOfTag number proto_varlen + proto_zeroSize else n.
+Proof. reflexivity. Qed.
+
+Lemma entry_size kc vc kf vf kv : wire_ok (wire kc) -> wire_ok (wire vc) ->
+  szok (size_of kc (Some (fst kv)) proto_wantzero) (enc kc (Some (fst kv)) proto_wantzero) ->
+  szok (size_of vc (Some (snd kv)) proto_wantzero) (enc vc (Some (snd kv)) proto_wantzero) ->
+  szok (entry_sz kc vc kf vf kv) (entry_enc enc kf vf kc vc kv).
+Proof.
+  intros Hk Hv H1 H2. unfold entry_sz, entry_enc. cbv zeta.
+  apply (opt_chunk_size (proto_sizeOfTag 2 (wire vc)) 2 (wire vc) (kf_emb vf)); [apply sizeOfTag_len; [lia | exact Hv] | exact H2 |].
+  change (opt_chunk 1 (wire kc) (kf_emb kf) (enc kc (Some (fst kv)) proto_wantzero))
+    with ([] ++ opt_chunk 1 (wire kc) (kf_emb kf) (enc kc (Some (fst kv)) proto_wantzero)).
+  apply (opt_chunk_size (proto_sizeOfTag 1 (wire kc)) 1 (wire kc) (kf_emb kf)); [apply sizeOfTag_len; [lia | exact Hk] | exact H1 | apply szok_nil].
+Qed.
+
+Lemma map_size : forall kc vc number kf vf (es : list (val * val)) acc accb,
+  wire_ok (wire kc) -> wire_ok (wire vc) -> 1 <= number < 2 ^ 16 ->
+  Forall (fun kv => szok (size_of kc (Some (fst kv)) proto_wantzero) (enc kc (Some (fst kv)) proto_wantzero) /\
+                    szok (size_of vc (Some (snd kv)) proto_wantzero) (enc vc (Some (snd kv)) proto_wantzero)) es ->
+  szok acc accb ->
+  szok (fold_left (map_step kc vc number kf vf) es acc)
+       (accb ++ flat_map (fun kv => chunk number proto_varlen true (entry_enc enc kf vf kc vc kv)) es).
+Proof.
+  intros kc vc number kf vf es acc accb Hk Hv Hn HF Ha. revert acc accb Ha.
+  induction es as [|kv r IH]; intros acc accb Ha.
+  - cbn. rewrite app_nil_r. exact Ha.
+  - inversion HF as [|x l [H1 H1'] H2]; subst x l. cbn [fold_left flat_map].
+    rewrite app_assoc. apply IH; [exact H2|]. unfold map_step.
+    pose proof (entry_size kc vc kf vf kv Hk Hv H1 H1') as HE.
+    set (es := entry_sz kc vc kf vf kv) in *.
+    replace (acc + proto_sizeOfTag number proto_varlen + proto_sizeOfVarint es + es)
+      with (acc + proto_sizeOfTag number proto_varlen + es + proto_sizeOfVarint es) by lia.
+    apply (szok_chunk acc accb (proto_sizeOfTag number proto_varlen) number proto_varlen true es); [exact Ha | apply sizeOfTag_len; [exact Hn | right; right; left; reflexivity] | exact HE].
+Qed.
+
+Ltac wf_split H := repeat (apply andb_true_iff in H; let H' := fresh H in destruct H as [H H']).
+
+Theorem size_enc : forall c t, cwf c t -> forall v fl, wf_val t v = true ->
+  szok (size_of c (Some v) fl) (enc c (Some v) fl).
+Proof.
+  induction 1 as [c t Hs | t c He H IH | n wt emb et c He H IH Hwt Hemb Hn | n kf vf kt vt Hk Hv H1 IH1 H2 IH2 Hkf Hvf Hn
+                 | inl_ fs gfs Hty Hd H IH Hsh]; intros v fl Hwf.
+  - (* scalars *)
+    destruct c; try discriminate Hs; destruct t; try discriminate Hs; destruct v; try discriminate Hwf;
+      cbn [size_of enc]; cbn [wf_val] in Hwf; wf_split Hwf;
+      try (match goal with |- szok (if ?C then _ else _) _ => destruct C; [|apply szok_nil] end); left;
+      try reflexivity;
+      try (apply sizeOfVarint_len; first [apply fu64_u64; unfold i64; lia | unfold u64; lia]);
+      try (apply sizeOfVarlen_len; [assumption | lia]).
+    + (* byte array *)
+      cbn [scalar_ct] in Hs. apply Nat.eqb_eq in Hs. subst n0.
+      replace (Z.of_nat n) with (len s) by lia. apply sizeOfVarlen_len; [assumption | lia].
+    + (* message *)
+      destruct (has fl proto_toplevel); [reflexivity | apply sizeOfVarlen_len; [assumption | lia]].
+  - (* pointer *)
+    destruct v; try discriminate Hwf. cbn [size_of]. rewrite enc_ptr_eq.
+    destruct o as [x|]; [apply IH; exact Hwf | rewrite size_none, enc_none; apply szok_nil].
+  - (* slice *)
+    destruct v; try discriminate Hwf. rewrite enc_slice_eq. cbn [size_of].
+    change (slice_enc enc n wt emb c es) with ([] ++ slice_enc enc n wt emb c es).
+    apply slice_size; [apply sizeOfTag_len; [exact Hn | subst wt; eapply wire_cwf; exact H] | | apply szok_nil].
+    apply wf_slice_all in Hwf. eapply Forall_impl; [|exact Hwf]. intros e Hwe. apply IH, Hwe.
+  - (* map *)
+    destruct v; try discriminate Hwf. rewrite enc_map_eq, size_map_eq. cbv zeta.
+    apply wf_map_all in Hwf.
+    destruct es as [|kv r].
+    + cbn [fold_left map_enc]. cbn [Z.eqb]. left. rewrite len_app.
+      rewrite sizeOfTag_len by (try exact Hn; right; right; left; reflexivity). reflexivity.
+    + unfold map_enc.
+      match goal with |- szok (if ?n =? 0 then _ else _) ?e =>
+        assert (HS : szok n ([] ++ e)); [| cbn [app] in HS; set (nn := n) in *; set (ee := e) in * ]
+      end.
+      { apply map_size; [eapply wire_cwf; exact H1 | eapply wire_cwf; exact H2 | exact Hn | | apply szok_nil].
+        eapply Forall_impl; [|exact Hwf]. intros a [Ha Hb]. split; [apply IH1, Ha | apply IH2, Hb]. }
+      assert (Hpos : 0 < len ee).
+      { subst ee. cbn [flat_map]. unfold chunk, tagb. rewrite !len_app.
+        pose proof (varint_len_pos (tag_of n proto_varlen)).
+        repeat match goal with |- context [len ?x] => lazymatch goal with H : 0 <= len x |- _ => fail | _ => pose proof (PrimProofs.len_nonneg _ x) end end.
+        lia. }
+      clearbody nn ee. unfold szok in HS. rewrite lim_val in HS.
+      destruct (nn =? 0) eqn:E; [lia | exact HS].
+  - (* struct *)
+    destruct v; try discriminate Hwf. rewrite size_struct_eq, enc_struct_eq.
+    apply wf_struct_list in Hwf. rewrite <- Hty in Hwf.
+    assert (HT : forall f, In f fs -> sf_tagsize f = len (tagb (sf_number f) (wire (sf_codec f)))).
+    { intros f Hin. apply field_tagsize; [apply Hsh, Hin | apply H, Hin]. }
+    assert (HF : forall f, In f fs -> field_sz f).
+    { intros f Hin x fl' Hx. apply (IH f Hin), Hx. }
+    destruct (spass_u fs fs0 (struct_flags0 inl_ fl) 0 [] HF HT Hwf szok_nil) as [I1 I2].
+    destruct (spass_of size_of false fs fs0 (struct_flags0 inl_ fl) 0) as [flags1 n1].
+    destruct (upass_of enc fs fs0 (struct_flags0 inl_ fl)) as [fl1 bs1]. cbn [fst snd app] in *. subst flags1.
+    pose proof (spass_r fs fs0 fl1 n1 bs1 HF Hwf I2) as I3.
+    destruct (spass_of size_of true fs fs0 fl1 n1) as [x n2]. exact I3.
+Qed.
+
+(* ==================== Part 5: writers (buffer windows) ==================== *)
+(* ---------- writers: a function that overwrites the front of its buffer with x ---------- *)
+Definition writes (f : bytes -> eres) (x : bytes) : Prop :=
+  forall w, len x <= len w -> f w = Ok (len x, None, x ++ skipn (length x) w).
+
+Lemma skipn_skipn {A} (x y : nat) (l : list A) : skipn x (skipn y l) = skipn (x + y) l.
+Proof.
+  revert l. induction y as [|y IH]; intros l; [rewrite Nat.add_0_r; reflexivity|].
+  rewrite Nat.add_succ_r. destruct l; [rewrite !skipn_nil; reflexivity | cbn [skipn]; apply IH].
+Qed.
+Lemma skipn_len_app {A} (a b w : list A) : skipn (length (a ++ b)) w = skipn (length b) (skipn (length a) w).
+Proof. rewrite app_length, skipn_skipn. f_equal. lia. Qed.
+Lemma len_skipn (x w : bytes) : len x <= len w -> len (skipn (length x) w) = len w - len x.
+Proof. unfold len. rewrite skipn_length. lia. Qed.
+Lemma splice_app (pre w w' : bytes) : splice (pre ++ w) (len pre) w' = pre ++ w' ++ skipn (length w') w.
+Proof.
+  unfold splice. rewrite to_nat_len, firstn_app_len. do 2 f_equal.
+  rewrite (Nat.add_comm (length pre)), <- (skipn_skipn (length w') (length pre)). rewrite skipn_app_len. reflexivity.
+Qed.
+Lemma skipn_all_len {A} (x w : list A) : length w = length x -> skipn (length x) w = [].
+Proof. intros <-. apply skipn_all. Qed.
+
+Lemma cfrom_app (pre w : bytes) : cfrom (pre ++ w) (len pre) = Ok w.
+Proof.
+  rewrite cfrom_ok; [rewrite slice_from_app; reflexivity|].
+  rewrite len_app. pose proof (PrimProofs.len_nonneg _ pre). pose proof (PrimProofs.len_nonneg _ w). lia.
+Qed.
+Lemma in_from_writes f x pre w : writes f x -> len x <= len w ->
+  in_from (pre ++ w) (len pre) f = Ok (len x, None, (pre ++ x) ++ skipn (length x) w).
+Proof.
+  intros Hf Hl. unfold in_from. rewrite cfrom_app. cbn [rbind]. rewrite (Hf w Hl). cbn [rbind].
+  rewrite splice_app. rewrite app_length, skipn_length.
+  replace (skipn (length x + (length w - length x)) w) with (@nil Z)
+    by (symmetry; apply skipn_all2; unfold len in Hl; lia).
+  rewrite app_nil_r, <- app_assoc. reflexivity.
+Qed.
+Lemma in_window_writes f x pre w : writes f x -> len x <= len w ->
+  in_window (pre ++ w) (len pre) (len x) f = Ok (len x, None, (pre ++ x) ++ skipn (length x) w).
+Proof.
+  intros Hf Hl. unfold in_window. pose proof (PrimProofs.len_nonneg _ pre). pose proof (PrimProofs.len_nonneg _ x).
+  rewrite cslice_ok by (rewrite ?len_app; lia). cbn [rbind].
+  unfold slice. replace (len pre + len x - len pre) with (len x) by lia. rewrite !to_nat_len, skipn_app_len.
+  rewrite (Hf (firstn (length x) w)) by (unfold len in *; rewrite firstn_length; lia). cbn [rbind].
+  rewrite splice_app. rewrite app_length, skipn_length, firstn_length.
+  replace (skipn (length x) (firstn (length x) w)) with (@nil Z)
+    by (symmetry; apply skipn_all2; rewrite firstn_length; lia).
+  rewrite app_nil_r.
+  replace (length x + (Init.Nat.min (length x) (length w) - length x))%nat with (length x) by (unfold len in Hl; lia).
+  rewrite <- app_assoc. reflexivity.
+Qed.
+Lemma copy_at_ok pre w src : len src <= len w ->
+  copy_at (pre ++ w) (len pre) src = Ok (len src, (pre ++ src) ++ skipn (length src) w).
+Proof.
+  intros Hl. unfold copy_at. rewrite cfrom_app. cbn [rbind]. rewrite Z.min_r by lia.
+  unfold slice_to. rewrite to_nat_len, firstn_all, splice_app, <- app_assoc. reflexivity.
+Qed.
+Lemma copy_at_0 w src : len src <= len w -> copy_at w 0 src = Ok (len src, src ++ skipn (length src) w).
+Proof. intros H. apply (copy_at_ok [] w src H). Qed.
+
+Lemma writes_varint v : u64 v -> writes (fun w => lift3 (proto_encodeVarint w v)) (varint v).
+Proof. intros Hv w Hl. unfold lift3. rewrite encodeVarint_fits by assumption. reflexivity. Qed.
+Lemma writes_tag num wt : 1 <= num < 2 ^ 16 -> wire_ok wt -> writes (fun w => lift3 (proto_encodeTag w num wt)) (tagb num wt).
+Proof.
+  intros Hn Hw w Hl. unfold lift3.
+  assert (E : proto_encodeTag w num wt = proto_encodeVarint w (tag_of num wt))
+    by (apply (tag_spec num wt w); unfold wire_ok in Hw; lia).
+  rewrite E. unfold tagb in *. rewrite encodeVarint_fits; [reflexivity | apply tag_u64; assumption | assumption].
+Qed.
+Lemma tag_data num wt : 1 <= num < 2 ^ 16 -> wire_ok wt -> forall z, len z = len (tagb num wt) ->
+  proto_encodeTag z num wt = (len (tagb num wt), None, tagb num wt).
+Proof.
+  intros Hn Hw z Hz. pose proof (writes_tag num wt Hn Hw z) as H. unfold lift3 in H.
+  specialize (H ltac:(lia)). inversion H as [H']. rewrite H'.
+  rewrite skipn_all_len by (unfold len in Hz; lia). rewrite app_nil_r. reflexivity.
+Qed.
+Lemma writes_varlen s : len s < lim -> writes (fun w => encode_varlen_bytes w s) (vl s).
+Proof.
+  intros Hs w Hl. unfold encode_varlen_bytes, vl in *. rewrite lim_val in Hs. pose proof (PrimProofs.len_nonneg _ s).
+  rewrite len_app in Hl. rewrite w64_small by lia.
+  rewrite encodeVarint_fits by (unfold u64; lia).
+  pose proof (copy_at_ok (varint (len s)) (skipn (length (varint (len s))) w) s) as HC.
+  rewrite HC by (rewrite len_skipn; lia). cbn [rbind]. unfold ret.
+  replace (len s <? len s) with false by lia. rewrite len_app, <- skipn_len_app. reflexivity.
+Qed.
+
+(* ==================== Part 6: the loops of encode, standalone ==================== *)
+(* ---------- the loops of [encode], standalone ---------- *)
+Section EncLoops.
+  Variable encf : codec -> bytes -> option val -> Z -> eres.
+  Fixpoint uniq_of (fs : list sfield) (vs : list val) (flags : Z) (offset : Z) (b : bytes)
+                   (k : Z -> Z -> bytes -> eres) {struct fs} : eres :=
+    match fs, vs with
+    | f :: fr, v :: vr =>
+        if sf_repeated f then uniq_of fr vr flags offset b k else
+        let fieldFlags := make_flags f flags in
+        let size := size_of (sf_codec f) (Some v) fieldFlags in
+        if size >? 0 then
+          rlet (n, err, b) <- in_from b offset (fun w => lift3 (proto_encodeTag w (sf_number f) (wire (sf_codec f)))) in
+          let offset := offset + n in
+          match err with Some _ => ret offset err b | None =>
+          rlet (offset, err, b) <-
+            (if sf_embedded f then
+               rlet (n, err, b) <- in_from b offset (fun w => lift3 (proto_encodeVarint w (w64 size))) in
+               Ok (offset + n, err, b)
+             else Ok (offset, None, b)) in
+          match err with Some _ => ret offset err b | None =>
+          if (len b - offset) <? size then ret (len b) (Some proto_ErrShortBuffer) b else
+          rlet (n, err, b) <- in_window b offset size (fun w => encf (sf_codec f) w (Some v) fieldFlags) in
+          let offset := offset + n in
+          match err with Some _ => ret offset err b | None =>
+          uniq_of fr vr (without flags proto_wantzero) offset b k
+          end end end
+        else uniq_of fr vr flags offset b k
+    | _, _ => k flags offset b
+    end.
+  Fixpoint reps_of (fs : list sfield) (vs : list val) (flags : Z) (offset : Z) (b : bytes) {struct fs} : eres :=
+    match fs, vs with
+    | f :: fr, v :: vr =>
+        if negb (sf_repeated f) then reps_of fr vr flags offset b else
+        rlet (n, err, b) <- in_from b offset (fun w => encf (sf_codec f) w (Some v) (make_flags f flags)) in
+        let offset := offset + n in
+        match err with Some _ => ret offset err b | None =>
+        reps_of fr vr (if n >? 0 then without flags proto_wantzero else flags) offset b
+        end
+    | _, _ => ret offset None b
+    end.
+  Section SliceGo.
+  Variables (c' : codec) (emb : bool) (tagData : bytes).
+  Fixpoint slice_go (es : list val) (offset : Z) (b : bytes) {struct es} : eres :=
+    match es with
+    | [] => ret offset None b
+    | e :: er =>
+        let size := size_of c' (Some e) proto_wantzero in
+        rlet (n, b) <- copy_at b offset tagData in
+        let offset := offset + n in
+        if n <? len tagData then ret offset (Some proto_ErrShortBuffer) b else
+        rlet (offset, err, b) <-
+          (if emb then
+             rlet (n, err, b) <- in_from b offset (fun w => lift3 (proto_encodeVarint w (w64 size))) in
+             Ok (offset + n, err, b)
+           else Ok (offset, None, b)) in
+        match err with Some _ => ret offset err b | None =>
+        if (len b - offset) <? size then ret (len b) (Some proto_ErrShortBuffer) b else
+        rlet (n, err, b) <- in_window b offset size (fun w => encf c' w (Some e) proto_wantzero) in
+        let offset := offset + n in
+        match err with Some _ => ret offset err b | None => slice_go er offset b end end
+    end.
+  End SliceGo.
+  Definition map_part (tg : bytes) (embf : bool) (pc : codec) (pv : val) (psize : Z) (offset : Z) (b : bytes) (short_ret_n : bool)
+    : res (Z * option proto_error * bytes) :=
+    if psize >? 0 then
+      rlet (n, b) <- copy_at b offset tg in
+      let offset' := offset + n in
+      if n <? len tg then Ok ((if short_ret_n then n else offset'), Some proto_ErrShortBuffer, b) else
+      rlet (offset', err, b) <-
+        (if embf then
+           rlet (n, err, b) <- in_from b offset' (fun w => lift3 (proto_encodeVarint w (w64 psize))) in
+           Ok (offset' + n, err, b)
+         else Ok (offset', None, b)) in
+      match err with Some _ => Ok (offset', err, b) | None =>
+      if (len b - offset') <? psize then Ok (len b, Some proto_ErrShortBuffer, b) else
+      rlet (n, err, b) <- in_window b offset' psize (fun w => encf pc w (Some pv) proto_wantzero) in
+      Ok (offset' + n, err, b)
+      end
+    else Ok (offset, None, b).
+  Section MapGo.
+  Variables (kf vf : Z) (kc vc : codec) (keyTag valTag zero mapTag : bytes).
+  Fixpoint map_go (es : list (val * val)) (offset : Z) (b : bytes) {struct es} : eres :=
+    match es with
+    | [] =>
+        if offset =? 0 then
+          rlet (n, b) <- copy_at b 0 zero in
+          if n <? len zero then ret n (Some proto_ErrShortBuffer) b else ret n None b
+        else ret offset None b
+    | (k, v) :: er =>
+        let keySize := size_of kc (Some k) proto_wantzero in
+        let valSize := size_of vc (Some v) proto_wantzero in
+        let elemSize := keySize + valSize in
+        let elemSize := if keySize >? 0 then elemSize + len keyTag + (if negb (Z.land kf proto_embedded =? 0) then proto_sizeOfVarint keySize else 0) else elemSize in
+        let elemSize := if valSize >? 0 then elemSize + len valTag + (if negb (Z.land vf proto_embedded =? 0) then proto_sizeOfVarint valSize else 0) else elemSize in
+        rlet (n, b) <- copy_at b offset mapTag in
+        let offset := offset + n in
+        if n <? len mapTag then ret offset (Some proto_ErrShortBuffer) b else
+        rlet (n, err, b) <- in_from b offset (fun w => lift3 (proto_encodeVarint w (w64 elemSize))) in
+        let offset := offset + n in
+        match err with Some _ => ret offset err b | None =>
+        rlet (offset, err, b) <- map_part keyTag (negb (Z.land kf proto_embedded =? 0)) kc k keySize offset b false in
+        match err with Some _ => ret offset err b | None =>
+        rlet (offset, err, b) <- map_part valTag (negb (Z.land vf proto_embedded =? 0)) vc v valSize offset b true in
+        match err with Some _ => ret offset err b | None => map_go er offset b end end end
+    end.
+  End MapGo.
+End EncLoops.
+
+Lemma encode_struct_eq inl_ fields vs b flags :
+  encode (CStruct inl_ fields) b (Some (VStruct vs)) flags =
+  uniq_of encode fields vs (struct_flags0 inl_ flags) 0 b (fun flags offset b => reps_of encode fields vs flags offset b).
+Proof. reflexivity. Qed.
+Lemma encode_slice_eq number wt emb et c' b es flags :
+  encode (CSlice number wt emb et c') b (Some (VSlice es)) flags =
+  let tagSize := proto_sizeOfTag number wt in
+  let '(_, _, tagData) := proto_encodeTag (repeat 0 (Z.to_nat tagSize)) number wt in
+  slice_go encode c' emb tagData es 0 b.
+Proof. reflexivity. Qed.
+Lemma encode_map_eq number kf vf kt vt kc vc b nn es flags :
+  encode (CMap number kf vf kt vt kc vc) b (Some (VMap nn es)) flags =
+  let '(_, _, keyTag) := proto_encodeTag [0] 1 (wire kc) in
+  let '(_, _, valTag) := proto_encodeTag [0] 2 (wire vc) in
+  let tagsz := proto_sizeOfTag number proto_varlen in
+  let '(_, _, zero) := proto_encodeTag (repeat 0 (Z.to_nat (tagsz + proto_zeroSize))) number proto_varlen in
+  let mapTag := slice_to zero (len zero - 1) in
+  map_go encode kf vf kc vc keyTag valTag zero mapTag es 0 b.
+Proof. reflexivity. Qed.
+
+(* ==================== Part 7: struct passes write enc ==================== *)
+Definition field_enc (f : sfield) : Prop :=
+  forall v fl, wf_val (sf_ty f) v = true -> len (enc (sf_codec f) (Some v) fl) < lim ->
+    writes (fun w => encode (sf_codec f) w (Some v) fl) (enc (sf_codec f) (Some v) fl).
+Definition field_num (f : sfield) : Prop := 1 <= sf_number f < 2 ^ 16 /\ wire_ok (wire (sf_codec f)).
+
+Ltac lens := repeat match goal with
+  | |- context [len ?x] => lazymatch goal with H : 0 <= len x |- _ => fail | _ => pose proof (PrimProofs.len_nonneg _ x) end
+  | _ : context [len ?x] |- _ => lazymatch goal with H : 0 <= len x |- _ => fail | _ => pose proof (PrimProofs.len_nonneg _ x) end
+  end.
+
+(* tag, optional prefix, payload written at the end of [out] *)
+Lemma write_chunk (encp : bytes -> eres) num wt (emb : bool) p size out w (k : Z -> option proto_error -> bytes -> eres) :
+  1 <= num < 2 ^ 16 -> wire_ok wt -> writes encp p -> size = len p -> len p < lim ->
+  len (chunk num wt emb p) <= len w ->
+  (rlet (n, err, b) <- in_from (out ++ w) (len out) (fun w => lift3 (proto_encodeTag w num wt)) in
+   let offset := len out + n in
+   match err with Some _ => ret offset err b | None =>
+   rlet (offset, err, b) <-
+     (if emb then
+        rlet (n, err, b) <- in_from b offset (fun w => lift3 (proto_encodeVarint w (w64 size))) in
+        Ok (offset + n, err, b)
+      else Ok (offset, None, b)) in
+   match err with Some _ => ret offset err b | None =>
+   if (len b - offset) <? size then ret (len b) (Some proto_ErrShortBuffer) b else
+   rlet (n, err, b) <- in_window b offset size encp in
+   k (offset + n) err b end end) =
+  k (len (out ++ chunk num wt emb p)) None ((out ++ chunk num wt emb p) ++ skipn (length (chunk num wt emb p)) w).
+Proof.
+  intros Hn Hw Hp -> Hlim Hl. unfold chunk in *. rewrite !len_app in Hl. rewrite lim_val in Hlim.
+  pose proof (PrimProofs.len_nonneg _ p). pose proof (PrimProofs.len_nonneg _ (pfx emb p)). pose proof (PrimProofs.len_nonneg _ (tagb num wt)).
+  rewrite (in_from_writes _ (tagb num wt) out w (writes_tag num wt Hn Hw)) by lia. cbn [rbind]. cbv zeta.
+  set (w1 := skipn (length (tagb num wt)) w).
+  assert (Hw1 : len w1 = len w - len (tagb num wt)) by (apply len_skipn; lia).
+  rewrite <- (len_app _ out (tagb num wt)).
+  set (out1 := out ++ tagb num wt).
+  match goal with |- rbind ?X _ = _ =>
+    assert (E : X = Ok (len (out1 ++ pfx emb p), None, (out1 ++ pfx emb p) ++ skipn (length (pfx emb p)) w1)) end.
+  { unfold pfx in *. destruct emb.
+    - rewrite (in_from_writes _ (varint (w64 (len p))) out1 w1) by (try apply writes_varint; try apply w64_range; lia).
+      cbn [rbind]. rewrite len_app. reflexivity.
+    - rewrite app_nil_r. reflexivity. }
+  rewrite E. cbn [rbind]. clear E.
+  set (w2 := skipn (length (pfx emb p)) w1).
+  assert (Hw2 : len w2 = len w1 - len (pfx emb p)) by (apply len_skipn; lia).
+  set (out2 := out1 ++ pfx emb p).
+  rewrite len_app. replace (len out2 + len w2 - len out2 <? len p) with false by lia.
+  rewrite (in_window_writes encp p out2 w2 Hp) by lia. cbn [rbind].
+  rewrite <- len_app. subst out2 out1 w2 w1.
+  rewrite !skipn_len_app. rewrite <- !app_assoc. reflexivity.
+Qed.
+
+(* optional prefix and payload written at the end of [out1] (the tag is already there) *)
+Lemma write_body (encp : bytes -> eres) (emb : bool) p size out1 w1
+      (K1 : Z -> option proto_error -> bytes -> eres) (K2 : bytes -> eres) (k : Z -> option proto_error -> bytes -> eres) :
+  writes encp p -> size = len p -> len p < lim -> len (pfx emb p ++ p) <= len w1 ->
+  (rlet (offset, err, b) <-
+     (if emb then
+        rlet (n, err, b) <- in_from (out1 ++ w1) (len out1) (fun w => lift3 (proto_encodeVarint w (w64 size))) in
+        Ok (len out1 + n, err, b)
+      else Ok (len out1, None, out1 ++ w1)) in
+   match err with Some _ => K1 offset err b | None =>
+   if (len b - offset) <? size then K2 b else
+   rlet (n, err, b) <- in_window b offset size encp in
+   k (offset + n) err b end) =
+  k (len (out1 ++ pfx emb p ++ p)) None ((out1 ++ pfx emb p ++ p) ++ skipn (length (pfx emb p ++ p)) w1).
+Proof.
+  intros Hp -> Hlim Hl. rewrite !len_app in Hl. rewrite lim_val in Hlim.
+  pose proof (PrimProofs.len_nonneg _ p). pose proof (PrimProofs.len_nonneg _ (pfx emb p)).
+  match goal with |- rbind ?X _ = _ =>
+    assert (E : X = Ok (len (out1 ++ pfx emb p), None, (out1 ++ pfx emb p) ++ skipn (length (pfx emb p)) w1)) end.
+  { unfold pfx in *. destruct emb.
+    - rewrite (in_from_writes _ (varint (w64 (len p))) out1 w1) by (try apply writes_varint; try apply w64_range; lia).
+      cbn [rbind]. rewrite len_app. reflexivity.
+    - rewrite app_nil_r. reflexivity. }
+  rewrite E. cbn [rbind]. clear E.
+  set (w2 := skipn (length (pfx emb p)) w1).
+  assert (Hw2 : len w2 = len w1 - len (pfx emb p)) by (apply len_skipn; lia).
+  set (out2 := out1 ++ pfx emb p).
+  rewrite len_app. replace (len out2 + len w2 - len out2 <? len p) with false by lia.
+  rewrite (in_window_writes encp p out2 w2 Hp) by lia. cbn [rbind].
+  rewrite <- len_app. subst out2 w2.
+  rewrite !skipn_len_app. rewrite <- !app_assoc. reflexivity.
+Qed.
+
+Lemma uniq_writes : forall fs vs flags out w k,
+  (forall f, In f fs -> field_enc f) -> (forall f, In f fs -> field_sz f) -> (forall f, In f fs -> field_num f) ->
+  wf_list (map sf_ty fs) vs ->
+  len (snd (upass_of enc fs vs flags)) <= len w -> len (snd (upass_of enc fs vs flags)) < lim ->
+  uniq_of encode fs vs flags (len out) (out ++ w) k =
+  k (fst (upass_of enc fs vs flags)) (len (out ++ snd (upass_of enc fs vs flags)))
+    ((out ++ snd (upass_of enc fs vs flags)) ++ skipn (length (snd (upass_of enc fs vs flags))) w).
+Proof.
+  induction fs as [|f fr IH]; intros vs flags out w k HE HS HN Hwf Hl Hlim.
+  - cbn. rewrite app_nil_r. reflexivity.
+  - inversion Hwf as [|t0 v ts0 vr Hv Hvr]; subst.
+    assert (HE' : forall g, In g fr -> field_enc g) by (intros; apply HE; right; assumption).
+    assert (HS' : forall g, In g fr -> field_sz g) by (intros; apply HS; right; assumption).
+    assert (HN' : forall g, In g fr -> field_num g) by (intros; apply HN; right; assumption).
+    cbn [uniq_of upass_of] in *.
+    destruct (sf_repeated f); [apply IH; assumption|]. cbv zeta in *.
+    pose proof (HS f (or_introl eq_refl) v (make_flags f flags) Hv) as Hs.
+    pose proof (HE f (or_introl eq_refl) v (make_flags f flags) Hv) as He.
+    destruct (HN f (or_introl eq_refl)) as [Hn Hw].
+    destruct (enc (sf_codec f) (Some v) (make_flags f flags)) as [|x p] eqn:Ep.
+    + rewrite (szok_eq _ _ Hs) by (rewrite len_nil, lim_val; lia). rewrite len_nil. cbn [Z.gtb Z.compare].
+      apply IH; assumption.
+    + destruct (upass_of enc fr vr (without flags proto_wantzero)) as [fl' bs'] eqn:EU. cbn [fst snd] in *.
+      set (ch := chunk (sf_number f) (wire (sf_codec f)) (sf_embedded f) (x :: p)) in *.
+      rewrite len_app in Hl, Hlim.
+      assert (Hpl : len (x :: p) < lim).
+      { subst ch. unfold chunk in Hlim. rewrite !len_app in Hlim. lens. lia. }
+      rewrite (szok_eq _ _ Hs Hpl).
+      replace (len (x :: p) >? 0) with true by (pose proof (len_pos_cons x p); lia).
+      lens.
+      etransitivity.
+      { apply (write_chunk (fun w0 => encode (sf_codec f) w0 (Some v) (make_flags f flags)) (sf_number f) (wire (sf_codec f))
+                 (sf_embedded f) (x :: p) (len (x :: p)) out w
+                 (fun o e b => match e with Some _ => ret o e b | None => uniq_of encode fr vr (without flags proto_wantzero) o b k end));
+        [assumption | assumption | apply He; assumption | reflexivity | assumption | fold ch; lia]. }
+      fold ch. cbv beta iota.
+      assert (Hw' : len (skipn (length ch) w) = len w - len ch) by (apply len_skipn; lia).
+      rewrite IH; [| assumption | assumption | assumption | assumption | rewrite EU; cbn [snd]; lia | rewrite EU; cbn [snd]; lia].
+      rewrite EU. cbn [fst snd]. rewrite <- !skipn_len_app, <- !app_assoc. reflexivity.
+Qed.
+
+Lemma reps_writes : forall fs vs flags out w,
+  (forall f, In f fs -> field_enc f) ->
+  wf_list (map sf_ty fs) vs ->
+  len (rpass_of enc fs vs flags) <= len w -> len (rpass_of enc fs vs flags) < lim ->
+  reps_of encode fs vs flags (len out) (out ++ w) =
+  Ok (len (out ++ rpass_of enc fs vs flags), None, (out ++ rpass_of enc fs vs flags) ++ skipn (length (rpass_of enc fs vs flags)) w).
+Proof.
+  induction fs as [|f fr IH]; intros vs flags out w HE Hwf Hl Hlim.
+  - cbn. rewrite app_nil_r. reflexivity.
+  - inversion Hwf as [|t0 v ts0 vr Hv Hvr]; subst.
+    assert (HE' : forall g, In g fr -> field_enc g) by (intros; apply HE; right; assumption).
+    cbn [reps_of rpass_of] in *.
+    destruct (sf_repeated f); cbn [negb] in *; [|apply IH; assumption]. cbv zeta in *.
+    pose proof (HE f (or_introl eq_refl) v (make_flags f flags) Hv) as He.
+    set (p := enc (sf_codec f) (Some v) (make_flags f flags)) in *.
+    rewrite len_app in Hl, Hlim. lens.
+    rewrite (in_from_writes _ p out w (He ltac:(lia))) by lia. cbn [rbind].
+    assert (Hw' : len (skipn (length p) w) = len w - len p) by (apply len_skipn; lia).
+    rewrite <- len_app.
+    replace (if len p >? 0 then without flags proto_wantzero else flags)
+      with (match p with [] => flags | _ :: _ => without flags proto_wantzero end)
+      by (destruct p as [|x p']; [reflexivity | pose proof (len_pos_cons x p'); replace (len (x :: p') >? 0) with true by lia; reflexivity]).
+    rewrite IH; [| assumption | assumption | lia | lia].
+    rewrite <- !skipn_len_app, <- !app_assoc. reflexivity.
+Qed.
+
+(* ==================== Part 8: slices and maps write enc ==================== *)
+Definition elem_enc (c' : codec) (e : val) : Prop :=
+  szok (size_of c' (Some e) proto_wantzero) (enc c' (Some e) proto_wantzero) /\
+  (len (enc c' (Some e) proto_wantzero) < lim ->
+   writes (fun w => encode c' w (Some e) proto_wantzero) (enc c' (Some e) proto_wantzero)).
+
+Lemma slice_writes c' (emb : bool) number wt : 1 <= number < 2 ^ 16 -> wire_ok wt ->
+  forall es out w, Forall (elem_enc c') es ->
+  len (slice_enc enc number wt emb c' es) <= len w -> len (slice_enc enc number wt emb c' es) < lim ->
+  slice_go encode c' emb (tagb number wt) es (len out) (out ++ w) =
+  Ok (len (out ++ slice_enc enc number wt emb c' es), None,
+      (out ++ slice_enc enc number wt emb c' es) ++ skipn (length (slice_enc enc number wt emb c' es)) w).
+Proof.
+  intros Hn Hw. induction es as [|e er IH]; intros out w HF Hl Hlim.
+  - cbn. rewrite app_nil_r. reflexivity.
+  - inversion HF as [|x l [Hs He] HF']; subst x l.
+    cbn [slice_go slice_enc flat_map] in *. fold (slice_enc enc number wt emb c' er) in *.
+    set (p := enc c' (Some e) proto_wantzero) in *. set (rest := slice_enc enc number wt emb c' er) in *.
+    rewrite len_app in Hl, Hlim. unfold chunk in Hl, Hlim. rewrite !len_app in Hl, Hlim. lens.
+    cbv zeta. rewrite (szok_eq _ _ Hs) by lia.
+    rewrite copy_at_ok by lia. cbn [rbind]. rewrite Z.ltb_irrefl.
+    set (w1 := skipn (length (tagb number wt)) w).
+    assert (Hw1 : len w1 = len w - len (tagb number wt)) by (apply len_skipn; lia).
+    rewrite <- len_app.
+    etransitivity.
+    { apply (write_body (fun w0 => encode c' w0 (Some e) proto_wantzero) emb p (len p) (out ++ tagb number wt) w1
+               (fun o e b => ret o e b) (fun b => ret (len b) (Some proto_ErrShortBuffer) b)
+               (fun o e b => match e with Some _ => ret o e b | None => slice_go encode c' emb (tagb number wt) er o b end));
+        [apply He; lia | reflexivity | lia | rewrite len_app; lia]. }
+    cbv beta iota.
+    assert (Hw2 : len (skipn (length (pfx emb p ++ p)) w1) = len w1 - len (pfx emb p ++ p))
+      by (apply len_skipn; rewrite len_app; lia).
+    rewrite len_app in Hw2.
+    replace ((out ++ tagb number wt) ++ pfx emb p ++ p) with (out ++ chunk number wt emb p)
+      by (unfold chunk; rewrite <- !app_assoc; reflexivity).
+    rewrite IH; [| assumption | fold rest; lia | fold rest; lia].
+    fold rest. subst w1. unfold chunk. rewrite <- !skipn_len_app, <- !app_assoc. reflexivity.
+Qed.
+
+Lemma map_part_writes num wt (embf : bool) pc pv p psize out w short :
+  (len p < lim -> writes (fun w0 => encode pc w0 (Some pv) proto_wantzero) p) -> psize = len p -> len p < lim ->
+  len (opt_chunk num wt embf p) <= len w ->
+  map_part encode (tagb num wt) embf pc pv psize (len out) (out ++ w) short =
+  Ok (len (out ++ opt_chunk num wt embf p), None,
+      (out ++ opt_chunk num wt embf p) ++ skipn (length (opt_chunk num wt embf p)) w).
+Proof.
+  intros He -> Hlim Hl. unfold map_part. destruct p as [|x p].
+  - cbn. rewrite app_nil_r. reflexivity.
+  - replace (len (x :: p) >? 0) with true by (pose proof (len_pos_cons x p); lia).
+    cbn [opt_chunk] in *. set (q := x :: p) in *. unfold chunk in *. rewrite !len_app in Hl. lens.
+    rewrite copy_at_ok by lia. cbn [rbind]. cbv zeta. rewrite Z.ltb_irrefl.
+    set (w1 := skipn (length (tagb num wt)) w).
+    assert (Hw1 : len w1 = len w - len (tagb num wt)) by (apply len_skipn; lia).
+    rewrite <- len_app.
+    etransitivity.
+    { apply (write_body (fun w0 => encode pc w0 (Some pv) proto_wantzero) embf q (len q) (out ++ tagb num wt) w1
+               (fun o e b => Ok (o, e, b)) (fun b => Ok (len b, Some proto_ErrShortBuffer, b))
+               (fun o e b => Ok (o, e, b)));
+        [apply He; lia | reflexivity | lia | rewrite len_app; lia]. }
+    subst w1. rewrite <- !skipn_len_app, <- !app_assoc. reflexivity.
+Qed.
+
+Lemma skipn_repeat {A} (x : A) n m : skipn n (repeat x (n + m)) = repeat x m.
+Proof. induction n; [reflexivity | exact IHn]. Qed.
+Lemma tag1_len k wt : (k = 1 \/ k = 2) -> wire_ok wt -> len (tagb k wt) = 1.
+Proof. unfold wire_ok. intros [->| ->] [->|[->|[->| ->]]]; reflexivity. Qed.
+
+Section MapW.
+  Variables (number kf vf : Z) (kc vc : codec).
+  Hypothesis Hn : 1 <= number < 2 ^ 16.
+  Hypothesis Hkw : wire_ok (wire kc).
+  Hypothesis Hvw : wire_ok (wire vc).
+  Let keyTag := tagb 1 (wire kc).
+  Let valTag := tagb 2 (wire vc).
+  Let mapTag := tagb number proto_varlen.
+  Let zero := tagb number proto_varlen ++ [0].
+  Definition entry_ok (kv : val * val) : Prop := elem_enc kc (fst kv) /\ elem_enc vc (snd kv).
+  Let ch (kv : val * val) := chunk number proto_varlen true (entry_enc enc kf vf kc vc kv).
+
+  Lemma map_step_writes kv er out w : entry_ok kv ->
+    len (ch kv) <= len w -> len (ch kv) < lim ->
+    map_go encode kf vf kc vc keyTag valTag zero mapTag (kv :: er) (len out) (out ++ w) =
+    map_go encode kf vf kc vc keyTag valTag zero mapTag er (len (out ++ ch kv)) ((out ++ ch kv) ++ skipn (length (ch kv)) w).
+  Proof.
+    intros [[Hks Hke] [Hvs Hve]] Hl Hlim. destruct kv as [k v]. cbn [fst snd] in *.
+    cbn [map_go]. cbv zeta.
+    set (kp := enc kc (Some k) proto_wantzero) in *. set (vp := enc vc (Some v) proto_wantzero) in *.
+    subst ch. cbv beta in *. unfold chunk, entry_enc in Hl, Hlim. cbn [fst snd] in Hl, Hlim. fold kp vp in Hl, Hlim.
+    set (ock := opt_chunk 1 (wire kc) (kf_emb kf) kp) in *. set (ocv := opt_chunk 2 (wire vc) (kf_emb vf) vp) in *.
+    rewrite !len_app in Hl, Hlim. lens.
+    assert (Hkl : len kp <= len ock) by (subst ock; unfold opt_chunk; destruct kp; [lia | unfold chunk; rewrite !len_app; lens; lia]).
+    assert (Hvl : len vp <= len ocv) by (subst ocv; unfold opt_chunk; destruct vp; [lia | unfold chunk; rewrite !len_app; lens; lia]).
+    lens. rewrite lim_val in *.
+    rewrite (szok_eq _ _ Hks) by (rewrite lim_val; lia). rewrite (szok_eq _ _ Hvs) by (rewrite lim_val; lia).
+    (* the element size *)
+    match goal with |- context [w64 ?E] => assert (HE : E = len (ock ++ ocv)); [|rewrite HE; clear HE] end.
+    { rewrite len_app. subst ock ocv keyTag valTag. unfold opt_chunk, chunk, pfx, kf_emb.
+      destruct kp as [|x kp']; destruct vp as [|y vp'];
+        repeat match goal with |- context [len (?a :: ?l) >? 0] =>
+          replace (len (a :: l) >? 0) with true by (pose proof (len_pos_cons a l); lia) end;
+        rewrite ?len_nil; cbn [Z.gtb Z.compare]; rewrite ?len_app;
+        repeat match goal with |- context [proto_sizeOfVarint (len ?l)] =>
+          rewrite (sizeOfVarint_len (len l)) by (unfold u64; lia); rewrite (w64_small (len l)) by lia end;
+        destruct (negb (Z.land kf proto_embedded =? 0)); destruct (negb (Z.land vf proto_embedded =? 0));
+        rewrite ?len_nil; lia. }
+    rewrite copy_at_ok by (subst mapTag; lia). cbn [rbind]. rewrite Z.ltb_irrefl.
+    subst mapTag. set (tg := tagb number proto_varlen) in *.
+    set (w1 := skipn (length tg) w). assert (Hw1 : len w1 = len w - len tg) by (apply len_skipn; lia).
+    rewrite <- len_app.
+    unfold pfx in Hl, Hlim. cbv iota in Hl, Hlim.
+    set (pf := varint (w64 (len (ock ++ ocv)))) in *. pose proof (PrimProofs.len_nonneg _ pf).
+    rewrite (in_from_writes _ pf (out ++ tg) w1)
+      by (try (subst pf; apply writes_varint, w64_range); lia).
+    cbn [rbind]. rewrite <- len_app.
+    set (w2 := skipn (length pf) w1). assert (Hw2 : len w2 = len w1 - len pf) by (apply len_skipn; lia).
+    change (negb (Z.land kf proto_embedded =? 0)) with (kf_emb kf). change (negb (Z.land vf proto_embedded =? 0)) with (kf_emb vf).
+    unfold keyTag, valTag.
+    rewrite (map_part_writes 1 (wire kc) (kf_emb kf) kc k kp (len kp) ((out ++ tg) ++ pf) w2 false);
+      [| intros; apply Hke; lia | reflexivity | rewrite lim_val; lia | fold ock; lia].
+    cbn [rbind]. fold ock.
+    set (w3 := skipn (length ock) w2). assert (Hw3 : len w3 = len w2 - len ock) by (apply len_skipn; lia).
+    rewrite (map_part_writes 2 (wire vc) (kf_emb vf) vc v vp (len vp) (((out ++ tg) ++ pf) ++ ock) w3 true);
+      [| intros; apply Hve; lia | reflexivity | rewrite lim_val; lia | fold ocv; lia].
+    cbn [rbind]. fold ocv. unfold chunk, entry_enc, pfx. cbn [fst snd]. fold kp vp ock ocv pf tg.
+    subst w3 w2 w1. rewrite <- !skipn_len_app, <- !app_assoc. reflexivity.
+  Qed.
+
+  Lemma map_go_writes : forall es out w, 0 < len out -> Forall entry_ok es ->
+    len (flat_map ch es) <= len w -> len (flat_map ch es) < lim ->
+    map_go encode kf vf kc vc keyTag valTag zero mapTag es (len out) (out ++ w) =
+    Ok (len (out ++ flat_map ch es), None, (out ++ flat_map ch es) ++ skipn (length (flat_map ch es)) w).
+  Proof.
+    induction es as [|kv er IH]; intros out w Ho HF Hl Hlim.
+    - cbn. replace (len out =? 0) with false by lia. rewrite app_nil_r. reflexivity.
+    - inversion HF as [|x l H1 H2]; subst x l. cbn [flat_map] in *. rewrite len_app in Hl, Hlim. lens.
+      rewrite map_step_writes by (try assumption; lia).
+      assert (Hw' : len (skipn (length (ch kv)) w) = len w - len (ch kv)) by (apply len_skipn; lia).
+      rewrite IH; [| rewrite len_app; lia | assumption | lia | lia].
+      rewrite <- !skipn_len_app, <- !app_assoc. reflexivity.
+  Qed.
+
+  Lemma map_writes es w : Forall entry_ok es ->
+    len (map_enc enc number kf vf kc vc es) <= len w -> len (map_enc enc number kf vf kc vc es) < lim ->
+    map_go encode kf vf kc vc keyTag valTag zero mapTag es 0 w =
+    Ok (len (map_enc enc number kf vf kc vc es), None,
+        map_enc enc number kf vf kc vc es ++ skipn (length (map_enc enc number kf vf kc vc es)) w).
+  Proof.
+    intros HF Hl Hlim. destruct es as [|kv er].
+    - cbn [map_go map_enc] in *. cbn [Z.eqb]. fold zero in Hl |- *.
+      rewrite copy_at_0 by lia. cbn [rbind]. rewrite Z.ltb_irrefl. reflexivity.
+    - unfold map_enc in *. fold ch in Hl, Hlim |- *. inversion HF as [|x l H1 H2]; subst x l.
+      cbn [flat_map] in *. rewrite len_app in Hl, Hlim. lens.
+      pose proof (map_step_writes kv er [] w H1 ltac:(lia) ltac:(lia)) as HS. cbn [app] in HS.
+      change (len []) with 0 in HS. rewrite HS.
+      assert (Hw' : len (skipn (length (ch kv)) w) = len w - len (ch kv)) by (apply len_skipn; lia).
+      assert (Hpos : 0 < len (ch kv)).
+      { subst ch. cbv beta. unfold chunk. rewrite !len_app. pose proof (varint_len_pos (tag_of number proto_varlen)). unfold tagb. lens. lia. }
+      rewrite map_go_writes; [| assumption | assumption | lia | lia].
+      rewrite <- !skipn_len_app. reflexivity.
+  Qed.
+End MapW.
+
+(* ==================== Part 9: encode = enc ==================== *)
+Lemma writes_nil (f : bytes -> eres) : (forall w, f w = ret 0 None w) -> writes f [].
+Proof. intros H w _. rewrite H. reflexivity. Qed.
+Lemma encode_none c b fl : encode c b None fl = ret 0 None b.
+Proof. destruct c; reflexivity. Qed.
+Lemma writes_message s : wfb s = true -> len s < lim ->
+  writes (fun b => let size := len s in
+     let vlen := proto_sizeOfVarlen size in
+        if len b <? vlen then ret 0 (Some proto_ErrShortBuffer) b
+        else
+          let '(n, err, b) := proto_encodeVarint b (w64 size) in
+          match err with
+          | Some _ => ret n err b
+          | None => rlet (_, b) <- copy_at b n s in ret vlen None b
+          end) (vl s).
+Proof.
+  intros Hw Hs w Hl. cbv zeta. rewrite sizeOfVarlen_len by assumption.
+  replace (len w <? len (vl s)) with false by lia.
+  unfold vl in *. rewrite lim_val in Hs. pose proof (PrimProofs.len_nonneg _ s).
+  rewrite len_app in Hl. rewrite w64_small by lia.
+  rewrite encodeVarint_fits by (unfold u64; lia).
+  pose proof (copy_at_ok (varint (len s)) (skipn (length (varint (len s))) w) s) as HC.
+  rewrite HC by (rewrite len_skipn; lia). cbn [rbind]. unfold ret.
+  rewrite <- skipn_len_app. reflexivity.
+Qed.
+
+Theorem encode_enc : forall c t, cwf c t -> forall v fl, wf_val t v = true ->
+  len (enc c (Some v) fl) < lim ->
+  writes (fun w => encode c w (Some v) fl) (enc c (Some v) fl).
+Proof.
+  induction 1 as [c t Hs | t c He H IH | n wt emb et c He H IH Hwt Hemb Hn | n kf vf kt vt Hk Hv H1 IH1 H2 IH2 Hkf Hvf Hn
+                 | inl_ fs gfs Hty Hd H IH Hsh]; intros v fl Hwf Hlim.
+  - (* scalars *)
+    destruct c; try discriminate Hs; destruct t; try discriminate Hs; destruct v; try discriminate Hwf;
+      cbn [encode enc] in *; cbn [wf_val] in Hwf; wf_split Hwf;
+      try (match goal with |- writes (fun w => if ?C then _ else _) _ => destruct C; [|apply writes_nil; reflexivity] end);
+      try (apply writes_varint; first [apply fu64_u64; unfold i64; lia | unfold u64; lia]);
+      try (apply writes_varlen; lia);
+      try (intros w Hl; unfold lift3;
+           first [ destruct (encodeLE_spec z w) as (E & _ & _ & _); rewrite E by (first [unfold u32; lia | exact Hl]); reflexivity
+                 | destruct (encodeLE_spec z w) as (_ & _ & E & _); rewrite E by (first [unfold u64; lia | exact Hl]); reflexivity ]).
+    + (* bool *)
+      intros w Hl. destruct w as [|y w]; [exact (match Hl with end) || (cbn in Hl; lia)|].
+      replace (len (y :: w) =? 0) with false by (pose proof (len_pos_cons y w); lia). reflexivity.
+    + (* message *)
+      destruct (has fl proto_toplevel).
+      * intros w Hl. replace (len w <? len s) with false by lia. rewrite copy_at_0 by lia. reflexivity.
+      * apply writes_message; [assumption | lia].
+  - (* pointer *)
+    destruct v; try discriminate Hwf. cbn [encode]. rewrite enc_ptr_eq in *.
+    destruct o as [x|]; [apply IH; assumption|].
+    rewrite enc_none. apply writes_nil. intros w. apply encode_none.
+  - (* slice *)
+    destruct v; try discriminate Hwf. rewrite enc_slice_eq in *. intros w Hl.
+    rewrite encode_slice_eq. cbv zeta.
+    assert (Hw : wire_ok wt) by (subst wt; eapply wire_cwf; exact H).
+    rewrite sizeOfTag_len by assumption.
+    rewrite (tag_data n wt Hn Hw) by (unfold len; rewrite repeat_length; lia).
+    apply (slice_writes c emb n wt Hn Hw es [] w); [|assumption|assumption].
+    apply wf_slice_all in Hwf. eapply Forall_impl; [|exact Hwf]. intros e Hwe. split.
+    + eapply size_enc; eassumption.
+    + intros Hle. apply IH; assumption.
+  - (* map *)
+    destruct v; try discriminate Hwf. rewrite enc_map_eq in *. intros w Hl.
+    rewrite encode_map_eq.
+    assert (Hkw : wire_ok (wire (codec_of kt))) by (eapply wire_cwf; exact H1).
+    assert (Hvw : wire_ok (wire (codec_of vt))) by (eapply wire_cwf; exact H2).
+    rewrite (tag_data 1 (wire (codec_of kt)) ltac:(lia) Hkw [0]) by (rewrite tag1_len by (auto; lia); reflexivity).
+    rewrite (tag_data 2 (wire (codec_of vt)) ltac:(lia) Hvw [0]) by (rewrite tag1_len by (auto; lia); reflexivity).
+    cbv zeta.
+    assert (Hmw : wire_ok proto_varlen) by (right; right; left; reflexivity).
+    rewrite sizeOfTag_len by assumption.
+    pose proof (writes_tag n proto_varlen Hn Hmw (repeat 0 (Z.to_nat (len (tagb n proto_varlen) + proto_zeroSize)))) as HZ.
+    unfold lift3 in HZ.
+    assert (HZ' : proto_encodeTag (repeat 0 (Z.to_nat (len (tagb n proto_varlen) + proto_zeroSize))) n proto_varlen =
+                  (len (tagb n proto_varlen), None, tagb n proto_varlen ++ [0])).
+    { specialize (HZ ltac:(unfold len at 2; rewrite repeat_length; unfold proto_zeroSize; pose proof (PrimProofs.len_nonneg _ (tagb n proto_varlen)); lia)).
+      inversion HZ as [HZ1]. rewrite HZ1. do 2 f_equal.
+      replace (Z.to_nat (len (tagb n proto_varlen) + proto_zeroSize)) with (length (tagb n proto_varlen) + 1)%nat
+        by (unfold len, proto_zeroSize; lia).
+      apply (skipn_repeat 0 (length (tagb n proto_varlen)) 1). }
+    rewrite HZ'.
+    replace (slice_to (tagb n proto_varlen ++ [0]) (len (tagb n proto_varlen ++ [0]) - 1)) with (tagb n proto_varlen).
+    2:{ unfold slice_to. rewrite len_app. replace (len (tagb n proto_varlen) + len [0] - 1) with (len (tagb n proto_varlen)) by (change (len [0]) with 1; lia).
+        rewrite to_nat_len, firstn_app_len. reflexivity. }
+    apply map_writes; try assumption.
+    apply wf_map_all in Hwf. eapply Forall_impl; [|exact Hwf]. intros a [Ha Hb]. split; split.
+    + eapply size_enc; eassumption.
+    + intros Hle. apply IH1; assumption.
+    + eapply size_enc; eassumption.
+    + intros Hle. apply IH2; assumption.
+  - (* struct *)
+    destruct v as [| | | | | |vs| | |]; try discriminate Hwf. rewrite enc_struct_eq in *. intros w Hl.
+    rewrite encode_struct_eq.
+    apply wf_struct_list in Hwf. rewrite <- Hty in Hwf.
+    assert (HE : forall f, In f fs -> field_enc f).
+    { intros f Hin x fl' Hx Hxl. apply (IH f Hin); assumption. }
+    assert (HS : forall f, In f fs -> field_sz f).
+    { intros f Hin x fl' Hx. eapply size_enc; [apply H, Hin | exact Hx]. }
+    assert (HN : forall f, In f fs -> field_num f).
+    { intros f Hin. split; [apply (fshape_facts f (Hsh f Hin)) | eapply wire_cwf; apply H, Hin]. }
+    destruct (upass_of enc fs vs (struct_flags0 inl_ fl)) as [fl1 bs1] eqn:EU.
+    rewrite len_app in Hl, Hlim. lens.
+    pose proof (uniq_writes fs vs (struct_flags0 inl_ fl) [] w (fun flags offset b => reps_of encode fs vs flags offset b) HE HS HN Hwf) as HU.
+    rewrite EU in HU. cbn [fst snd app] in HU. change (len []) with 0 in HU.
+    rewrite HU by lia.
+    assert (Hw' : len (skipn (length bs1) w) = len w - len bs1) by (apply len_skipn; lia).
+    rewrite reps_writes; [| assumption | assumption | lia | lia].
+    rewrite <- skipn_len_app. reflexivity.
+Qed.
+
+(* ==================== Part 10: the struct decoding loop on a sequence of chunks ==================== *)
+(* ---------- field lookup ---------- *)
+Definition nf_go (number : Z) :=
+  fix go (fs : list sfield) (i : nat) (acc : option (nat * sfield)) : option (nat * sfield) :=
+     match fs with
+     | [] => acc
+     | f :: r => go r (S i) (if sf_number f =? number then Some (i, f) else acc)
+     end.
+Lemma nth_field_go fields vs number : nth_field fields vs number = nf_go number fields O None.
+Proof. reflexivity. Qed.
+Lemma nf_go_app number l1 l2 i acc :
+  nf_go number (l1 ++ l2) i acc = nf_go number l2 (i + length l1)%nat (nf_go number l1 i acc).
+Proof.
+  revert i acc. induction l1 as [|f r IH]; intros i acc; cbn [app length nf_go].
+  - rewrite Nat.add_0_r. reflexivity.
+  - rewrite IH. f_equal. lia.
+Qed.
+Lemma nf_go_none number l i acc : existsb (Z.eqb number) (map sf_number l) = false -> nf_go number l i acc = acc.
+Proof.
+  revert i acc. induction l as [|f r IH]; intros i acc H; [reflexivity|].
+  cbn [map existsb] in H. apply orb_false_iff in H. destruct H as [H1 H2].
+  cbn [nf_go]. rewrite Z.eqb_sym, H1. apply IH, H2.
+Qed.
+Lemma distinct_app_r l1 l2 : distinct (l1 ++ l2) = true -> distinct l2 = true.
+Proof.
+  induction l1 as [|x r IH]; [trivial|]. cbn [app distinct]. intros H.
+  apply andb_true_iff in H. apply IH, H.
+Qed.
+Lemma nth_field_at l1 f l2 vs : distinct (map sf_number (l1 ++ f :: l2)) = true ->
+  nth_field (l1 ++ f :: l2) vs (sf_number f) = Some (length l1, f).
+Proof.
+  intros Hd. rewrite nth_field_go, nf_go_app. cbn [nf_go]. rewrite Z.eqb_refl. cbn [Nat.add].
+  apply nf_go_none. rewrite map_app in Hd. apply distinct_app_r in Hd. cbn [map distinct] in Hd.
+  apply andb_true_iff in Hd. destruct Hd as [Hd _]. apply negb_true_iff in Hd. exact Hd.
+Qed.
+Lemma max_number_ge fields f : In f fields -> sf_number f <= max_number fields.
+Proof.
+  unfold max_number. assert (G : forall l m, m <= fold_left (fun m f => Z.max m (sf_number f)) l m).
+  { induction l as [|a r IH]; intros m; cbn [fold_left]; [lia|]. specialize (IH (Z.max m (sf_number a))). lia. }
+  assert (G2 : forall l m, In f l -> sf_number f <= fold_left (fun m f => Z.max m (sf_number f)) l m).
+  { induction l as [|a r IH]; intros m Hin; [contradiction|]. cbn [fold_left]. destruct Hin as [->|Hin].
+    - specialize (G r (Z.max m (sf_number f))). lia.
+    - apply IH, Hin. }
+  intros Hin. apply G2, Hin.
+Qed.
+
+(* ---------- the data window of one field occurrence ---------- *)
+Definition framed (wt : Z) (emb : bool) (d : bytes) : Prop :=
+  if emb then wt = 2
+  else (wt = 0 /\ exists x, u64 x /\ d = varint x) \/ (wt = 5 /\ len d = 4) \/ (wt = 1 /\ len d = 8) \/
+       (wt = 2 /\ exists s, d = vl s).
+
+Lemma slice_at (pre d rest : bytes) o : o = len pre -> slice (pre ++ d ++ rest) o (o + len d) = d.
+Proof. intros ->. apply slice_mid. Qed.
+
+Section Step.
+  Variable dec : codec -> bytes -> val -> Z -> dres.
+  Variable fields : list sfield.
+  Variable flags : Z.
+
+  Lemma win_of_chunk b pre f d rest :
+    b = pre ++ pfx (sf_embedded f) d ++ d ++ rest -> len b < lim ->
+    framed (wire (sf_codec f)) (sf_embedded f) d ->
+    exists lo hi off',
+      win_of b (wire (sf_codec f)) (len pre) (slice_from b (len pre)) f = Ok (Some (lo, hi), off', None) /\
+      0 <= lo <= hi /\ hi <= len b /\ slice b lo hi = d /\ off' + len d = len pre + len (pfx (sf_embedded f) d ++ d).
+  Proof.
+    intros Hb Hlim Hfr. rewrite lim_val in Hlim. unfold win_of, framed in *.
+    assert (Hsf : slice_from b (len pre) = pfx (sf_embedded f) d ++ d ++ rest) by (rewrite Hb; apply slice_from_app).
+    rewrite Hsf. assert (Hlb : len b = len pre + len (pfx (sf_embedded f) d) + len d + len rest) by (rewrite Hb, !len_app; lia).
+    pose proof (PrimProofs.len_nonneg _ pre). pose proof (PrimProofs.len_nonneg _ d). pose proof (PrimProofs.len_nonneg _ rest).
+    pose proof (PrimProofs.len_nonneg _ (pfx (sf_embedded f) d)).
+    destruct (sf_embedded f) eqn:Eemb; unfold pfx in *; lazy iota in *.
+    - (* embedded *)
+      rewrite Hfr. cbn [Z.eqb]. unfold proto_varint, proto_varlen. cbn [Z.eqb Pos.eqb].
+      assert (Hwd : w64 (len d) = len d) by (apply w64_small; lia). rewrite Hwd in *.
+      rewrite decodeVarint_encode by (unfold u64; lia).
+      rewrite w64_small by lia. replace (len d >? len b - (len pre + len (varint (len d)))) with false by lia.
+      rewrite s64_small by lia.
+      exists (len pre + len (varint (len d))), (len pre + len (varint (len d)) + len d), (len pre + len (varint (len d))).
+      split; [reflexivity|]. split; [lia|]. split; [lia|]. split; [|rewrite !len_app; lia].
+      rewrite Hb. rewrite app_assoc. rewrite <- len_app. apply slice_mid.
+    - cbn [app] in *. rewrite len_nil in *.
+      destruct Hfr as [[Hw (x & Hx & Hd)] | [[Hw Hd] | [[Hw Hd] | [Hw (s & Hd)]]]]; rewrite Hw;
+        unfold proto_varint, proto_varlen, proto_fixed32, proto_fixed64; cbn [Z.eqb Pos.eqb].
+      + subst d. rewrite decodeVarint_encode by assumption.
+        exists (len pre), (len pre + len (varint x)), (len pre). split; [reflexivity|]. split; [lia|]. split; [lia|].
+        split; [|lia]. rewrite Hb. apply slice_mid.
+      + replace (len pre + 4 >? len b) with false by lia.
+        exists (len pre), (len pre + 4), (len pre). split; [reflexivity|]. split; [lia|]. split; [lia|].
+        split; [|lia]. rewrite Hb, <- Hd. apply slice_mid.
+      + replace (len pre + 8 >? len b) with false by lia.
+        exists (len pre), (len pre + 8), (len pre). split; [reflexivity|]. split; [lia|]. split; [lia|].
+        split; [|lia]. rewrite Hb, <- Hd. apply slice_mid.
+      + subst d. unfold vl in *. rewrite len_app in *. pose proof (PrimProofs.len_nonneg _ s). pose proof (PrimProofs.len_nonneg _ (varint (len s))).
+        rewrite <- app_assoc. rewrite decodeVarint_encode by (unfold u64; lia).
+        rewrite w64_small by lia. replace (len s >? len b - (len pre + len (varint (len s)))) with false by lia.
+        rewrite s64_small by lia.
+        exists (len pre), (len pre + len (varint (len s)) + len s), (len pre). split; [reflexivity|]. split; [lia|]. split; [lia|].
+        split; [|lia]. rewrite Hb. replace (len pre + len (varint (len s)) + len s) with (len pre + len (varint (len s) ++ s)) by (rewrite len_app; lia).
+        apply slice_mid.
+  Qed.
+
+  (* one loop iteration consumes one chunk *)
+  Lemma sbody_chunk b pre f i d rest vs newf rec :
+    b = pre ++ chunk (sf_number f) (wire (sf_codec f)) (sf_embedded f) d ++ rest -> len b < lim ->
+    nth_field fields vs (sf_number f) = Some (i, f) -> In f fields ->
+    field_num f ->
+    framed (wire (sf_codec f)) (sf_embedded f) d ->
+    dec (sf_codec f) d (nth i vs (zero_val (sf_ty f))) (make_flags f flags) = Ok (len d, None, newf) ->
+    sbody dec fields b flags (max_number fields) rec (len pre) vs =
+    rec (len pre + len (chunk (sf_number f) (wire (sf_codec f)) (sf_embedded f) d)) (set_nth vs i newf).
+  Proof.
+    intros Hb Hlim Hnf Hin [Hn Hw] Hfr Hdec. unfold sbody.
+    pose proof (max_number_ge fields f Hin) as Hmax.
+    set (tg := tagb (sf_number f) (wire (sf_codec f))) in *.
+    assert (Hb' : b = pre ++ tg ++ pfx (sf_embedded f) d ++ d ++ rest) by (rewrite Hb; unfold chunk; rewrite <- !app_assoc; reflexivity).
+    pose proof (PrimProofs.len_nonneg _ pre). pose proof (varint_len_pos (tag_of (sf_number f) (wire (sf_codec f)))) as Htg. fold (tagb (sf_number f) (wire (sf_codec f))) in Htg. fold tg in Htg.
+    assert (Hlb : len b = len pre + len tg + len (pfx (sf_embedded f) d ++ d ++ rest)) by (rewrite Hb', !len_app; lia).
+    pose proof (PrimProofs.len_nonneg _ (pfx (sf_embedded f) d ++ d ++ rest)).
+    replace (negb (len pre <? len b)) with false by lia.
+    rewrite cfrom_ok by lia. cbn [rbind].
+    rewrite Hb' at 1. rewrite slice_from_app.
+    assert (Ht : proto_decodeTag (tg ++ pfx (sf_embedded f) d ++ d ++ rest) =
+                 (sf_number f, wire (sf_codec f), len tg, None)).
+    { apply (tag_spec (sf_number f) (wire (sf_codec f)) []); unfold wire_ok in Hw; lia. }
+    rewrite Ht.
+    replace ((0 <=? sf_number f) && (sf_number f <? max_number fields + 1) && (sf_number f <? 2 ^ 63)) with true by lia.
+    rewrite Hnf. unfold sknown. rewrite Z.eqb_refl. cbn [negb].
+    rewrite cfrom_ok by lia. cbn [rbind].
+    destruct (win_of_chunk b (pre ++ tg) f d rest) as (lo & hi & off' & Hwin & Hlo & Hhi & Hsl & Hoff);
+      [rewrite Hb', <- app_assoc; reflexivity | assumption | assumption |].
+    rewrite len_app in Hwin, Hoff. rewrite Hwin. cbn [rbind].
+    rewrite cslice_ok by lia. cbn [rbind]. rewrite Hsl, Hdec. cbn [rbind].
+    f_equal. unfold chunk. fold tg. rewrite len_app. lia.
+  Qed.
+
+  (* a sequence of chunks, with the state they lead to *)
+  Inductive steps : list val -> bytes -> list val -> Prop :=
+  | steps_nil vs : steps vs [] vs
+  | steps_cons vs i f d newf bs vs' :
+      nth_field fields vs (sf_number f) = Some (i, f) -> In f fields -> field_num f ->
+      framed (wire (sf_codec f)) (sf_embedded f) d ->
+      dec (sf_codec f) d (nth i vs (zero_val (sf_ty f))) (make_flags f flags) = Ok (len d, None, newf) ->
+      steps (set_nth vs i newf) bs vs' ->
+      steps vs (chunk (sf_number f) (wire (sf_codec f)) (sf_embedded f) d ++ bs) vs'.
+
+  Lemma steps_app vs bs1 vs1 bs2 vs2 : steps vs bs1 vs1 -> steps vs1 bs2 vs2 -> steps vs (bs1 ++ bs2) vs2.
+  Proof.
+    induction 1 as [vs | vs i f d newf bs vs' H1 H2 H3 H4 H5 H6 IH]; intros Hs; [exact Hs|].
+    rewrite <- app_assoc. eapply steps_cons; try eassumption. apply IH, Hs.
+  Qed.
+
+  Lemma sloop_steps vs bs vs' : steps vs bs vs' -> forall pre fuel,
+    len (pre ++ bs) < lim -> (length bs + 1 <= fuel)%nat ->
+    sloop dec fields (pre ++ bs) flags (max_number fields) fuel (len pre) vs = Ok (len (pre ++ bs), None, VStruct vs').
+  Proof.
+    induction 1 as [vs | vs i f d newf bs vs' H1 H2 H3 H4 H5 H6 IH]; intros pre fuel Hlim Hfuel;
+      (destruct fuel as [|k]; [lia|]).
+    - change (sloop dec fields (pre ++ []) flags (max_number fields) (S k) (len pre) vs)
+        with (sbody dec fields (pre ++ []) flags (max_number fields) (sloop dec fields (pre ++ []) flags (max_number fields) k) (len pre) vs).
+      unfold sbody. rewrite app_nil_r. replace (negb (len pre <? len pre)) with true by lia. reflexivity.
+    - set (ch := chunk (sf_number f) (wire (sf_codec f)) (sf_embedded f) d) in *.
+      change (sloop dec fields (pre ++ ch ++ bs) flags (max_number fields) (S k) (len pre) vs)
+        with (sbody dec fields (pre ++ ch ++ bs) flags (max_number fields) (sloop dec fields (pre ++ ch ++ bs) flags (max_number fields) k) (len pre) vs).
+      rewrite (sbody_chunk (pre ++ ch ++ bs) pre f i d bs vs newf); try assumption; try reflexivity.
+      fold ch. rewrite <- len_app.
+      assert (Hch : (1 <= length ch)%nat).
+      { subst ch. unfold chunk, tagb. destruct (varint_cons (tag_of (sf_number f) (wire (sf_codec f)))) as (x & r & ->). cbn. lia. }
+      replace (pre ++ ch ++ bs) with ((pre ++ ch) ++ bs) in * by (rewrite <- app_assoc; reflexivity).
+      apply IH; [assumption|]. rewrite app_length in Hfuel. lia.
+  Qed.
+End Step.
+
+(* ==================== Part 11: empty encodings ==================== *)
+(* ---------- more flag facts ---------- *)
+Definition ptr_flags (fl : Z) : Z := with_ (without fl proto_inline) proto_wantzero.
+Lemma frange_ptr fl : frange fl -> frange (ptr_flags fl).
+Proof. unfold frange, ptr_flags. intros H. fl_enum fl; vm_compute; split; congruence. Qed.
+Lemma has_ptr_wz fl : frange fl -> has (ptr_flags fl) proto_wantzero = true.
+Proof. unfold frange, ptr_flags. intros H. fl_enum fl; reflexivity. Qed.
+Lemma has_ptr_tl fl : frange fl -> has (ptr_flags fl) proto_toplevel = has fl proto_toplevel.
+Proof. unfold frange, ptr_flags. intros H. fl_enum fl; reflexivity. Qed.
+Lemma frange_struct inl_ fl : frange fl -> frange (struct_flags0 inl_ fl).
+Proof. unfold frange, struct_flags0. intros H. destruct inl_; fl_enum fl; vm_compute; split; congruence. Qed.
+Lemma has_struct_wz inl_ fl : frange fl -> has (struct_flags0 inl_ fl) proto_wantzero = has fl proto_wantzero.
+Proof. unfold frange, struct_flags0. intros H. destruct inl_; fl_enum fl; reflexivity. Qed.
+Lemma has_struct_tl inl_ fl : frange fl -> has (struct_flags0 inl_ fl) proto_toplevel = false.
+Proof. unfold frange, struct_flags0. intros H. destruct inl_; fl_enum fl; reflexivity. Qed.
+Lemma frange_mkfl sf fl : 0 <= sf < 8 -> frange fl -> frange (mkfl sf fl).
+Proof. unfold frange, mkfl. intros Hs H. sf_enum sf; fl_enum fl; vm_compute; split; congruence. Qed.
+Lemma has_mkfl_wz sf fl : 0 <= sf < 8 -> frange fl -> has (mkfl sf fl) proto_wantzero = has fl proto_wantzero.
+Proof. unfold frange, mkfl. intros Hs H. sf_enum sf; fl_enum fl; reflexivity. Qed.
+Lemma has_mkfl_tl sf fl : 0 <= sf < 8 -> frange fl -> has (mkfl sf fl) proto_toplevel = has fl proto_toplevel.
+Proof. unfold frange, mkfl. intros Hs H. sf_enum sf; fl_enum fl; reflexivity. Qed.
+Lemma frange_nowz fl : frange fl -> frange (without fl proto_wantzero).
+Proof. unfold frange. intros H. fl_enum fl; vm_compute; split; congruence. Qed.
+Lemma has_nowz_tl fl : frange fl -> has (without fl proto_wantzero) proto_toplevel = has fl proto_toplevel.
+Proof. unfold frange. intros H. fl_enum fl; reflexivity. Qed.
+
+(* ---------- the shape of a field, from [fshape] ---------- *)
+Lemma fshape_kind f : fshape f = true ->
+  match sf_ty f with
+  | TSlice et => sf_repeated f = true /\ sf_embedded f = is_struct (base_ty et)
+  | TMap _ _ => sf_repeated f = true /\ sf_embedded f = true
+  | t => sf_repeated f = false /\ sf_embedded f = is_struct (base_ty t)
+  end.
+Proof.
+  destruct f as [num ts fl t c]. unfold sf_repeated, sf_embedded. cbn [fshape sf_ty sf_flags].
+  intros H. apply andb_true_iff in H. destruct H as [_ H].
+  destruct t; repeat (apply andb_true_iff in H; destruct H as [H ?]);
+    repeat match goal with H : Bool.eqb _ _ = true |- _ => apply eqb_prop in H end; split; try lia; try congruence.
+  all: try (rewrite <- H0; reflexivity).
+Qed.
+
+(* ---------- empty encodings ---------- *)
+
+Lemma vl_ne s : vl s <> [].
+Proof. unfold vl. destruct (varint_cons (len s)) as (x & r & ->). discriminate. Qed.
+Lemma varint_ne v : varint v <> [].
+Proof. destruct (varint_cons v) as (x & r & ->). discriminate. Qed.
+Lemma chunk_ne num wt emb p : chunk num wt emb p <> [].
+Proof. unfold chunk, tagb. destruct (varint_cons (tag_of num wt)) as (x & r & ->). discriminate. Qed.
+
+Lemma upass_nil : forall fs vs flags, wf_list (map sf_ty fs) vs ->
+  snd (upass_of enc fs vs flags) = [] ->
+  fst (upass_of enc fs vs flags) = flags /\
+  Forall2 (fun f v => sf_repeated f = false -> enc (sf_codec f) (Some v) (make_flags f flags) = []) fs vs.
+Proof.
+  induction fs as [|f fr IH]; intros vs flags Hwf H; inversion Hwf as [|t0 v ts0 vr Hv Hvr]; subst.
+  - split; [reflexivity | constructor].
+  - cbn [upass_of] in *. destruct (sf_repeated f) eqn:Er.
+    + destruct (IH vr flags Hvr H) as [I1 I2]. split; [exact I1|]. constructor; [congruence | exact I2].
+    + cbv zeta in *. destruct (enc (sf_codec f) (Some v) (make_flags f flags)) as [|x p] eqn:Ep.
+      * destruct (IH vr flags Hvr H) as [I1 I2]. split; [exact I1|]. constructor; [intros _; exact Ep | exact I2].
+      * exfalso. destruct (upass_of enc fr vr (without flags proto_wantzero)) as [fl' bs]. cbn [snd] in H.
+        apply app_eq_nil in H. destruct H as [H _]. exact (chunk_ne _ _ _ _ H).
+Qed.
+Lemma rpass_nil : forall fs vs flags, wf_list (map sf_ty fs) vs ->
+  rpass_of enc fs vs flags = [] ->
+  Forall2 (fun f v => sf_repeated f = true -> enc (sf_codec f) (Some v) (make_flags f flags) = []) fs vs.
+Proof.
+  induction fs as [|f fr IH]; intros vs flags Hwf H; inversion Hwf as [|t0 v ts0 vr Hv Hvr]; subst.
+  - constructor.
+  - cbn [rpass_of] in *. destruct (sf_repeated f) eqn:Er; cbn [negb] in H.
+    + cbv zeta in H. apply app_eq_nil in H. destruct H as [H1 H2]. rewrite H1 in H2.
+      constructor; [intros _; exact H1 | apply IH; assumption].
+    + constructor; [congruence | apply IH; assumption].
+Qed.
+Lemma struct_enc_nil inl_ fs vs fl : wf_list (map sf_ty fs) vs ->
+  enc (CStruct inl_ fs) (Some (VStruct vs)) fl = [] ->
+  Forall2 (fun f v => enc (sf_codec f) (Some v) (make_flags f (struct_flags0 inl_ fl)) = []) fs vs.
+Proof.
+  intros Hwf H. rewrite enc_struct_eq in H.
+  destruct (upass_of enc fs vs (struct_flags0 inl_ fl)) as [fl1 bs1] eqn:EU.
+  apply app_eq_nil in H. destruct H as [H1 H2]. subst bs1.
+  destruct (upass_nil fs vs (struct_flags0 inl_ fl) Hwf) as [I1 I2]; [rewrite EU; reflexivity|].
+  rewrite EU in I1. cbn [fst] in I1. subst fl1.
+  pose proof (rpass_nil fs vs _ Hwf H2) as I3.
+  clear -I2 I3. induction I2 as [|f v fr vr Hu I2 IH]; inversion I3 as [|? ? ? ? Hr I3']; subst; constructor.
+  - destruct (sf_repeated f); [apply Hr | apply Hu]; reflexivity.
+  - apply IH, I3'.
+Qed.
+
+Lemma F2_fields (R Q : sfield -> val -> Prop) : forall fs vs, wf_list (map sf_ty fs) vs -> Forall2 R fs vs ->
+  (forall f v, In f fs -> wf_val (sf_ty f) v = true -> R f v -> Q f v) -> Forall2 Q fs vs.
+Proof.
+  induction fs as [|f fr IH]; intros vs Hwf HR HQ; inversion HR as [|? v ? vr Hv HR']; subst; [constructor|].
+  inversion Hwf as [|? ? ? ? Hwv Hwr]; subst. constructor.
+  - apply HQ; [left; reflexivity | exact Hwv | exact Hv].
+  - apply IH; [exact Hwr | exact HR' | intros g x Hg; apply HQ; right; exact Hg].
+Qed.
+Lemma F2_forallb (p : val -> bool) (fs : list sfield) vs : Forall2 (fun _ v => p v = true) fs vs -> forallb p vs = true.
+Proof. induction 1 as [|f v fr vr H1 H2 IH]; [reflexivity|]. cbn [forallb]. rewrite H1, IH. reflexivity. Qed.
+
+Lemma enc_empty_wz : forall c t, cwf c t -> forall v fl, wf_val t v = true -> frange fl ->
+  has fl proto_wantzero = true -> enc c (Some v) fl = [] ->
+  empty_enc v = true \/ (has fl proto_toplevel = true /\ top_raw_empty v = true).
+Proof.
+  induction 1 as [c t Hs | t c He H IH | n wt emb et c He H IH Hwt Hemb Hn | n kf vf kt vt Hk Hv H1 IH1 H2 IH2 Hkf Hvf Hn
+                 | inl_ fs gfs Hty Hd H IH Hsh]; intros v fl Hwf Hfr Hwz He0.
+  - destruct c; try discriminate Hs; destruct t; try discriminate Hs; destruct v; try discriminate Hwf;
+      cbn [enc] in He0; rewrite ?Hwz in He0; rewrite ?orb_true_r in He0; cbn [orb] in He0;
+      try discriminate He0; try (exfalso; exact (varint_ne _ He0)); try (exfalso; exact (vl_ne _ He0)).
+    destruct (has fl proto_toplevel); [|exfalso; exact (vl_ne _ He0)].
+    right. subst s. split; reflexivity.
+  - (* pointer *)
+    destruct v as [| | | | |o| | | |]; try discriminate Hwf. rewrite enc_ptr_eq in He0. fold (ptr_flags fl) in He0.
+    destruct o as [x|]; [|left; reflexivity].
+    destruct (IH x (ptr_flags fl) Hwf (frange_ptr fl Hfr) (has_ptr_wz fl Hfr) He0) as [Hx | [Ht Hx]].
+    + left. cbn [empty_enc]. destruct x; try discriminate Hx; try exact Hx.
+      exfalso. destruct t; try discriminate Hwf. discriminate He.
+    + right. rewrite has_ptr_tl in Ht by assumption. split; [exact Ht | exact Hx].
+  - (* slice *)
+    destruct v as [| | | | | | |es| |]; try discriminate Hwf. rewrite enc_slice_eq in He0.
+    destruct es as [|e r]; [left; reflexivity|]. exfalso. cbn [slice_enc flat_map] in He0.
+    apply app_eq_nil in He0. destruct He0 as [He0 _]. exact (chunk_ne _ _ _ _ He0).
+  - (* map *)
+    destruct v as [| | | | | | | |nn es|]; try discriminate Hwf. rewrite enc_map_eq in He0. exfalso.
+    destruct es as [|e r]; cbn [map_enc flat_map] in He0.
+    + apply app_eq_nil in He0. destruct He0 as [_ He0]. discriminate.
+    + apply app_eq_nil in He0. destruct He0 as [He0 _]. exact (chunk_ne _ _ _ _ He0).
+  - (* struct *)
+    destruct v as [| | | | | |vs| | |]; try discriminate Hwf. left.
+    apply wf_struct_list in Hwf. rewrite <- Hty in Hwf.
+    pose proof (struct_enc_nil inl_ fs vs fl Hwf He0) as HF. cbn [empty_enc].
+    apply (F2_forallb empty_enc fs). eapply F2_fields; [exact Hwf | exact HF |].
+    intros f v Hin Hwv Hv. cbv beta in Hv.
+    destruct (fshape_facts f (Hsh f Hin)) as (_ & Hfl & _).
+    rewrite make_flags_mkfl in Hv.
+    destruct (IH f Hin v _ Hwv (frange_mkfl _ _ Hfl (frange_struct inl_ fl Hfr))) as [Hx | [Ht _]]; [| exact Hv | exact Hx |].
+    + rewrite has_mkfl_wz, has_struct_wz by (try apply frange_struct; assumption). exact Hwz.
+    + rewrite has_mkfl_tl, has_struct_tl in Ht by (try apply frange_struct; assumption). discriminate.
+Qed.
+
+(* ==================== Part 12: omitted fields, framing ==================== *)
+Lemma F2_fields_p (p : val -> bool) (R Q : sfield -> val -> Prop) : forall fs vs,
+  wf_list (map sf_ty fs) vs -> forallb p vs = true -> Forall2 R fs vs ->
+  (forall f v, In f fs -> wf_val (sf_ty f) v = true -> p v = true -> R f v -> Q f v) -> Forall2 Q fs vs.
+Proof.
+  induction fs as [|f fr IH]; intros vs Hwf Hp HR HQ; inversion HR as [|? v ? vr Hv HR']; subst; [constructor|].
+  inversion Hwf as [|? ? ? ? Hwv Hwr]; subst. cbn [forallb] in Hp. apply andb_true_iff in Hp. destruct Hp as [Hp1 Hp2].
+  constructor.
+  - apply HQ; [left; reflexivity | exact Hwv | exact Hp1 | exact Hv].
+  - apply IH; [exact Hwr | exact Hp2 | exact HR' | intros g x Hg; apply HQ; right; exact Hg].
+Qed.
+Lemma zero_struct gfs : zero_val (TStruct gfs) = VStruct (map zero_val (map field_ty gfs)).
+Proof.
+  cbn [zero_val]. f_equal. induction gfs as [|[e tg ft] r IH]; [reflexivity|]. cbn [map field_ty]. rewrite <- IH. reflexivity.
+Qed.
+Lemma F2_norm_zero fs vs : Forall2 (fun f v => norm v = norm (zero_val (sf_ty f))) fs vs ->
+  map norm vs = map norm (map zero_val (map sf_ty fs)).
+Proof. induction 1 as [|f v fr vr H1 H2 IH]; [reflexivity|]. cbn [map]. rewrite H1, IH. reflexivity. Qed.
+
+Lemma all_zero_repeat s : all_zero s = true -> s = repeat 0 (length s).
+Proof.
+  induction s as [|x r IH]; [reflexivity|]. cbn [all_zero forallb length repeat]. intros H.
+  apply andb_true_iff in H. destruct H as [H1 H2]. apply Z.eqb_eq in H1. subst x. f_equal. apply IH, H2.
+Qed.
+Lemma f32_zero z : 0 <= z < 2 ^ 32 -> f32_nonzero z = false -> f32_signbit z = false -> z = 0.
+Proof.
+  unfold f32_nonzero, f32_signbit. intros Hr H1 H2. apply negb_false_iff in H1. apply Z.eqb_eq in H1.
+  change 2147483647 with (Z.ones 31) in H1. rewrite Z.land_ones in H1 by lia.
+  change (2 ^ 31) with 2147483648 in H1. Z.div_mod_to_equations. lia.
+Qed.
+Lemma f64_zero z : 0 <= z < 2 ^ 64 -> f64_nonzero z = false -> f64_signbit z = false -> z = 0.
+Proof.
+  unfold f64_nonzero, f64_signbit. intros Hr H1 H2. apply negb_false_iff in H1. apply Z.eqb_eq in H1.
+  change 9223372036854775807 with (Z.ones 63) in H1. rewrite Z.land_ones in H1 by lia.
+  change (2 ^ 63) with 9223372036854775808 in H1. Z.div_mod_to_equations. lia.
+Qed.
+
+(* an omitted field is the zero value, up to nil-versus-empty *)
+Lemma enc_nil_norm : forall c t, cwf c t -> forall v fl, wf_val t v = true -> representable v = true -> frange fl ->
+  (has fl proto_toplevel = false \/ top_ok v = true) -> enc c (Some v) fl = [] -> norm v = norm (zero_val t).
+Proof.
+  induction 1 as [c t Hs | t c He H IH | n wt emb et c He H IH Hwt Hemb Hn | n kf vf kt vt Hk Hv H1 IH1 H2 IH2 Hkf Hvf Hn
+                 | inl_ fs gfs Hty Hd H IH Hsh]; intros v fl Hwf Hrep Hfr Htl He0.
+  - destruct c; try discriminate Hs; destruct t; try discriminate Hs; destruct v; try discriminate Hwf;
+      cbn [enc] in He0; cbn [wf_val] in Hwf; wf_split Hwf;
+      try (destruct (z =? 0) eqn:E; [apply Z.eqb_eq in E; subst z; reflexivity |
+           cbn [negb orb] in He0; exfalso; first [exact (varint_ne _ He0) | discriminate He0]]).
+    + destruct b; [discriminate | reflexivity].
+    + destruct (f32_nonzero z) eqn:E1; [discriminate|]. destruct (has fl proto_wantzero); [discriminate|].
+      destruct (f32_signbit z) eqn:E2; [discriminate|]. rewrite (f32_zero z) by (assumption || lia). reflexivity.
+    + destruct (f64_nonzero z) eqn:E1; [discriminate|]. destruct (has fl proto_wantzero); [discriminate|].
+      destruct (f64_signbit z) eqn:E2; [discriminate|]. rewrite (f64_zero z) by (assumption || lia). reflexivity.
+    + destruct (len s =? 0) eqn:E; [|exfalso; exact (vl_ne _ He0)]. apply Z.eqb_eq, len_0_nil in E. subst s. reflexivity.
+    + destruct nonnil; [exfalso; exact (vl_ne _ He0)|]. cbn [orb] in *.
+      assert (E : len s = 0) by lia. apply len_0_nil in E. subst s. reflexivity.
+    + destruct (has fl proto_wantzero); [exfalso; exact (vl_ne _ He0)|]. cbn [orb] in He0.
+      destruct (all_zero s) eqn:E; [|exfalso; exact (vl_ne _ He0)].
+      cbn [scalar_ct] in Hs. apply Nat.eqb_eq in Hs. subst n0. cbn [norm zero_val]. f_equal.
+      rewrite (all_zero_repeat s E). f_equal. unfold len in *. lia.
+    + destruct (has fl proto_toplevel); [|exfalso; exact (vl_ne _ He0)]. subst s. reflexivity.
+  - destruct v as [| | | | |o| | | |]; try discriminate Hwf. destruct o as [x|]; [|reflexivity]. exfalso.
+    rewrite enc_ptr_eq in He0. fold (ptr_flags fl) in He0.
+    cbn [representable] in Hrep. apply andb_true_iff in Hrep. destruct Hrep as [Hr1 Hr2].
+    destruct (enc_empty_wz c t H x (ptr_flags fl) Hwf (frange_ptr fl Hfr) (has_ptr_wz fl Hfr) He0) as [Hx | [Ht Hx]].
+    + rewrite Hx in Hr1. discriminate.
+    + rewrite has_ptr_tl in Ht by assumption. destruct Htl as [Htl|Htl]; [congruence|].
+      cbn [top_ok] in Htl. rewrite Hx in Htl. discriminate.
+  - destruct v as [| | | | | | |es| |]; try discriminate Hwf. rewrite enc_slice_eq in He0.
+    destruct es as [|e r]; [reflexivity|]. exfalso. cbn [slice_enc flat_map] in He0.
+    apply app_eq_nil in He0. destruct He0 as [He0 _]. exact (chunk_ne _ _ _ _ He0).
+  - destruct v as [| | | | | | | |nn es|]; try discriminate Hwf. rewrite enc_map_eq in He0. exfalso.
+    destruct es as [|e r]; cbn [map_enc flat_map] in He0.
+    + apply app_eq_nil in He0. destruct He0 as [_ He0]. discriminate.
+    + apply app_eq_nil in He0. destruct He0 as [He0 _]. exact (chunk_ne _ _ _ _ He0).
+  - destruct v as [| | | | | |vs| | |]; try discriminate Hwf.
+    apply wf_struct_list in Hwf. rewrite <- Hty in Hwf.
+    pose proof (struct_enc_nil inl_ fs vs fl Hwf He0) as HF.
+    rewrite zero_struct, <- Hty. cbn [norm representable] in *. f_equal. apply F2_norm_zero.
+    eapply (F2_fields_p representable); [exact Hwf | exact Hrep | exact HF |].
+    intros f v Hin Hwv Hrv Hv. cbv beta in Hv.
+    destruct (fshape_facts f (Hsh f Hin)) as (_ & Hfl & _).
+    rewrite make_flags_mkfl in Hv.
+    apply (IH f Hin v _ Hwv Hrv (frange_mkfl _ _ Hfl (frange_struct inl_ fl Hfr))); [|exact Hv].
+    left. rewrite has_mkfl_tl, has_struct_tl by (try apply frange_struct; assumption). reflexivity.
+Qed.
+
+Lemma wire_struct_base : forall c t, cwf c t -> is_struct (base_ty t) = true -> wire c = 2.
+Proof.
+  induction 1 as [c t Hs | t c He H IH | n wt emb et c He H IH Hwt Hemb Hn | n kf vf kt vt Hk Hv H1 IH1 H2 IH2 Hkf Hvf Hn
+                 | inl_ fs gfs Hty Hd H IH Hsh]; cbn [base_ty wire]; intros Hb; try discriminate Hb; try reflexivity.
+  - destruct c; try discriminate Hs; destruct t; try discriminate Hs; discriminate Hb.
+  - apply IH, Hb.
+Qed.
+
+Lemma enc_framed : forall c t, cwf c t -> forall v fl, elem_ty t = true -> is_struct (base_ty t) = false ->
+  wf_val t v = true -> frange fl -> has fl proto_toplevel = false -> enc c (Some v) fl <> [] ->
+  framed (wire c) false (enc c (Some v) fl).
+Proof.
+  induction 1 as [c t Hs | t c He H IH | n wt emb et c He H IH Hwt Hemb Hn | n kf vf kt vt Hk Hv H1 IH1 H2 IH2 Hkf Hvf Hn
+                 | inl_ fs gfs Hty Hd H IH Hsh]; intros v fl Het Hbs Hwf Hfr Htl Hne; try discriminate Het; try discriminate Hbs.
+  - unfold framed.
+    destruct c; try discriminate Hs; destruct t; try discriminate Hs; destruct v; try discriminate Hwf;
+      cbn [enc wire] in *; cbn [wf_val] in Hwf; wf_split Hwf;
+      try (match type of Hne with (if ?C then _ else _) <> _ => destruct C; [|exfalso; apply Hne; reflexivity] end);
+      unfold proto_varint, proto_fixed32, proto_fixed64, proto_varlen.
+    + left. split; [reflexivity|]. exists (if b then 1 else 0). split; [unfold u64; destruct b; lia | destruct b; reflexivity].
+    + left. split; [reflexivity|]. eexists; split; [|reflexivity]. apply fu64_u64; unfold i64; lia.
+    + left. split; [reflexivity|]. eexists; split; [|reflexivity]. apply fu64_u64; unfold i64; lia.
+    + left. split; [reflexivity|]. eexists; split; [|reflexivity]. apply fu64_u64; unfold i64; lia.
+    + left. split; [reflexivity|]. eexists; split; [|reflexivity]. unfold u64; lia.
+    + left. split; [reflexivity|]. eexists; split; [|reflexivity]. unfold u64; lia.
+    + left. split; [reflexivity|]. eexists; split; [|reflexivity]. unfold u64; lia.
+    + right; left. split; reflexivity.
+    + right; right; left. split; reflexivity.
+    + right; left. split; reflexivity.
+    + right; right; left. split; reflexivity.
+    + right; right; right. split; [reflexivity|]. eexists; reflexivity.
+    + right; right; right. split; [reflexivity|]. eexists; reflexivity.
+    + right; right; right. split; [reflexivity|]. eexists; reflexivity.
+    + rewrite Htl in *. right; right; right. split; [reflexivity|]. eexists; reflexivity.
+  - destruct v as [| | | | |o| | | |]; try discriminate Hwf. rewrite enc_ptr_eq in *. fold (ptr_flags fl) in *.
+    destruct o as [x|]; [|exfalso; apply Hne, enc_none].
+    cbn [wire base_ty] in *. apply IH; try assumption; [apply frange_ptr; assumption | rewrite has_ptr_tl; assumption].
+Qed.
+
+(* ==================== Part 13: decode (enc v) ~ v: scalars ==================== *)
+Fixpoint cdepth (c : codec) : nat :=
+  match c with
+  | CPtr _ c' => S (cdepth c')
+  | CSlice _ _ _ _ c' => S (cdepth c')
+  | CMap _ _ _ _ _ kc vc => S (S (Nat.max (cdepth kc) (cdepth vc)))
+  | CStruct _ fs => S ((fix go (fs : list sfield) : nat :=
+                          match fs with [] => O | f :: r => Nat.max (cdepth (sf_codec f)) (go r) end) fs)
+  | _ => 1%nat
+  end.
+Fixpoint fs_depth (fs : list sfield) : nat :=
+  match fs with [] => O | f :: r => Nat.max (cdepth (sf_codec f)) (fs_depth r) end.
+Lemma cdepth_struct inl_ fs : cdepth (CStruct inl_ fs) = S (fs_depth fs).
+Proof. reflexivity. Qed.
+Lemma fs_depth_in f fs : In f fs -> (cdepth (sf_codec f) <= fs_depth fs)%nat.
+Proof. induction fs as [|a r IH]; [contradiction|]. cbn [fs_depth]. intros [->|H]; [lia | specialize (IH H); lia]. Qed.
+
+Definition Dprop (c : codec) (t : gty) : Prop :=
+  forall v ef df fuel, wf_val t v = true -> representable v = true -> keys_distinct v = true -> fl_rel ef df ->
+    len (enc c (Some v) ef) < lim ->
+    (enc c (Some v) ef <> [] \/ is_struct t = true) ->
+    (length (enc c (Some v) ef) + cdepth c + 1 <= fuel)%nat ->
+    exists r, decode fuel c (enc c (Some v) ef) (zero_val t) df = Ok (len (enc c (Some v) ef), None, r) /\ norm r = norm v.
+
+(* exact-window forms of the primitive decoders *)
+Lemma dv_exact u : u64 u -> proto_decodeVarint (varint u) = (u, len (varint u), None).
+Proof. intros H. rewrite <- (app_nil_r (varint u)) at 1. apply decodeVarint_encode, H. Qed.
+Lemma dl32_exact v : u32 v -> proto_decodeLE32 (le_bytes 4 v) = (v, 4, None).
+Proof. intros H. rewrite <- (app_nil_r (le_bytes 4 v)). apply (decodeLE_spec v []), H. Qed.
+Lemma dl64_exact v : u64 v -> proto_decodeLE64 (le_bytes 8 v) = (v, 8, None).
+Proof. intros H. rewrite <- (app_nil_r (le_bytes 8 v)). apply (decodeLE_spec v []), H. Qed.
+Lemma dvl_exact s : wfb s = true -> len s < lim -> proto_decodeVarlen (vl s) = (s, len (vl s), None).
+Proof.
+  intros Hw Hl. rewrite lim_val in Hl. unfold vl. rewrite <- (app_nil_r s) at 2. rewrite len_app.
+  apply (decodeVarlen_encode s []); [assumption | lia | rewrite len_nil; lia].
+Qed.
+
+Lemma D_scalar c t : scalar_ct c t = true -> Dprop c t.
+Proof.
+  intros Hs v ef df fuel Hwf Hrep Hkd (Hfe & Hfd & Hzz & Htl) Hlim Hne Hfuel.
+  destruct fuel as [|k]; [lia|]. clear Hfuel.
+  assert (Hne' : enc c (Some v) ef <> []).
+  { destruct Hne as [Hne|Hne]; [exact Hne|]. destruct c; try discriminate Hs; destruct t; try discriminate Hs; discriminate Hne. }
+  clear Hne.
+  destruct c; try discriminate Hs; destruct t; try discriminate Hs; destruct v; try discriminate Hwf;
+    cbn [enc] in *; cbn [wf_val] in Hwf; wf_split Hwf;
+    try (match type of Hne' with (if ?C then _ else _) <> _ => destruct C; [|exfalso; apply Hne'; reflexivity] end);
+    cbn [decode zero_val].
+  - (* bool *) exists (VBool b). split; [|reflexivity]. destruct b; reflexivity.
+  - (* int *) rewrite dv_exact by (apply fu64_u64; unfold i64; lia). unfold dret.
+    rewrite fi64_fu64 by (try assumption; unfold i64; lia). eexists; split; reflexivity.
+  - (* int32 *) rewrite dv_exact by (apply fu64_u64; unfold i64; lia). unfold dret.
+    rewrite fi64_fu64 by (try assumption; unfold i64; lia).
+    replace ((z <? -2147483648) || (z >? 2147483647)) with false by lia. eexists; split; reflexivity.
+  - (* int64 *) rewrite dv_exact by (apply fu64_u64; unfold i64; lia). unfold dret.
+    rewrite fi64_fu64 by (try assumption; unfold i64; lia). eexists; split; reflexivity.
+  - (* uint *) rewrite dv_exact by (unfold u64; lia). eexists; split; reflexivity.
+  - (* uint32 *) rewrite dv_exact by (unfold u64; lia). replace (z >? 4294967295) with false by lia. eexists; split; reflexivity.
+  - (* uint64 *) rewrite dv_exact by (unfold u64; lia). eexists; split; reflexivity.
+  - (* fixed32 *) rewrite dl32_exact by (unfold u32; lia). eexists; split; reflexivity.
+  - (* fixed64 *) rewrite dl64_exact by (unfold u64; lia). eexists; split; reflexivity.
+  - (* float32 *) rewrite dl32_exact by (unfold u32; lia). eexists; split; reflexivity.
+  - (* float64 *) rewrite dl64_exact by (unfold u64; lia). eexists; split; reflexivity.
+  - (* string *) rewrite dvl_exact by (assumption || lia). eexists; split; reflexivity.
+  - (* bytes *) rewrite dvl_exact by (assumption || lia). eexists; split; reflexivity.
+  - (* byte array *)
+    cbn [scalar_ct] in Hs. apply Nat.eqb_eq in Hs. subst n0.
+    rewrite dvl_exact by (assumption || lia).
+    assert (Hls : length s = n) by (unfold len in *; lia).
+    replace (Z.min (Z.of_nat n) (len s)) with (len s) by lia.
+    replace (negb (len s =? Z.of_nat n)) with false by lia.
+    unfold slice_to, slice_from. rewrite to_nat_len, firstn_all, Hls.
+    replace (skipn n (repeat 0 n)) with (@nil Z) by (symmetry; apply skipn_all2; rewrite repeat_length; lia).
+    rewrite app_nil_r. eexists; split; reflexivity.
+  - (* message *)
+    rewrite <- Htl. destruct (has ef proto_toplevel).
+    + eexists; split; reflexivity.
+    + rewrite dvl_exact by (assumption || lia). eexists; split; reflexivity.
+Qed.
+
+(* ==================== Part 14: pointers, list state ==================== *)
+Definition Dmot (c : codec) (t : gty) : Prop :=
+  match c with
+  | CSlice _ _ _ et c' => Dprop c' et
+  | CMap _ _ _ kt vt kc vc => Dprop kc kt /\ Dprop vc vt
+  | _ => Dprop c t
+  end.
+Lemma Dmot_elem c t : cwf c t -> elem_ty t = true -> Dmot c t -> Dprop c t.
+Proof.
+  intros Hc He. destruct c; try (intros H; exact H); exfalso;
+    inversion Hc; subst; try discriminate He;
+    match goal with H : scalar_ct _ _ = true |- _ => discriminate H end.
+Qed.
+
+Lemma D_ptr t c : Dprop c t -> Dprop (CPtr t c) (TPtr t).
+Proof.
+  intros IH v ef df fuel Hwf Hrep Hkd Hfl Hlim Hne Hfuel.
+  destruct v as [| | | | |o| | | |]; try discriminate Hwf. rewrite enc_ptr_eq in *. fold (ptr_flags ef) in *.
+  destruct Hne as [Hne|Hne]; [|discriminate Hne].
+  destruct o as [x|]; [|exfalso; apply Hne, enc_none].
+  destruct fuel as [|k]; [lia|]. rewrite decode_ptr_eq. cbn [zero_val].
+  cbn [representable keys_distinct] in Hrep, Hkd. apply andb_true_iff in Hrep. destruct Hrep as [_ Hrep].
+  destruct (IH x (ptr_flags ef) df k Hwf Hrep Hkd (fl_rel_ptr ef df Hfl) Hlim (or_introl Hne)) as (r & Hr & Hn).
+  { cbn [cdepth] in Hfuel. lia. }
+  rewrite Hr. cbn [rbind]. exists (VPtr (Some r)). split; [reflexivity|]. cbn [norm]. rewrite Hn. reflexivity.
+Qed.
+
+(* ---------- list state ---------- *)
+Lemma nth_app_len {A} (a : list A) x b d : nth (length a) (a ++ x :: b) d = x.
+Proof. rewrite app_nth2 by lia. rewrite Nat.sub_diag. reflexivity. Qed.
+Lemma set_nth_app_len a x b y : set_nth (a ++ x :: b) (length a) y = a ++ y :: b.
+Proof. induction a as [|z a IH]; [reflexivity|]. cbn [app length set_nth]. rewrite IH. reflexivity. Qed.
+
+Inductive Forall3 {A B C} (R : A -> B -> C -> Prop) : list A -> list B -> list C -> Prop :=
+| F3_nil : Forall3 R [] [] []
+| F3_cons a b c la lb lc : R a b c -> Forall3 R la lb lc -> Forall3 R (a :: la) (b :: lb) (c :: lc).
+
+Lemma fl_rel_2_0 : fl_rel proto_wantzero proto_noflags.
+Proof. unfold fl_rel, frange. vm_compute. repeat split; congruence. Qed.
+
+(* an element or map value with an empty encoding under wantzero is a struct *)
+Lemma elem_nonempty c t v : cwf c t -> elem_ty t = true -> wf_val t v = true ->
+  (match v with VPtr _ => empty_enc v | _ => false end) = false ->
+  enc c (Some v) proto_wantzero <> [] \/ is_struct t = true.
+Proof.
+  intros Hc He Hwf Hp. destruct (enc c (Some v) proto_wantzero) as [|x p] eqn:E; [|left; discriminate].
+  right. destruct (enc_empty_wz c t Hc v proto_wantzero Hwf) as [Hx | [Ht _]]; try reflexivity; try exact E;
+    [unfold frange, proto_wantzero; lia | | discriminate Ht].
+  destruct v; try discriminate Hx.
+  - rewrite Hx in Hp. discriminate.
+  - destruct t; try discriminate Hwf. reflexivity.
+  - destruct t; try discriminate Hwf. discriminate He.
+Qed.
+
+(* ==================== Part 15: map entries ==================== *)
+(* lia, without the boolean facts about values (ZifyBool case-splits on each of them) *)
+Ltac clear_bools := repeat match goal with
+  | H : ?b = true |- _ =>
+      lazymatch b with (_ <? _) => fail | (_ <=? _) => fail | (_ =? _) => fail | (_ >? _) => fail | (_ >=? _) => fail | _ => clear H end
+  | H : ?b = false |- _ =>
+      lazymatch b with (_ <? _) => fail | (_ <=? _) => fail | (_ =? _) => fail | (_ >? _) => fail | (_ >=? _) => fail | _ => clear H end
+  end.
+Ltac blia := clear_bools; lia.
+(* ---------- map keys ---------- *)
+Definition is_key_val (k : val) : bool := match k with VBool _ | VInt _ | VStr _ => true | _ => false end.
+Lemma key_shape kt k : scalar_key kt = true -> wf_val kt k = true -> is_key_val k = true.
+Proof. destruct kt; try discriminate; destruct k; try discriminate; reflexivity. Qed.
+Lemma scalar_key_elem kt : scalar_key kt = true -> elem_ty kt = true /\ is_struct (base_ty kt) = false.
+Proof. destruct kt; try discriminate; split; reflexivity. Qed.
+Lemma key_norm_inv k r : is_key_val k = true -> norm r = norm k -> r = k.
+Proof. destruct k; try discriminate; destruct r as [| | | | |[?|]| | | |]; try discriminate; cbn [norm]; intros _ H; exact H. Qed.
+Lemma bytes_eqb_sym a : forall b, bytes_eqb a b = bytes_eqb b a.
+Proof. induction a as [|x a IH]; destruct b as [|y b]; try reflexivity. cbn [bytes_eqb]. rewrite IH, Z.eqb_sym. reflexivity. Qed.
+Lemma val_eqb_sym_key a b : is_key_val a = true -> is_key_val b = true -> val_eqb a b = val_eqb b a.
+Proof.
+  destruct a; try discriminate; destruct b; try discriminate; try reflexivity; intros _ _; cbn [val_eqb].
+  - destruct b0, b; reflexivity.
+  - apply Z.eqb_sym.
+  - apply bytes_eqb_sym.
+Qed.
+Lemma map_assign_fresh acc k v : (forall a, In a acc -> val_eqb (fst a) k = false) -> map_assign acc k v = acc ++ [(k, v)].
+Proof.
+  induction acc as [|[k' v'] r IH]; intros H; [reflexivity|]. cbn [map_assign app].
+  pose proof (H (k', v') (or_introl eq_refl)) as H0. cbn [fst] in H0. rewrite H0. f_equal. apply IH. intros a Ha. apply H. right. exact Ha.
+Qed.
+
+(* ---------- the synthesized entry struct ---------- *)
+Lemma fcodec_elem ft number : elem_ty ft = true ->
+  fcodec None ft number = SField (w16 number) (w8 (proto_sizeOfTag (w16 number) (wire (codec_of ft)))) (emb_of ft) ft (codec_of ft).
+Proof.
+  intros He. unfold fcodec, generic_of, emb_of.
+  destruct ft; try discriminate He; cbn [base_ty is_struct]; try reflexivity.
+  destruct (is_struct (base_ty ft)); reflexivity.
+Qed.
+Definition syn_fields (kt vt : gty) : list sfield :=
+  [SField 1 (w8 (proto_sizeOfTag 1 (wire (codec_of kt)))) (emb_of kt) kt (codec_of kt);
+   SField 2 (w8 (proto_sizeOfTag 2 (wire (codec_of vt)))) (emb_of vt) vt (codec_of vt)].
+Lemma syn_codec kt vt : elem_ty kt = true -> elem_ty vt = true ->
+  codec_of (TStruct [GField true None kt; GField true None vt]) =
+  CStruct (inlined_ty (TStruct [GField true None kt; GField true None vt])) (syn_fields kt vt).
+Proof.
+  intros Hk Hv. rewrite codec_of_struct. f_equal. cbn [cfields]. rewrite !fcodec_cons_eq.
+  rewrite (fcodec_elem kt 1 Hk), (fcodec_elem vt (1 + 1) Hv). reflexivity.
+Qed.
+Lemma emb_of_flag t : kf_emb (emb_of t) = is_struct (base_ty t).
+Proof. unfold emb_of. destruct (is_struct (base_ty t)); reflexivity. Qed.
+
+Lemma entry_framed c t v : cwf c t -> elem_ty t = true -> wf_val t v = true ->
+  enc c (Some v) proto_wantzero <> [] ->
+  framed (wire c) (kf_emb (emb_of t)) (enc c (Some v) proto_wantzero).
+Proof.
+  intros Hc He Hwf Hne. rewrite emb_of_flag. destruct (is_struct (base_ty t)) eqn:Eb.
+  - unfold framed. apply (wire_struct_base _ _ Hc Eb).
+  - apply (enc_framed _ _ Hc); try assumption; [unfold frange, proto_wantzero; lia | reflexivity].
+Qed.
+
+Lemma map_entry_dec n kf vf kt vt k v nn acc fl F :
+  scalar_key kt = true -> elem_ty vt = true -> cwf (codec_of kt) kt -> cwf (codec_of vt) vt ->
+  kf = emb_of kt -> vf = emb_of vt -> Dprop (codec_of kt) kt -> Dprop (codec_of vt) vt ->
+  wf_val kt k = true -> wf_val vt v = true -> representable v = true -> keys_distinct v = true ->
+  (match v with VPtr _ => empty_enc v | _ => false end) = false ->
+  len (entry_enc enc kf vf (codec_of kt) (codec_of vt) (k, v)) < lim ->
+  (length (entry_enc enc kf vf (codec_of kt) (codec_of vt) (k, v)) + cdepth (CMap n kf vf kt vt (codec_of kt) (codec_of vt)) + 1 <= F)%nat ->
+  exists rv, norm rv = norm v /\
+    decode F (CMap n kf vf kt vt (codec_of kt) (codec_of vt)) (entry_enc enc kf vf (codec_of kt) (codec_of vt) (k, v)) (VMap nn acc) fl =
+    Ok (len (entry_enc enc kf vf (codec_of kt) (codec_of vt) (k, v)), None, VMap true (map_assign acc k rv)).
+Proof.
+  intros Hsk Hev Hck Hcv -> -> HDk HDv Hwk Hwv Hrv Hkv Hpv Hlim Hfuel.
+  destruct (scalar_key_elem kt Hsk) as [Hek Hbk].
+  pose proof (key_shape kt k Hsk Hwk) as Hkey.
+  unfold entry_enc in *. cbn [fst snd] in *.
+  set (kc := codec_of kt) in *. set (vc := codec_of vt) in *.
+  set (kp := enc kc (Some k) proto_wantzero) in *. set (vp := enc vc (Some v) proto_wantzero) in *.
+  assert (Hkne : kp <> []).
+  { intros E. destruct (enc_empty_wz kc kt Hck k proto_wantzero Hwk) as [Hx | [Ht _]]; [unfold frange, proto_wantzero; blia | reflexivity | exact E | destruct k; discriminate | discriminate Ht]. }
+  assert (Hrk : representable k = true /\ keys_distinct k = true) by (destruct k; try discriminate Hkey; split; reflexivity).
+  destruct Hrk as [Hrk Hkk].
+  set (ock := opt_chunk 1 (wire kc) (kf_emb (emb_of kt)) kp) in *. set (ocv := opt_chunk 2 (wire vc) (kf_emb (emb_of vt)) vp) in *.
+  assert (Hock : ock = chunk 1 (wire kc) (kf_emb (emb_of kt)) kp) by (subst ock; unfold opt_chunk; destruct kp; [contradiction | reflexivity]).
+  rewrite len_app in Hlim. lens.
+  assert (Hkl : len kp <= len ock) by (rewrite Hock; unfold chunk; rewrite !len_app; lens; blia).
+  assert (Hvl : len vp <= len ocv) by (subst ocv; unfold opt_chunk; destruct vp; [blia | unfold chunk; rewrite !len_app; lens; blia]).
+  cbn [cdepth] in Hfuel. rewrite app_length in Hfuel.
+  destruct F as [|F1]; [blia|]. destruct F1 as [|F2]; [blia|].
+  rewrite decode_map_eq. cbv zeta.
+  assert (Hpos : 0 < len ock) by (rewrite Hock; unfold chunk, tagb; rewrite !len_app; pose proof (varint_len_pos (tag_of 1 (wire kc))); lens; blia).
+  replace (len (ock ++ ocv) =? 0) with false by (rewrite len_app; blia).
+  rewrite (syn_codec kt vt Hek Hev). rewrite decode_struct_eq. cbn [zero_val].
+  set (f1 := SField 1 (w8 (proto_sizeOfTag 1 (wire kc))) (emb_of kt) kt kc).
+  set (f2 := SField 2 (w8 (proto_sizeOfTag 2 (wire vc))) (emb_of vt) vt vc).
+  change (syn_fields kt vt) with [f1; f2].
+  set (df0 := without proto_noflags proto_toplevel).
+  assert (Hkw : wire_ok (wire kc)) by (eapply wire_cwf; exact Hck).
+  assert (Hvw : wire_ok (wire vc)) by (eapply wire_cwf; exact Hcv).
+  assert (Hmf : forall t, Z.lor df0 (Z.land (emb_of t) proto_zigzag) = proto_noflags)
+    by (intros t; unfold emb_of; destruct (is_struct (base_ty t)); reflexivity).
+  (* key *)
+  destruct (HDk k proto_wantzero proto_noflags F2 Hwk Hrk Hkk fl_rel_2_0) as (rk & Hdk & Hnk);
+    [fold kp; blia | left; exact Hkne | fold kp; unfold len in *; blia |].
+  fold kp in Hdk. apply (key_norm_inv k rk Hkey) in Hnk. subst rk.
+  (* value *)
+  assert (Hval : exists rv, norm rv = norm v /\
+            steps (decode F2) [f1; f2] df0 [k; zero_val vt] ocv [k; rv]).
+  { subst ocv. unfold opt_chunk. destruct vp as [|y vp'] eqn:Evp.
+    - exists (zero_val vt). split; [|apply steps_nil]. symmetry.
+      apply (enc_nil_norm vc vt Hcv v proto_wantzero Hwv Hrv); [unfold frange, proto_wantzero; blia | left; reflexivity | exact Evp].
+    - rewrite <- Evp in *.
+      destruct (HDv v proto_wantzero proto_noflags F2 Hwv Hrv Hkv fl_rel_2_0) as (rv & Hdv & Hnv);
+        [fold vp; blia | left; fold vp; rewrite Evp; discriminate | fold vp; unfold len in *; blia |].
+      fold vp in Hdv. exists rv. split; [exact Hnv|].
+      rewrite <- (app_nil_r (chunk 2 (wire vc) (kf_emb (emb_of vt)) vp)).
+      apply (steps_cons (decode F2) [f1; f2] df0 [k; zero_val vt] 1%nat f2 vp rv [] [k; rv]).
+      + reflexivity.
+      + right; left; reflexivity.
+      + split; [cbn; blia | exact Hvw].
+      + apply (entry_framed vc vt v Hcv Hev Hwv). fold vp. rewrite Evp. discriminate.
+      + unfold f2, make_flags. cbn [sf_codec sf_ty sf_flags nth]. rewrite Hmf. exact Hdv.
+      + apply steps_nil. }
+  destruct Hval as (rv & Hnv & Hsv).
+  assert (Hst : steps (decode F2) [f1; f2] df0 [zero_val kt; zero_val vt] (ock ++ ocv) [k; rv]).
+  { rewrite Hock.
+    apply (steps_cons (decode F2) [f1; f2] df0 [zero_val kt; zero_val vt] 0%nat f1 kp k ocv [k; rv]).
+    - reflexivity.
+    - left; reflexivity.
+    - split; [cbn; blia | exact Hkw].
+    - apply (entry_framed kc kt k Hck Hek Hwk Hkne).
+    - unfold f1, make_flags. cbn [sf_codec sf_ty sf_flags nth]. rewrite Hmf. exact Hdk.
+    - exact Hsv. }
+  pose proof (sloop_steps (decode F2) [f1; f2] df0 _ _ _ Hst [] F2) as HL. cbn [app] in HL. change (len []) with 0 in HL.
+  rewrite HL by (rewrite ?len_app, ?app_length; unfold len in *; blia).
+  cbn [rbind]. exists rv. split; [exact Hnv | reflexivity].
+Qed.
+
+(* ==================== Part 16: struct fields, slices, maps, the two passes ==================== *)
+Lemma fshape_cnum f : fshape f = true ->
+  match sf_ty f, sf_codec f with
+  | TSlice _, CSlice n _ _ _ _ => sf_number f = n
+  | TMap _ _, CMap n _ _ _ _ _ _ => sf_number f = n
+  | _, _ => True
+  end.
+Proof.
+  destruct f as [num ts fl t c]. cbn [fshape sf_ty sf_codec sf_number]. intros H.
+  apply andb_true_iff in H. destruct H as [_ H].
+  destruct t; try exact I; destruct c; try exact I; repeat (apply andb_true_iff in H; destruct H as [H ?]); lia.
+Qed.
+Lemma is_struct_base t : is_struct t = true -> is_struct (base_ty t) = true.
+Proof. destruct t; try discriminate; reflexivity. Qed.
+Fixpoint kd_go (es : list (val * val)) : bool :=
+  match es with
+  | [] => true
+  | (k, x) :: r => negb (existsb (fun kv => val_eqb (fst kv) k) r) && keys_distinct x && kd_go r
+  end.
+Lemma keys_distinct_map nn es : keys_distinct (VMap nn es) = kd_go es.
+Proof. reflexivity. Qed.
+Definition rep_entry (kv : val * val) : bool :=
+  representable (fst kv) && representable (snd kv) && negb (match snd kv with VPtr _ => empty_enc (snd kv) | _ => false end).
+Definition rep_elem (e : val) : bool := representable e && negb (match e with VPtr _ => empty_enc e | _ => false end).
+Lemma chunk_empty n wt : chunk n wt true [] = tagb n wt ++ [0].
+Proof. reflexivity. Qed.
+
+Lemma cwf_slice_inv c et : cwf c (TSlice et) ->
+  exists n c', c = CSlice n (wire c') (is_struct (base_ty et)) et c' /\ elem_ty et = true /\ cwf c' et.
+Proof.
+  intros H. inversion H as [? ? Hsc | | ? ? ? ? ? He Hc' Hwt Hemb Hn | |]; subst.
+  - destruct c; discriminate Hsc.
+  - eauto.
+Qed.
+Lemma cwf_map_inv c kt vt : cwf c (TMap kt vt) ->
+  exists n, c = CMap n (emb_of kt) (emb_of vt) kt vt (codec_of kt) (codec_of vt) /\ scalar_key kt = true.
+Proof.
+  intros H. inversion H as [? ? Hsc | | | ? ? ? ? ? Hsk Hev Hck Hcv Hkf Hvf Hn |]; subst.
+  - destruct c; discriminate Hsc.
+  - eauto.
+Qed.
+Lemma F2_norm_map rs es : Forall2 (fun r e => norm r = norm e) rs es -> map norm rs = map norm es.
+Proof. induction 1 as [|r e rs es H1 H2 IH]; [reflexivity|]. cbn [map]. rewrite H1, IH. reflexivity. Qed.
+Lemma F2_norm_entries rs (es : list (val * val)) :
+  Forall2 (fun a kv => fst a = fst kv /\ norm (snd a) = norm (snd kv)) rs es ->
+  map (fun kv => (norm (fst kv), norm (snd kv))) rs = map (fun kv => (norm (fst kv), norm (snd kv))) es.
+Proof. induction 1 as [|r e rs es [H1 H1'] H2 IH]; [reflexivity|]. cbn [map]. rewrite H1, H1', IH. reflexivity. Qed.
+Lemma kd_fresh kt vt k v er : scalar_key kt = true ->
+  Forall (fun kv => wf_val kt (fst kv) = true /\ wf_val vt (snd kv) = true) ((k, v) :: er) ->
+  kd_go ((k, v) :: er) = true -> forall kv, In kv er -> val_eqb k (fst kv) = false.
+Proof.
+  intros Hsk Hwf Hkd kv Hin. inversion Hwf as [|x l [Hwk _] Hwr]; subst x l. cbn [fst] in Hwk.
+  cbn [kd_go] in Hkd. apply andb_true_iff in Hkd. destruct Hkd as [Hkd _]. apply andb_true_iff in Hkd. destruct Hkd as [Hkx _].
+  apply negb_true_iff in Hkx.
+  assert (Hk1 : is_key_val k = true) by (eapply key_shape; eassumption).
+  assert (Hk2 : is_key_val (fst kv) = true).
+  { rewrite Forall_forall in Hwr. destruct (Hwr kv Hin) as [Hw2 _]. eapply key_shape; eassumption. }
+  rewrite val_eqb_sym_key by assumption.
+  destruct (val_eqb (fst kv) k) eqn:E; [|reflexivity]. exfalso.
+  assert (Hex : exists x, In x er /\ val_eqb (fst x) k = true) by (exists kv; split; assumption).
+  apply existsb_exists in Hex. rewrite Hex in Hkx. discriminate.
+Qed.
+
+Section StructDec.
+  Variables (fs : list sfield) (F : nat) (df0 : Z).
+  Hypothesis Hd : distinct (map sf_number fs) = true.
+  Hypothesis Hcw : forall f, In f fs -> cwf (sf_codec f) (sf_ty f).
+  Hypothesis Hsh : forall f, In f fs -> fshape f = true.
+  Hypothesis HD : forall f, In f fs -> Dmot (sf_codec f) (sf_ty f).
+  Hypothesis Hdf0 : frange df0.
+  Hypothesis Hdf0t : has df0 proto_toplevel = false.
+
+  Lemma field_num_of f : In f fs -> field_num f.
+  Proof. intros Hin. split; [apply (fshape_facts f (Hsh f Hin)) | eapply wire_cwf; apply Hcw, Hin]. Qed.
+
+  (* a data window that decodes to newf moves the state of field i *)
+  Lemma one_step done_f f fr done_s old tail d newf bs vs' :
+    fs = done_f ++ f :: fr -> length done_s = length done_f ->
+    framed (wire (sf_codec f)) (sf_embedded f) d ->
+    decode F (sf_codec f) d old (make_flags f df0) = Ok (len d, None, newf) ->
+    steps (decode F) fs df0 (done_s ++ newf :: tail) bs vs' ->
+    steps (decode F) fs df0 (done_s ++ old :: tail) (chunk (sf_number f) (wire (sf_codec f)) (sf_embedded f) d ++ bs) vs'.
+  Proof.
+    intros Hfs Hlen Hfr Hdec Hst.
+    assert (Hin : In f fs) by (rewrite Hfs; apply in_or_app; right; left; reflexivity).
+    eapply (steps_cons (decode F) fs df0 _ (length done_s) f d newf).
+    - rewrite Hlen, Hfs. apply nth_field_at. rewrite <- Hfs. exact Hd.
+    - exact Hin.
+    - apply field_num_of, Hin.
+    - exact Hfr.
+    - rewrite nth_app_len. exact Hdec.
+    - rewrite set_nth_app_len. exact Hst.
+  Qed.
+
+  Lemma ufield_step done_f f fr done_s v ef :
+    fs = done_f ++ f :: fr -> length done_s = length done_f -> sf_repeated f = false ->
+    wf_val (sf_ty f) v = true -> representable v = true -> keys_distinct v = true -> fl_rel0 ef df0 ->
+    enc (sf_codec f) (Some v) (make_flags f ef) <> [] -> len (enc (sf_codec f) (Some v) (make_flags f ef)) < lim ->
+    (length (enc (sf_codec f) (Some v) (make_flags f ef)) + fs_depth fs + 1 <= F)%nat ->
+    exists r, norm r = norm v /\ forall tail bs vs',
+      steps (decode F) fs df0 (done_s ++ r :: tail) bs vs' ->
+      steps (decode F) fs df0 (done_s ++ zero_val (sf_ty f) :: tail)
+            (chunk (sf_number f) (wire (sf_codec f)) (sf_embedded f) (enc (sf_codec f) (Some v) (make_flags f ef)) ++ bs) vs'.
+  Proof.
+    intros Hfs Hlen Hrepf Hwf Hrep Hkd Hfl Hne Hlim Hfuel.
+    assert (Hin : In f fs) by (rewrite Hfs; apply in_or_app; right; left; reflexivity).
+    pose proof (fshape_kind f (Hsh f Hin)) as Hk.
+    destruct (fshape_facts f (Hsh f Hin)) as (_ & Hsf & _).
+    assert (Hel : elem_ty (sf_ty f) = true /\ sf_embedded f = is_struct (base_ty (sf_ty f))).
+    { destruct (sf_ty f); destruct Hk as [Hk1 Hk2]; try (rewrite Hk1 in Hrepf; discriminate); split; try reflexivity; exact Hk2. }
+    destruct Hel as [Hel Hemb].
+    pose proof (Dmot_elem _ _ (Hcw f Hin) Hel (HD f Hin)) as HDf.
+    rewrite !make_flags_mkfl in *.
+    pose proof (fl_rel0_field ef df0 (sf_flags f) Hfl Hsf) as Hfl'.
+    destruct (HDf v (mkfl (sf_flags f) ef) (mkfl (sf_flags f) df0) F Hwf Hrep Hkd (fl_rel0_rel _ _ Hfl') Hlim (or_introl Hne)) as (r & Hr & Hn).
+    { pose proof (fs_depth_in f fs Hin). blia. }
+    exists r. split; [exact Hn|]. intros tail bs vs' Hst.
+    eapply one_step; try eassumption.
+    - rewrite Hemb. destruct (is_struct (base_ty (sf_ty f))) eqn:Eb.
+      + unfold framed. apply (wire_struct_base _ _ (Hcw f Hin) Eb).
+      + apply (enc_framed _ _ (Hcw f Hin)); try assumption; [apply Hfl' | apply Hfl'].
+  Qed.
+
+  Lemma selem_step done_f f fr done_s acc e n wt emb et c' :
+    fs = done_f ++ f :: fr -> length done_s = length done_f ->
+    sf_ty f = TSlice et -> sf_codec f = CSlice n wt emb et c' ->
+    wf_val et e = true -> representable e = true -> keys_distinct e = true ->
+    (match e with VPtr _ => empty_enc e | _ => false end) = false ->
+    len (enc c' (Some e) proto_wantzero) < lim ->
+    (length (enc c' (Some e) proto_wantzero) + fs_depth fs + 1 <= F)%nat ->
+    exists r, norm r = norm e /\ forall tail bs vs',
+      steps (decode F) fs df0 (done_s ++ VSlice (acc ++ [r]) :: tail) bs vs' ->
+      steps (decode F) fs df0 (done_s ++ VSlice acc :: tail) (chunk n wt emb (enc c' (Some e) proto_wantzero) ++ bs) vs'.
+  Proof.
+    intros Hfs Hlen Hty Hco Hwf Hrep Hkd Hp Hlim Hfuel.
+    assert (Hin : In f fs) by (rewrite Hfs; apply in_or_app; right; left; reflexivity).
+    pose proof (Hcw f Hin) as Hc. rewrite Hty, Hco in Hc.
+    revert Hfs. inversion Hc as [? ? Hsc | | ? ? ? ? ? He Hc' Hwt Hemb0 Hn | |]; subst; [discriminate Hsc|]. intros Hfs.
+    pose proof (HD f Hin) as HDf. rewrite Hco in HDf. cbn [Dmot] in HDf.
+    pose proof (fshape_kind f (Hsh f Hin)) as Hk. rewrite Hty in Hk. destruct Hk as [_ Hemb].
+    pose proof (fshape_cnum f (Hsh f Hin)) as Hnum. rewrite Hty, Hco in Hnum.
+    pose proof (elem_nonempty c' et e Hc' He Hwf Hp) as Hne.
+    pose proof (fs_depth_in f fs Hin) as Hdp. rewrite Hco in Hdp. cbn [cdepth] in Hdp.
+    assert (exists k, F = S k) as [k EF] by (destruct F; [exfalso; blia | eauto]).
+    destruct (HDf e proto_wantzero proto_noflags k Hwf Hrep Hkd fl_rel_2_0 Hlim Hne) as (r & Hr & Hn'); [blia|].
+    exists r. split; [exact Hn'|]. intros tail bs vs' Hst.
+    pose proof (one_step done_f f fr done_s (VSlice acc) tail (enc c' (Some e) proto_wantzero) (VSlice (acc ++ [r])) bs vs' Hfs Hlen) as OS.
+    rewrite Hco in OS. cbn [wire] in OS. rewrite Hnum, Hemb in OS. apply OS; [| | exact Hst].
+    - destruct (is_struct (base_ty et)) eqn:Eb.
+      + unfold framed. apply (wire_struct_base _ _ Hc' Eb).
+      + apply (enc_framed _ _ Hc'); try assumption; try reflexivity; [unfold frange, proto_wantzero; blia|].
+        destruct Hne as [Hne|Hne]; [exact Hne|]. apply is_struct_base in Hne. congruence.
+    - rewrite EF, decode_slice_eq, Hr. cbn [rbind]. reflexivity.
+  Qed.
+
+  Lemma mentry_step done_f f fr done_s nn acc k v n kf vf kt vt kc vc :
+    fs = done_f ++ f :: fr -> length done_s = length done_f ->
+    sf_ty f = TMap kt vt -> sf_codec f = CMap n kf vf kt vt kc vc ->
+    wf_val kt k = true -> wf_val vt v = true -> representable v = true -> keys_distinct v = true ->
+    (match v with VPtr _ => empty_enc v | _ => false end) = false ->
+    (forall a, In a acc -> val_eqb (fst a) k = false) ->
+    len (entry_enc enc kf vf kc vc (k, v)) < lim ->
+    (length (entry_enc enc kf vf kc vc (k, v)) + fs_depth fs + 1 <= F)%nat ->
+    exists rv, norm rv = norm v /\ forall tail bs vs',
+      steps (decode F) fs df0 (done_s ++ VMap true (acc ++ [(k, rv)]) :: tail) bs vs' ->
+      steps (decode F) fs df0 (done_s ++ VMap nn acc :: tail)
+            (chunk n proto_varlen true (entry_enc enc kf vf kc vc (k, v)) ++ bs) vs'.
+  Proof.
+    intros Hfs Hlen Hty Hco Hwk Hwv Hrep Hkd Hp Hfresh Hlim Hfuel.
+    assert (Hin : In f fs) by (rewrite Hfs; apply in_or_app; right; left; reflexivity).
+    pose proof (Hcw f Hin) as Hc. rewrite Hty, Hco in Hc.
+    revert Hfs. inversion Hc as [? ? Hsc | | | ? ? ? ? ? Hsk Hev Hck Hcv Hkf Hvf Hn |]; subst; [discriminate Hsc|]. intros Hfs.
+    pose proof (HD f Hin) as HDf. rewrite Hco in HDf. cbn [Dmot] in HDf. destruct HDf as [HDk HDv].
+    pose proof (fshape_kind f (Hsh f Hin)) as Hk. rewrite Hty in Hk. destruct Hk as [_ Hemb].
+    pose proof (fshape_cnum f (Hsh f Hin)) as Hnum. rewrite Hty, Hco in Hnum.
+    pose proof (fs_depth_in f fs Hin) as Hdp. rewrite Hco in Hdp.
+    destruct (map_entry_dec n (emb_of kt) (emb_of vt) kt vt k v nn acc (make_flags f df0) F Hsk Hev Hck Hcv eq_refl eq_refl HDk HDv
+                Hwk Hwv Hrep Hkd Hp Hlim) as (rv & Hnv & Hdec); [blia|].
+    exists rv. split; [exact Hnv|]. intros tail bs vs' Hst.
+    pose proof (one_step done_f f fr done_s (VMap nn acc) tail (entry_enc enc (emb_of kt) (emb_of vt) (codec_of kt) (codec_of vt) (k, v))
+                  (VMap true (acc ++ [(k, rv)])) bs vs' Hfs Hlen) as OS.
+    rewrite Hco in OS. cbn [wire] in OS. rewrite Hnum, Hemb in OS. apply OS; [| | exact Hst].
+    - reflexivity.
+    - rewrite Hdec, map_assign_fresh by exact Hfresh. reflexivity.
+  Qed.
+
+  Lemma slice_seq done_f f fr done_s n wt emb et c' :
+    fs = done_f ++ f :: fr -> length done_s = length done_f ->
+    sf_ty f = TSlice et -> sf_codec f = CSlice n wt emb et c' ->
+    forall es acc,
+    Forall (fun e => wf_val et e = true) es -> forallb rep_elem es = true -> forallb keys_distinct es = true ->
+    len (slice_enc enc n wt emb c' es) < lim ->
+    (length (slice_enc enc n wt emb c' es) + fs_depth fs + 1 <= F)%nat ->
+    exists rs, Forall2 (fun r e => norm r = norm e) rs es /\ forall tail bs vs',
+      steps (decode F) fs df0 (done_s ++ VSlice (acc ++ rs) :: tail) bs vs' ->
+      steps (decode F) fs df0 (done_s ++ VSlice acc :: tail) (slice_enc enc n wt emb c' es ++ bs) vs'.
+  Proof.
+    intros Hfs Hlen Hty Hco. induction es as [|e er IH]; intros acc Hwf Hrep Hkd Hlim Hfuel.
+    - exists []. split; [constructor|]. intros tail bs vs' Hst. rewrite app_nil_r in Hst. exact Hst.
+    - inversion Hwf as [|x l Hwe Hwr]; subst x l. cbn [forallb] in Hrep, Hkd.
+      apply andb_true_iff in Hrep. destruct Hrep as [Hre Hrr]. apply andb_true_iff in Hkd. destruct Hkd as [Hke Hkr].
+      unfold rep_elem in Hre. apply andb_true_iff in Hre. destruct Hre as [Hre Hpe]. apply negb_true_iff in Hpe.
+      cbn [slice_enc flat_map] in *. fold (slice_enc enc n wt emb c' er) in *.
+      rewrite len_app in Hlim. rewrite app_length in Hfuel.
+      set (d := enc c' (Some e) proto_wantzero) in *.
+      assert (Hdl : len d <= len (chunk n wt emb d)) by (unfold chunk; rewrite !len_app; clear; lens; lia).
+      pose proof (PrimProofs.len_nonneg _ (slice_enc enc n wt emb c' er)).
+      destruct (selem_step done_f f fr done_s acc e n wt emb et c' Hfs Hlen Hty Hco Hwe Hre Hke Hpe) as (r & Hnr & Hs1);
+        [fold d; blia | fold d; unfold len in *; blia |].
+      destruct (IH (acc ++ [r]) Hwr Hrr Hkr) as (rs & HF & Hs2);
+        [pose proof (PrimProofs.len_nonneg _ (chunk n wt emb d)); blia | blia |].
+      exists (r :: rs). split; [constructor; assumption|]. intros tail bs vs' Hst.
+      rewrite <- app_assoc. apply Hs1. apply Hs2. rewrite <- app_assoc. exact Hst.
+  Qed.
+
+  Lemma map_seq done_f f fr done_s n kf vf kt vt kc vc :
+    fs = done_f ++ f :: fr -> length done_s = length done_f ->
+    sf_ty f = TMap kt vt -> sf_codec f = CMap n kf vf kt vt kc vc -> scalar_key kt = true ->
+    forall es acc,
+    Forall (fun kv => wf_val kt (fst kv) = true /\ wf_val vt (snd kv) = true) es ->
+    forallb rep_entry es = true -> kd_go es = true ->
+    (forall a kv, In a acc -> In kv es -> val_eqb (fst a) (fst kv) = false) ->
+    len (flat_map (fun kv => chunk n proto_varlen true (entry_enc enc kf vf kc vc kv)) es) < lim ->
+    (length (flat_map (fun kv => chunk n proto_varlen true (entry_enc enc kf vf kc vc kv)) es) + fs_depth fs + 1 <= F)%nat ->
+    exists rs, Forall2 (fun a kv => fst a = fst kv /\ norm (snd a) = norm (snd kv)) rs es /\ forall tail bs vs',
+      steps (decode F) fs df0 (done_s ++ VMap true (acc ++ rs) :: tail) bs vs' ->
+      steps (decode F) fs df0 (done_s ++ VMap true acc :: tail)
+            (flat_map (fun kv => chunk n proto_varlen true (entry_enc enc kf vf kc vc kv)) es ++ bs) vs'.
+  Proof.
+    intros Hfs Hlen Hty Hco Hsk. induction es as [|[k v] er IH]; intros acc Hwf Hrep Hkd Hfresh Hlim Hfuel.
+    - exists []. split; [constructor|]. intros tail bs vs' Hst. rewrite app_nil_r in Hst. exact Hst.
+    - inversion Hwf as [|x l [Hwk Hwv] Hwr]; subst x l. cbn [fst snd] in *. cbn [forallb kd_go] in Hrep, Hkd.
+      apply andb_true_iff in Hrep. destruct Hrep as [Hre Hrr].
+      apply andb_true_iff in Hkd. destruct Hkd as [Hkd Hkr]. apply andb_true_iff in Hkd. destruct Hkd as [Hkx Hkv].
+      apply negb_true_iff in Hkx.
+      unfold rep_entry in Hre. cbn [fst snd] in Hre.
+      apply andb_true_iff in Hre. destruct Hre as [Hre Hpv]. apply andb_true_iff in Hre. destruct Hre as [_ Hrv].
+      apply negb_true_iff in Hpv.
+      cbn [flat_map] in *. rewrite len_app in Hlim. rewrite app_length in Hfuel.
+      set (d := entry_enc enc kf vf kc vc (k, v)) in *.
+      set (rest := flat_map (fun kv => chunk n proto_varlen true (entry_enc enc kf vf kc vc kv)) er) in *.
+      assert (Hdl : len d <= len (chunk n proto_varlen true d)) by (unfold chunk; rewrite !len_app; clear; lens; lia).
+      pose proof (PrimProofs.len_nonneg _ rest). pose proof (PrimProofs.len_nonneg _ (chunk n proto_varlen true d)).
+      destruct (mentry_step done_f f fr done_s true acc k v n kf vf kt vt kc vc Hfs Hlen Hty Hco Hwk Hwv Hrv Hkv Hpv) as (rv & Hnv & Hs1);
+        [intros a Ha; apply (Hfresh a (k, v) Ha); left; reflexivity | fold d; blia | fold d; unfold len in *; blia |].
+      destruct (IH (acc ++ [(k, rv)]) Hwr Hrr Hkr) as (rs & HF & Hs2); [| blia | blia |].
+      { intros a kv Ha Hkvin. apply in_app_or in Ha. destruct Ha as [Ha|[<-|[]]].
+        - apply (Hfresh a kv Ha). right. exact Hkvin.
+        - cbn [fst].
+          assert (Hk1 : is_key_val k = true) by (eapply key_shape; eassumption).
+          assert (Hk2 : is_key_val (fst kv) = true).
+          { rewrite Forall_forall in Hwr. destruct (Hwr kv Hkvin) as [Hw2 _]. eapply key_shape; eassumption. }
+          rewrite val_eqb_sym_key by assumption.
+          destruct (val_eqb (fst kv) k) eqn:E; [|reflexivity]. exfalso.
+          assert (Hex : exists x, In x er /\ val_eqb (fst x) k = true) by (exists kv; split; assumption).
+          apply existsb_exists in Hex. rewrite Hex in Hkx. discriminate. }
+      exists ((k, rv) :: rs). split; [constructor; [split; [reflexivity | exact Hnv] | exact HF]|]. intros tail bs vs' Hst.
+      rewrite <- app_assoc. apply Hs1. apply Hs2. rewrite <- app_assoc. exact Hst.
+  Qed.
+
+  Definition urel (f : sfield) (v s : val) : Prop :=
+    if sf_repeated f then s = zero_val (sf_ty f) else norm s = norm v.
+
+  Lemma wf_list_nil_inv vr : wf_list [] vr -> vr = [].
+  Proof. intros H. inversion H. reflexivity. Qed.
+  Lemma wf_list_cons_inv t ts vr : wf_list (t :: ts) vr -> exists v vr', vr = v :: vr' /\ wf_val t v = true /\ wf_list ts vr'.
+  Proof. intros H. inversion H as [|? v ? vr' Hv Hr]; subst. exists v, vr'. auto. Qed.
+
+  Lemma upass_steps : forall fr vr done_f done_s ef,
+    fs = done_f ++ fr -> length done_s = length done_f ->
+    wf_list (map sf_ty fr) vr -> forallb representable vr = true -> forallb keys_distinct vr = true ->
+    fl_rel0 ef df0 ->
+    len (snd (upass_of enc fr vr ef)) < lim ->
+    (length (snd (upass_of enc fr vr ef)) + fs_depth fs + 1 <= F)%nat ->
+    exists new_s, Forall3 urel fr vr new_s /\ forall bs vs',
+      steps (decode F) fs df0 (done_s ++ new_s) bs vs' ->
+      steps (decode F) fs df0 (done_s ++ map zero_val (map sf_ty fr)) (snd (upass_of enc fr vr ef) ++ bs) vs'.
+  Proof.
+    induction fr as [|f fr IH]; intros vr done_f done_s ef Hfs Hlen Hwf Hrep Hkd Hfl Hlim Hfuel.
+    - apply wf_list_nil_inv in Hwf. rewrite Hwf. exists []. split; [constructor|]. intros bs vs' Hst. exact Hst.
+    - cbn [map] in Hwf. apply wf_list_cons_inv in Hwf. destruct Hwf as (v & vr' & Evr & Hv & Hvr). rewrite Evr in *. clear Evr vr.
+      cbn [forallb] in Hrep, Hkd. apply andb_true_iff in Hrep. destruct Hrep as [Hr1 Hr2].
+      apply andb_true_iff in Hkd. destruct Hkd as [Hk1 Hk2].
+      assert (Hfs' : fs = (done_f ++ [f]) ++ fr) by (rewrite <- app_assoc; exact Hfs).
+      assert (Hin : In f fs) by (rewrite Hfs; apply in_or_app; right; left; reflexivity).
+      destruct (fshape_facts f (Hsh f Hin)) as (_ & Hsf & _).
+      cbn [upass_of map] in *.
+      assert (Hskip : forall z, urel f v z -> len (snd (upass_of enc fr vr' ef)) < lim ->
+                (length (snd (upass_of enc fr vr' ef)) + fs_depth fs + 1 <= F)%nat ->
+                exists new_s, Forall3 urel (f :: fr) (v :: vr') new_s /\ forall bs vs',
+                  steps (decode F) fs df0 (done_s ++ new_s) bs vs' ->
+                  steps (decode F) fs df0 (done_s ++ z :: map zero_val (map sf_ty fr)) (snd (upass_of enc fr vr' ef) ++ bs) vs').
+      { intros z Hz Hl Hf.
+        destruct (IH vr' (done_f ++ [f]) (done_s ++ [z]) ef Hfs') as (new_s & HF & Hs); try assumption.
+        { rewrite !app_length, Hlen. reflexivity. }
+        exists (z :: new_s). split; [constructor; assumption|]. intros bs vs' Hst.
+        specialize (Hs bs vs'). rewrite <- !app_assoc in Hs. apply Hs, Hst. }
+      destruct (sf_repeated f) eqn:Erep.
+      + apply Hskip; try assumption. unfold urel. rewrite Erep. reflexivity.
+      + cbv zeta in *. destruct (enc (sf_codec f) (Some v) (make_flags f ef)) as [|x p] eqn:Ep.
+        * apply Hskip; try assumption. unfold urel. rewrite Erep. symmetry.
+          rewrite make_flags_mkfl in Ep.
+          apply (enc_nil_norm _ _ (Hcw f Hin) v _ Hv Hr1 (frange_mkfl _ _ Hsf (proj1 Hfl))); [|exact Ep].
+          left. rewrite has_mkfl_tl by (try apply Hfl; assumption). apply Hfl.
+        * destruct (upass_of enc fr vr' (without ef proto_wantzero)) as [fl' bs'] eqn:EU. cbn [snd] in *.
+          set (q := x :: p) in *.
+          set (ch := chunk (sf_number f) (wire (sf_codec f)) (sf_embedded f) q) in *.
+          rewrite len_app in Hlim. rewrite app_length in Hfuel.
+          assert (Hpl : len q <= len ch) by (subst ch; unfold chunk; rewrite !len_app; clear; lens; lia).
+          pose proof (PrimProofs.len_nonneg _ bs'). pose proof (PrimProofs.len_nonneg _ ch).
+          destruct (ufield_step done_f f fr done_s v ef Hfs Hlen Erep Hv Hr1 Hk1 Hfl) as (r & Hnr & Hs1);
+            [rewrite Ep; discriminate | rewrite Ep; fold q; blia | rewrite Ep; fold q; unfold len in *; blia |].
+          rewrite Ep in Hs1. fold q ch in Hs1.
+          destruct (IH vr' (done_f ++ [f]) (done_s ++ [r]) (without ef proto_wantzero) Hfs') as (new_s & HF & Hs2); try assumption.
+          { rewrite !app_length, Hlen. reflexivity. }
+          { apply fl_rel0_nowz, Hfl. }
+          { rewrite EU. cbn [snd]. blia. }
+          { rewrite EU. cbn [snd]. blia. }
+          rewrite EU in Hs2. cbn [snd] in Hs2.
+          exists (r :: new_s). split; [constructor; [unfold urel; rewrite Erep; exact Hnr | exact HF]|].
+          intros bs vs' Hst. rewrite <- app_assoc. apply Hs1.
+          specialize (Hs2 bs vs'). rewrite <- !app_assoc in Hs2. apply Hs2, Hst.
+  Qed.
+
+  Lemma rfield_step done_f f fr done_s v fl :
+    fs = done_f ++ f :: fr -> length done_s = length done_f -> sf_repeated f = true ->
+    wf_val (sf_ty f) v = true -> representable v = true -> keys_distinct v = true ->
+    len (enc (sf_codec f) (Some v) fl) < lim ->
+    (length (enc (sf_codec f) (Some v) fl) + fs_depth fs + 1 <= F)%nat ->
+    exists s', norm s' = norm v /\ forall tail bs vs',
+      steps (decode F) fs df0 (done_s ++ s' :: tail) bs vs' ->
+      steps (decode F) fs df0 (done_s ++ zero_val (sf_ty f) :: tail) (enc (sf_codec f) (Some v) fl ++ bs) vs'.
+  Proof.
+    intros Hfs Hlen Hrepf Hwf Hrep Hkd Hlim Hfuel.
+    assert (Hin : In f fs) by (rewrite Hfs; apply in_or_app; right; left; reflexivity).
+    pose proof (fshape_kind f (Hsh f Hin)) as Hk. pose proof (Hcw f Hin) as Hc.
+    destruct (sf_ty f) as [| | | | | | | | | | | | | |et|kt vt|] eqn:Hty;
+      try (destruct Hk as [Hk _]; rewrite Hk in Hrepf; discriminate Hrepf).
+    - (* slice *)
+      destruct (cwf_slice_inv _ _ Hc) as (n & c' & Hco & He & Hc').
+      destruct v as [| | | | | | |es| |]; try discriminate Hwf.
+      rewrite Hco in *. rewrite enc_slice_eq in *. cbn [zero_val].
+      destruct (slice_seq done_f f fr done_s n (wire c') (is_struct (base_ty et)) et c' Hfs Hlen Hty Hco es []) as (rs & HF & Hs);
+        try assumption; [apply wf_slice_all, Hwf|].
+      exists (VSlice rs). split; [cbn [norm]; f_equal; apply F2_norm_map, HF|].
+      intros tail bs vs' Hst. apply (Hs tail bs vs'). exact Hst.
+    - (* map *)
+      destruct (cwf_map_inv _ _ _ Hc) as (n & Hco & Hsk).
+      destruct v as [| | | | | | | |nn es|]; try discriminate Hwf.
+      rewrite Hco in *. rewrite enc_map_eq in *. cbn [zero_val].
+      rewrite keys_distinct_map in Hkd. change (representable (VMap nn es)) with (forallb rep_entry es) in Hrep.
+      pose proof (wf_map_all _ _ _ _ Hwf) as Hwe.
+      destruct es as [|[k v] er].
+      + (* the empty-map marker *)
+        exists (VMap true []). split; [reflexivity|]. intros tail bs vs' Hst.
+        cbn [map_enc]. rewrite <- chunk_empty.
+        pose proof (fshape_kind f (Hsh f Hin)) as Hk'. rewrite Hty in Hk'. destruct Hk' as [_ Hemb].
+        pose proof (fshape_cnum f (Hsh f Hin)) as Hnum. rewrite Hty, Hco in Hnum.
+        assert (exists k, F = S k) as [k EF] by (destruct F; [exfalso; blia | eauto]).
+        pose proof (one_step done_f f fr done_s (VMap false []) tail [] (VMap true []) bs vs' Hfs Hlen) as OS.
+        rewrite Hco in OS. cbn [wire] in OS. rewrite Hnum, Hemb in OS. apply OS; [reflexivity | | exact Hst].
+        rewrite EF, decode_map_eq. reflexivity.
+      + unfold map_enc in *. cbn [flat_map] in *. cbn [forallb] in Hrep.
+        apply andb_true_iff in Hrep. destruct Hrep as [Hre Hrr].
+        pose proof (kd_fresh kt vt k v er Hsk Hwe Hkd) as Hfr.
+        cbn [kd_go] in Hkd. apply andb_true_iff in Hkd. destruct Hkd as [Hkd Hkr]. apply andb_true_iff in Hkd. destruct Hkd as [_ Hkv].
+        unfold rep_entry in Hre. cbn [fst snd] in Hre.
+        apply andb_true_iff in Hre. destruct Hre as [Hre Hpv]. apply andb_true_iff in Hre. destruct Hre as [_ Hrv].
+        apply negb_true_iff in Hpv.
+        inversion Hwe as [|x l [Hwk Hwv] Hwr]; subst x l. cbn [fst snd] in Hwk, Hwv.
+        rewrite len_app in Hlim. rewrite app_length in Hfuel.
+        set (d := entry_enc enc (emb_of kt) (emb_of vt) (codec_of kt) (codec_of vt) (k, v)) in *.
+        set (rest := flat_map (fun kv => chunk n proto_varlen true (entry_enc enc (emb_of kt) (emb_of vt) (codec_of kt) (codec_of vt) kv)) er) in *.
+        assert (Hdl : len d <= len (chunk n proto_varlen true d)) by (unfold chunk; rewrite !len_app; clear; lens; lia).
+        pose proof (PrimProofs.len_nonneg _ rest). pose proof (PrimProofs.len_nonneg _ (chunk n proto_varlen true d)).
+        destruct (mentry_step done_f f fr done_s false [] k v n _ _ kt vt _ _ Hfs Hlen Hty Hco Hwk Hwv Hrv Hkv Hpv) as (rv & Hnv & Hs1);
+          [intros a [] | fold d; blia | fold d; unfold len in *; blia |].
+        destruct (map_seq done_f f fr done_s n _ _ kt vt _ _ Hfs Hlen Hty Hco Hsk er [(k, rv)] Hwr Hrr Hkr) as (rs & HF & Hs2);
+          [| fold rest; blia | fold rest; blia |].
+        { intros a kv [<-|[]] Hkvin. cbn [fst]. apply Hfr, Hkvin. }
+        exists (VMap true ((k, rv) :: rs)). split.
+        { cbn [norm map fst snd]. f_equal. rewrite Hnv.
+          assert (Ek : norm k = norm k) by reflexivity. f_equal. apply F2_norm_entries, HF. }
+        intros tail bs vs' Hst. rewrite <- app_assoc. apply Hs1. cbn [app]. apply Hs2. exact Hst.
+  Qed.
+
+  Lemma rpass_steps : forall fr vr sr done_f done_s ef,
+    fs = done_f ++ fr -> length done_s = length done_f ->
+    wf_list (map sf_ty fr) vr -> forallb representable vr = true -> forallb keys_distinct vr = true ->
+    Forall3 urel fr vr sr ->
+    len (rpass_of enc fr vr ef) < lim -> (length (rpass_of enc fr vr ef) + fs_depth fs + 1 <= F)%nat ->
+    exists new_s, Forall3 (fun _ v s => norm s = norm v) fr vr new_s /\ forall bs vs',
+      steps (decode F) fs df0 (done_s ++ new_s) bs vs' ->
+      steps (decode F) fs df0 (done_s ++ sr) (rpass_of enc fr vr ef ++ bs) vs'.
+  Proof.
+    induction fr as [|f fr IH]; intros vr sr done_f done_s ef Hfs Hlen Hwf Hrep Hkd HU Hlim Hfuel.
+    - inversion HU; subst vr sr. exists []. split; [constructor|]. intros bs vs' Hst. exact Hst.
+    - inversion HU as [|f0 v s fr0 vr' sr' Hu HU']; subst f0 fr0 vr sr.
+      cbn [map] in Hwf. apply wf_list_cons_inv in Hwf. destruct Hwf as (v0 & vr0 & Evr & Hv & Hvr).
+      inversion Evr; subst v0 vr0. clear Evr.
+      cbn [forallb] in Hrep, Hkd. apply andb_true_iff in Hrep. destruct Hrep as [Hr1 Hr2].
+      apply andb_true_iff in Hkd. destruct Hkd as [Hk1 Hk2].
+      assert (Hfs' : fs = (done_f ++ [f]) ++ fr) by (rewrite <- app_assoc; exact Hfs).
+      cbn [rpass_of] in *. unfold urel in Hu.
+      destruct (sf_repeated f) eqn:Erep; cbn [negb] in *.
+      + cbv zeta in *. subst s.
+        set (p := enc (sf_codec f) (Some v) (make_flags f ef)) in *.
+        rewrite len_app in Hlim. rewrite app_length in Hfuel.
+        pose proof (PrimProofs.len_nonneg _ p).
+        match type of Hlim with len p + len ?R < _ => set (rest := R) in *; pose proof (PrimProofs.len_nonneg _ rest) end.
+        destruct (rfield_step done_f f fr done_s v (make_flags f ef) Hfs Hlen Erep Hv Hr1 Hk1) as (s' & Hn & Hs1);
+          [fold p; blia | fold p; unfold len in *; blia |]. fold p in Hs1.
+        destruct (IH vr' sr' (done_f ++ [f]) (done_s ++ [s']) (match p with [] => ef | _ :: _ => without ef proto_wantzero end) Hfs') as (new_s & HF & Hs2);
+          try assumption; [rewrite !app_length, Hlen; reflexivity | fold rest; blia | fold rest; unfold len in *; blia |].
+        exists (s' :: new_s). split; [constructor; assumption|]. intros bs vs' Hst.
+        rewrite <- app_assoc. apply Hs1. specialize (Hs2 bs vs'). rewrite <- !app_assoc in Hs2. apply Hs2, Hst.
+      + destruct (IH vr' sr' (done_f ++ [f]) (done_s ++ [s]) ef Hfs') as (new_s & HF & Hs2);
+          try assumption; [rewrite !app_length, Hlen; reflexivity|].
+        exists (s :: new_s). split; [constructor; assumption|]. intros bs vs' Hst.
+        specialize (Hs2 bs vs'). rewrite <- !app_assoc in Hs2. apply Hs2, Hst.
+  Qed.
+End StructDec.
+
+(* ==================== Part 17: structs; all codecs ==================== *)
+Lemma F3_norm_map (fs : list sfield) vs ss : Forall3 (fun _ v s => norm s = norm v) fs vs ss -> map norm ss = map norm vs.
+Proof. induction 1 as [|f v s fr vr sr H1 H2 IH]; [reflexivity|]. cbn [map]. rewrite H1, IH. reflexivity. Qed.
+
+Lemma D_struct inl_ fs gfs : map sf_ty fs = map field_ty gfs -> distinct (map sf_number fs) = true ->
+  (forall f, In f fs -> cwf (sf_codec f) (sf_ty f)) -> (forall f, In f fs -> fshape f = true) ->
+  (forall f, In f fs -> Dmot (sf_codec f) (sf_ty f)) -> Dprop (CStruct inl_ fs) (TStruct gfs).
+Proof.
+  intros Hty Hd Hcw Hsh HD v ef df fuel Hwf Hrep Hkd Hfl Hlim _ Hfuel.
+  destruct v as [| | | | | |vs| | |]; try discriminate Hwf.
+  apply wf_struct_list in Hwf. rewrite <- Hty in Hwf.
+  cbn [representable keys_distinct] in Hrep, Hkd.
+  rewrite cdepth_struct in Hfuel. destruct fuel as [|F]; [lia|].
+  rewrite decode_struct_eq, zero_struct, <- Hty. rewrite enc_struct_eq in *.
+  pose proof (fl_rel_struct ef df inl_ Hfl) as Hfl0. fold (struct_flags0 inl_ ef) in Hfl0.
+  set (ef0 := struct_flags0 inl_ ef) in *. set (df0 := without df proto_toplevel) in *.
+  destruct (upass_of enc fs vs ef0) as [fl1 bs1] eqn:EU.
+  rewrite len_app in Hlim. rewrite app_length in Hfuel.
+  pose proof (PrimProofs.len_nonneg _ bs1). pose proof (PrimProofs.len_nonneg _ (rpass_of enc fs vs fl1)).
+  destruct (upass_steps fs F df0 Hd Hcw Hsh HD fs vs [] [] ef0 eq_refl eq_refl Hwf Hrep Hkd Hfl0) as (s1 & HF1 & Hs1);
+    [rewrite EU; cbn [snd]; blia | rewrite EU; cbn [snd]; blia |].
+  rewrite EU in Hs1. cbn [snd app] in Hs1.
+  destruct (rpass_steps fs F df0 Hd Hcw Hsh HD fs vs s1 [] [] fl1 eq_refl eq_refl Hwf Hrep Hkd HF1) as (s2 & HF2 & Hs2);
+    [blia | blia |].
+  cbn [app] in Hs2.
+  pose proof (Hs1 _ _ (Hs2 [] s2 (steps_nil _ _ _ s2))) as Hst. rewrite app_nil_r in Hst.
+  pose proof (sloop_steps (decode F) fs df0 _ _ _ Hst [] F) as HL. cbn [app] in HL. change (len []) with 0 in HL.
+  rewrite HL by (rewrite ?len_app, ?app_length; blia).
+  exists (VStruct s2). split; [reflexivity|]. cbn [norm]. f_equal. eapply F3_norm_map, HF2.
+Qed.
+
+Theorem D_all : forall c t, cwf c t -> Dmot c t.
+Proof.
+  induction 1 as [c t Hs | t c He H IH | n wt emb et c He H IH Hwt Hemb Hn | n kf vf kt vt Hk Hv H1 IH1 H2 IH2 Hkf Hvf Hn
+                 | inl_ fs gfs Hty Hd H IH Hsh].
+  - pose proof (D_scalar c t Hs) as HD. destruct c; try discriminate Hs; exact HD.
+  - cbn [Dmot]. apply D_ptr. apply Dmot_elem; assumption.
+  - cbn [Dmot]. apply Dmot_elem; assumption.
+  - cbn [Dmot]. split; apply Dmot_elem; try assumption. apply (scalar_key_elem kt Hk).
+  - cbn [Dmot]. apply D_struct; assumption.
+Qed.
+Corollary D_elem c t : cwf c t -> elem_ty t = true -> Dprop c t.
+Proof. intros Hc He. apply Dmot_elem; [assumption | assumption | apply D_all, Hc]. Qed.
+
+(* ==================== Part 18: codec_of is well-formed on the universe ==================== *)
+(* ---------- hypothesis (2): a [rep] tag only on slice and map fields ---------- *)
+Fixpoint rep_fs (fs : list gfield) : bool :=
+  match fs with [] => true | GField _ tag ft :: r => tag_rep_ok tag ft && rep_tags_ok ft && rep_fs r end.
+Lemma rep_tags_struct fs : rep_tags_ok (TStruct fs) = rep_fs fs.
+Proof. reflexivity. Qed.
+
+(* ---------- numbers_ok on a struct ---------- *)
+Fixpoint nums_fs (fs : list sfield) : bool :=
+  match fs with
+  | [] => true
+  | SField n _ _ _ c' :: r => (1 <=? n) && (n <? 2 ^ 16) && numbers_ok c' && nums_fs r
+  end.
+Lemma numbers_ok_struct inl_ fs : numbers_ok (CStruct inl_ fs) = distinct (map sf_number fs) && nums_fs fs.
+Proof. reflexivity. Qed.
+Lemma nums_fs_in fs f : nums_fs fs = true -> In f fs -> 1 <= sf_number f < 2 ^ 16 /\ numbers_ok (sf_codec f) = true.
+Proof.
+  induction fs as [|[n ts fl t c] r IH]; [contradiction|]. cbn [nums_fs]. intros H [<-|Hin].
+  - cbn [sf_number sf_codec]. repeat (apply andb_true_iff in H; destruct H as [H ?]). split; [lia | assumption].
+  - apply IH; [|exact Hin]. apply andb_true_iff in H. apply H.
+Qed.
+
+(* ---------- forced fixed-width codecs ---------- *)
+Lemma pointers_to_cwf c bt : scalar_ct c bt = true -> forall ft, base_ty ft = bt ->
+  cwf (pointers_to ft c) ft /\ elem_ty ft = true /\ is_struct (base_ty ft) = false.
+Proof.
+  intros Hs. assert (Hbt : elem_ty bt = true /\ is_struct bt = false /\ base_ty bt = bt)
+    by (destruct c; try discriminate Hs; destruct bt; try discriminate Hs; repeat split).
+  induction ft; cbn [base_ty pointers_to]; intros Hb.
+  all: try (destruct (IHft Hb) as (I1 & I2 & I3); split; [apply cwf_ptr; assumption | split; [reflexivity | exact I3]]).
+  all: rewrite <- Hb in Hs, Hbt; destruct Hbt as (H1 & H2 & H3); try discriminate;
+       try (split; [apply cwf_scalar; exact Hs | split; reflexivity]).
+Qed.
+Lemma forced_cwf tg ft c : forced_of tg ft = Some c ->
+  cwf c ft /\ elem_ty ft = true /\ is_struct (base_ty ft) = false.
+Proof.
+  unfold forced_of. intros H.
+  destruct (tag_wire tg =? proto_fixed32); [|destruct (tag_wire tg =? proto_fixed64); [|discriminate]];
+    destruct (base_ty ft) eqn:E; try discriminate; inversion H; subst;
+    match type of E with _ = ?bt => match goal with |- cwf (pointers_to ft ?c) ft /\ _ =>
+      destruct (pointers_to_cwf c bt eq_refl ft E) as (A & B & C) end end;
+    rewrite E in C; repeat split; assumption.
+Qed.
+
+Lemma elem_ok_elem_ty t : elem_ok t = true -> elem_ty t = true.
+Proof. destruct t; try discriminate; reflexivity. Qed.
+Lemma scalar_key_ok kt : scalar_key kt = true -> elem_ok kt = true /\ rep_tags_ok kt = true.
+Proof. destruct kt; try discriminate; split; reflexivity. Qed.
+
+Definition Qc (t : gty) : Prop :=
+  elem_ok t = true -> rep_tags_ok t = true -> numbers_ok (codec_of t) = true -> cwf (codec_of t) t.
+Definition Fc (t : gty) : Prop :=
+  fok t = true -> rep_tags_ok t = true -> forall fl0 num, numbers_ok (snd (generic_of fl0 num t)) = true ->
+  cwf (snd (generic_of fl0 num t)) t.
+
+(* the flags of a compiled field *)
+Lemma fshape_generic fl0 num ft : fok ft = true ->
+  (fl0 = 0 \/ fl0 = 4 \/ ((fl0 = 2 \/ fl0 = 6) /\ elem_ty ft = false)) -> 1 <= num < 2 ^ 16 ->
+  fshape (SField num (w8 (proto_sizeOfTag num (wire (snd (generic_of fl0 num ft))))) (fst (generic_of fl0 num ft)) ft
+                 (snd (generic_of fl0 num ft))) = true.
+Proof.
+  intros Hok Hfl Hn. unfold fshape.
+  replace ((1 <=? num) && (num <? 2 ^ 16)) with true by lia. rewrite Z.eqb_refl.
+  destruct ft; cbn [generic_of base_ty is_struct fst snd elem_ty] in *;
+    try (destruct Hfl as [->|[->|[_ Hfl]]]; [| | discriminate Hfl]);
+    try (destruct Hfl as [->|[->|[[->| ->] _]]]);
+    try (destruct (is_struct (base_ty ft)));
+    cbn [base_ty is_struct fst snd]; rewrite ?Z.eqb_refl; reflexivity.
+Qed.
+
+Lemma fcodec_ok tag ft number : fok ft = true -> rep_tags_ok ft = true -> tag_rep_ok tag ft = true -> Qc ft -> Fc ft ->
+  1 <= sf_number (fcodec tag ft number) < 2 ^ 16 -> numbers_ok (sf_codec (fcodec tag ft number)) = true ->
+  cwf (sf_codec (fcodec tag ft number)) (sf_ty (fcodec tag ft number)) /\ fshape (fcodec tag ft number) = true /\
+  sf_ty (fcodec tag ft number) = ft.
+Proof.
+  intros Hok Hrt Htag HQ HF. unfold fcodec. destruct tag as [tg|]; cbv zeta.
+  - destruct (forced_of tg ft) as [c|] eqn:Ef.
+    + cbn [sf_number sf_codec sf_ty]. intros Hn Hnum.
+      destruct (forced_cwf tg ft c Ef) as (Hc & He & Hb). split; [exact Hc|]. split; [|reflexivity].
+      assert (Hrep : tag_repeated tg = false) by (destruct ft; try discriminate He; cbn in Htag; apply negb_true_iff in Htag; exact Htag).
+      rewrite Hrep. unfold fshape.
+      replace ((1 <=? w16 (tag_number tg)) && (w16 (tag_number tg) <? 2 ^ 16)) with true by lia. rewrite Z.eqb_refl.
+      destruct ft; try discriminate He; cbn [base_ty] in Hb |- *; rewrite ?Hb; destruct (tag_zigzag tg); reflexivity.
+    + destruct (generic_of ((if tag_repeated tg then proto_repeated else 0) + (if tag_zigzag tg then proto_zigzag else 0)) (w16 (tag_number tg)) ft)
+        as [fl c] eqn:Eg. cbn [sf_number sf_codec sf_ty]. intros Hn Hnum.
+      pose proof (HF Hok Hrt _ (w16 (tag_number tg)) ltac:(rewrite Eg; exact Hnum)) as Hc. rewrite Eg in Hc. cbn [snd] in Hc.
+      split; [exact Hc|]. split; [|reflexivity].
+      pose proof (fshape_generic ((if tag_repeated tg then proto_repeated else 0) + (if tag_zigzag tg then proto_zigzag else 0)) (w16 (tag_number tg)) ft Hok) as HS.
+      rewrite Eg in HS. cbn [fst snd] in HS. apply HS; [|exact Hn].
+      assert (Hel : tag_repeated tg = true -> elem_ty ft = false).
+      { intros E. unfold tag_rep_ok in Htag. rewrite E in Htag. destruct ft; try discriminate Htag; reflexivity. }
+      unfold proto_repeated, proto_zigzag.
+      destruct (tag_repeated tg) eqn:Er; destruct (tag_zigzag tg); cbn [Z.add Pos.add]; auto;
+        right; right; (split; [auto | apply Hel; reflexivity]).
+  - destruct (generic_of 0 (w16 number) ft) as [fl c] eqn:Eg. cbn [sf_number sf_codec sf_ty]. intros Hn Hnum.
+    pose proof (HF Hok Hrt 0 (w16 number) ltac:(rewrite Eg; exact Hnum)) as Hc. rewrite Eg in Hc. cbn [snd] in Hc.
+    split; [exact Hc|]. split; [|reflexivity].
+    pose proof (fshape_generic 0 (w16 number) ft Hok) as HS. rewrite Eg in HS. cbn [fst snd] in HS. apply HS; [auto | exact Hn].
+Qed.
+
+Lemma cfields_cwf : forall fs number, fsok fs = true -> rep_fs fs = true ->
+  Forall (fun g => Qc (field_ty g) /\ Fc (field_ty g)) fs -> nums_fs (cfields fs number) = true ->
+  (forall f, In f (cfields fs number) -> cwf (sf_codec f) (sf_ty f) /\ fshape f = true) /\
+  map sf_ty (cfields fs number) = map field_ty fs.
+Proof.
+  induction fs as [|[e tg ft] r IH]; intros number Hok Hrep HF Hnum; [split; [intros f []| reflexivity]|].
+  cbn [fsok rep_fs] in Hok, Hrep. apply andb_true_iff in Hok. destruct Hok as [Hok Hr].
+  apply andb_true_iff in Hok. destruct Hok as [He Hft]. subst e.
+  apply andb_true_iff in Hrep. destruct Hrep as [Hrep Hrr]. apply andb_true_iff in Hrep. destruct Hrep as [Htag Hrt].
+  inversion HF as [|x l [HQ1 HF1] HF2]; subst. cbn [field_ty] in HQ1, HF1.
+  cbn [cfields] in *. rewrite fcodec_cons_eq in *.
+  assert (Hin0 : In (fcodec tg ft number) (fcodec tg ft number :: cfields r (number + 1))) by (left; reflexivity).
+  destruct (nums_fs_in _ _ Hnum Hin0) as [Hn Hno].
+  destruct (fcodec_ok tg ft number Hft Hrt Htag HQ1 HF1 Hn Hno) as (Hc & Hs & Ht).
+  assert (Hnum' : nums_fs (cfields r (number + 1)) = true).
+  { destruct (fcodec tg ft number). cbn [nums_fs] in Hnum. apply andb_true_iff in Hnum. apply Hnum. }
+  destruct (IH (number + 1) Hr Hrr HF2 Hnum') as [I1 I2]. split.
+  - intros f [<-|Hin]; [split; assumption | apply I1, Hin].
+  - cbn [map field_ty]. rewrite Ht, I2. reflexivity.
+Qed.
+
+Lemma codec_of_cwf_all : forall t, Qc t /\ Fc t.
+Proof.
+  apply gty_ind2.
+  - (* leaves *)
+    intros t Ht. assert (HQ : Qc t).
+    { intros _ _ _. apply cwf_scalar. destruct t; try contradiction; try reflexivity. cbn. apply Nat.eqb_refl. }
+    split; [exact HQ|]. intros Hok Hrt fl0 num Hnum. rewrite generic_same in * by (destruct t; try contradiction; exact I).
+    apply HQ; [destruct t; try contradiction; reflexivity | exact Hrt | exact Hnum].
+  - (* pointer *)
+    intros t [HQ _]. assert (HQ' : Qc (TPtr t)).
+    { intros Hok Hrt Hnum. cbn [codec_of]. apply cwf_ptr; [apply elem_ok_elem_ty, Hok | apply HQ; assumption]. }
+    split; [exact HQ'|]. intros Hok Hrt fl0 num Hnum. rewrite generic_same in * by exact I. apply HQ'; assumption.
+  - (* slice *)
+    intros t [HQ _]. split; [intros Hok; discriminate Hok|].
+    intros Hok Hrt fl0 num Hnum. cbn [generic_of snd fok rep_tags_ok] in *. cbv zeta in *. cbn [snd numbers_ok] in *.
+    apply andb_true_iff in Hnum. destruct Hnum as [Hn Hnum].
+    apply cwf_slice; [apply elem_ok_elem_ty, Hok | apply HQ; assumption | reflexivity | reflexivity | lia].
+  - (* map *)
+    intros k v [HQk _] [HQv _]. split; [intros Hok; discriminate Hok|].
+    intros Hok Hrt fl0 num Hnum. cbn [fok rep_tags_ok] in Hok, Hrt. apply andb_true_iff in Hok. destruct Hok as [Hk Hv].
+    apply andb_true_iff in Hrt. destruct Hrt as [Hrk Hrv].
+    cbn [generic_of] in *. cbv zeta in *. cbn [snd numbers_ok] in *.
+    apply andb_true_iff in Hnum. destruct Hnum as [Hnum Hnv]. apply andb_true_iff in Hnum. destruct Hnum as [Hn Hnk].
+    destruct (scalar_key_ok k Hk) as [Hek _].
+    apply cwf_map; try reflexivity; try assumption; [apply elem_ok_elem_ty, Hv | apply HQk; assumption | apply HQv; assumption | lia].
+  - (* struct *)
+    intros fs HF. assert (HQ' : Qc (TStruct fs)).
+    { intros Hok Hrt Hnum. rewrite elem_ok_struct in Hok. rewrite rep_tags_struct in Hrt. rewrite codec_of_struct in *.
+      rewrite numbers_ok_struct in Hnum. apply andb_true_iff in Hnum. destruct Hnum as [Hd Hnum].
+      destruct (cfields_cwf fs 1 Hok Hrt HF Hnum) as [I1 I2].
+      apply cwf_struct; [exact I2 | exact Hd | intros f Hin; apply I1, Hin | intros f Hin; apply I1, Hin]. }
+    split; [exact HQ'|]. intros Hok Hrt fl0 num Hnum. rewrite generic_same in * by exact I. apply HQ'; assumption.
+Qed.
+Lemma codec_of_cwf t : type_ok t = true -> rep_tags_ok t = true -> numbers_ok (codec_of t) = true -> cwf (codec_of t) t.
+Proof. intros H1 H2 H3. apply (proj1 (codec_of_cwf_all t)); assumption. Qed.
+
+(* ==================== Part 19: the round trip ==================== *)
+(* what Marshal (&v) produces *)
+Definition wire_bytes (t : gty) (v : val) : bytes := enc (codec_of t) (Some v) (ptr_flags top_flags).
+
+Lemma marshal_ptr_enc t v bs :
+  type_ok t = true -> rep_tags_ok t = true -> numbers_ok (codec_of t) = true -> wf_val t v = true ->
+  Size (TPtr t) (VPtr (Some v)) < lim ->
+  Marshal (TPtr t) (VPtr (Some v)) = Ok (Some bs) -> bs = wire_bytes t v /\ len bs < lim.
+Proof.
+  intros Hty Hrt Hnum Hwf Hsz HM. pose proof (codec_of_cwf t Hty Hrt Hnum) as Hc.
+  unfold Size, Marshal in *. cbn [codec_of size_of encode] in *. fold (ptr_flags top_flags) in *.
+  pose proof (size_enc _ _ Hc v (ptr_flags top_flags) Hwf) as Hs. fold (wire_bytes t v) in Hs.
+  pose proof (szok_eq' _ _ Hs Hsz) as Hn. rewrite Hn in *.
+  pose proof (PrimProofs.len_nonneg _ (wire_bytes t v)).
+  replace (len (wire_bytes t v) <? 0) with false in HM by lia.
+  pose proof (encode_enc _ _ Hc v (ptr_flags top_flags) Hwf Hsz (repeat 0 (Z.to_nat (len (wire_bytes t v))))) as HE.
+  fold (wire_bytes t v) in HE. rewrite HE in HM by (unfold len at 2; rewrite repeat_length; lia).
+  cbn [rbind] in HM. inversion HM as [Hbs]. rewrite to_nat_len.
+  rewrite skipn_all_len by (rewrite repeat_length; reflexivity). rewrite app_nil_r. split; [reflexivity | exact Hsz].
+Qed.
+
+Lemma fl_rel_top : fl_rel (ptr_flags top_flags) proto_toplevel.
+Proof. unfold fl_rel, frange. vm_compute. repeat split; congruence. Qed.
+
+(* The round trip, up to the nil-versus-empty distinction, with the hypotheses the statement of Spec.v lacks:
+   - [rep_tags_ok t]: the [rep] tag option only on slice and map fields (counterexample class (2));
+   - [top_ok v]: not a top-level pointer to an empty RawMessage (class (3));
+   - the size of what is actually marshalled, [&v], is below the limit ([in_universe] bounds the size of [v]
+     marshalled by value, which can be smaller: a zero first field is emitted only under a pointer). *)
+Theorem roundtrip_norm_with_hyp : forall t v bs,
+  in_universe t v -> representable v = true -> keys_distinct v = true ->
+  rep_tags_ok t = true -> top_ok v = true -> Size (TPtr t) (VPtr (Some v)) < lim ->
+  Marshal (TPtr t) (VPtr (Some v)) = Ok (Some bs) ->
+  exists fuel r, Unmarshal fuel t bs (zero_val t) = Ok (Some r) /\ norm r = norm v.
+Proof.
+  intros t v bs (Hty & Hnum & Hwf & _) Hrep Hkd Hrt Htop Hsz HM.
+  destruct (marshal_ptr_enc t v bs Hty Hrt Hnum Hwf Hsz HM) as [-> Hlim].
+  pose proof (codec_of_cwf t Hty Hrt Hnum) as Hc. unfold Unmarshal, wire_bytes in *.
+  set (e := enc (codec_of t) (Some v) (ptr_flags top_flags)) in *.
+  destruct (len e =? 0) eqn:E0.
+  - exists O, (zero_val t). split; [reflexivity|]. symmetry.
+    apply (enc_nil_norm _ _ Hc v (ptr_flags top_flags) Hwf Hrep); [unfold frange; vm_compute; split; congruence | right; exact Htop |].
+    apply len_0_nil. fold e. apply Z.eqb_eq, E0.
+  - assert (He : elem_ty t = true) by (apply elem_ok_elem_ty, Hty).
+    destruct (D_elem _ _ Hc He v (ptr_flags top_flags) proto_toplevel (length e + cdepth (codec_of t) + 1)%nat
+                Hwf Hrep Hkd fl_rel_top Hlim) as (r & Hr & Hn); [left; intros E; fold e in E; rewrite E in E0; discriminate | fold e; lia |].
+    fold e in Hr. exists (length e + cdepth (codec_of t) + 1)%nat, r. rewrite Hr. cbn [rbind].
+    rewrite Z.ltb_irrefl. split; [reflexivity | exact Hn].
+Qed.
+
+(* ==================== Part 20: the counterexamples, machine-checked ==================== *)
+(* (1) the statement of Spec.v is false: an omitted nil RawMessage (or []byte) comes back nil, [norm] makes it non-nil *)
+Lemma roundtrip_statement_false : ~ roundtrip_naive_statement.
+Proof.
+  intros H.
+  destruct (H TRawMessage (VRaw false []) []) as (fuel & Hf).
+  - unfold in_universe. repeat split; try reflexivity; vm_compute; congruence.
+  - reflexivity.
+  - reflexivity.
+  - vm_compute. reflexivity.
+  - unfold Unmarshal in Hf. cbn in Hf. discriminate Hf.
+Qed.
+
+Definition roundtrip_norm_statement (extra : gty -> val -> Prop) : Prop :=
+  forall t v bs, in_universe t v -> representable v = true -> keys_distinct v = true -> extra t v ->
+    Marshal (TPtr t) (VPtr (Some v)) = Ok (Some bs) ->
+    exists fuel r, Unmarshal fuel t bs (zero_val t) = Ok (Some r) /\ norm r = norm v.
+
+(* (3) without [top_ok]: a top-level pointer to an empty RawMessage comes back as a nil pointer *)
+Lemma roundtrip_norm_needs_top_ok :
+  ~ roundtrip_norm_statement (fun t v => rep_tags_ok t = true /\ Size (TPtr t) (VPtr (Some v)) < lim).
+Proof.
+  intros H.
+  destruct (H (TPtr TRawMessage) (VPtr (Some (VRaw true []))) []) as (fuel & r & Hf & Hn).
+  - unfold in_universe. repeat split; try reflexivity; vm_compute; congruence.
+  - reflexivity.
+  - reflexivity.
+  - split; [reflexivity | vm_compute; reflexivity].
+  - vm_compute. reflexivity.
+  - unfold Unmarshal in Hf. cbn in Hf. inversion Hf; subst r. discriminate Hn.
+Qed.
+
+(* (2) without [rep_tags_ok]: a scalar field tagged [rep] is written without its tag and cannot be read back *)
+Lemma roundtrip_norm_needs_rep_tags_ok :
+  ~ roundtrip_norm_statement (fun t v => top_ok v = true /\ Size (TPtr t) (VPtr (Some v)) < lim).
+Proof.
+  intros H.
+  destruct (H (TStruct [GField true (Some {| tag_wire := 0; tag_number := 1; tag_repeated := true; tag_zigzag := false |}) TInt])
+              (VStruct [VInt 5]) [5]) as (fuel & r & Hf & Hn).
+  - unfold in_universe. repeat split; try reflexivity; vm_compute; congruence.
+  - reflexivity.
+  - reflexivity.
+  - split; [reflexivity | vm_compute; reflexivity].
+  - vm_compute. reflexivity.
+  - destruct fuel as [|[|[|f]]]; vm_compute in Hf; discriminate Hf.
+Qed.
+
+(* STATEMENT FALSE: three classes of counterexamples, each confirmed by vm_compute on the model and by the
+   Qed-closed lemmas of Part 20 (in_universe, representable, keys_distinct all hold):
+   (1) nil-versus-empty (flaw of the statement's [norm], not of the code) -- Lemma roundtrip_statement_false:
+       t = TRawMessage, v = VRaw false []: Marshal (TPtr t) (&v) = [], Unmarshal = zero_val = VRaw false [] <> VRaw true [].
+       Also t = TStruct [GField true None TInt; GField true None TBytes], v = VStruct [VInt 5; VBytes false []]:
        Marshal = [8;5]; Unmarshal = VStruct [VInt 5; VBytes false []] <> norm v = VStruct [VInt 5; VBytes true []].
-       Also t = TRawMessage, v = VRaw false []: Marshal = [], Unmarshal = zero_val = VRaw false [] <> VRaw true [].
-   (2) a [rep] struct tag on a field that is neither a slice nor a map (fails even up to norm):
+   (2) a [rep] struct tag on a field that is neither a slice nor a map (fails even up to norm)
+       -- Lemma roundtrip_norm_needs_rep_tags_ok:
        t = TStruct [GField true (Some {| tag_wire := 0; tag_number := 1; tag_repeated := true; tag_zigzag := false |}) TInt],
        v = VStruct [VInt 5]: Marshal = [5] (the repeated pass writes no tag), Unmarshal = Ok None (an error).
-   (3) top-level pointer to an empty RawMessage (fails even up to norm; F17-like, not covered by [representable]):
-       t = TPtr TRawMessage, v = VPtr (Some (VRaw true [])): Marshal = [], Unmarshal = zero_val = VPtr None. *)
+   (3) top-level pointer to an empty RawMessage (fails even up to norm; F17-like, not covered by [representable])
+       -- Lemma roundtrip_norm_needs_top_ok:
+       t = TPtr TRawMessage, v = VPtr (Some (VRaw true [])): Marshal = [], Unmarshal = zero_val = VPtr None.
+   NEEDS-HYPOTHESIS (for the norm variant, see roundtrip_norm_with_hyp): rep_tags_ok t = true, top_ok v = true,
+   Size (TPtr t) (VPtr (Some v)) < lim.
+   The naive statement is refuted (roundtrip_statement_false); Spec.v now states the proved form. *)
 Lemma roundtrip : roundtrip_statement.
-Admitted.
+Proof. exact roundtrip_norm_with_hyp. Qed.
+
